@@ -10,25 +10,86 @@ of the statement (the input format of explaindump); without it the plain text.
 Statement i depends only on (seed, i) through splitmix64, so `--start i` with count 1 replays it.
 
 Kinds (statement i has kind kinds[i % len(kinds)]):
-  select   one SELECT with a random subset of all clauses, expressions of every kind the printer
-           knows; 1 in 12 is a deep-nesting case (up to 300 levels, never more)
-  setop    UNION ALL / DISTINCT / bare, INTERSECT, EXCEPT chains, parenthesised members, WITH on
-           the first member (inherited-WITH printers), union-level SETTINGS / FORMAT tails
-  insert   INSERT ... SELECT, WITH ... INSERT ... SELECT, INSERT INTO FUNCTION, column lists, tails
-  create   CREATE TABLE / VIEW / MATERIALIZED VIEW / DICTIONARY / DATABASE / FUNCTION / USER / ROLE ...
-           (column lists with several indexes / constraints / projections, column-level and inline
-           PRIMARY KEY incl. the empty one, ORDER BY with ASC / DESC and (), SETTINGS before and after
-           COMMENT and a second SETTINGS clause, window views with INNER ENGINE, several
-           authentication methods: the shapes the ddlcount enumeration of C04 reaches and a valid
-           statement can produce)
-  alter    ALTER TABLE with every command kind the parser knows (statistics kinds with arguments,
-           full column declarations in ADD / MODIFY COLUMN, ADD INDEX ... AFTER, IN PARTITION ID,
-           ALTER ... FORMAT)
-  utility  SHOW*, DESCRIBE, EXPLAIN of all kinds, USE, SET, SYSTEM, OPTIMIZE, TRUNCATE, RENAME,
-           EXCHANGE, GRANT/REVOKE, KILL, BACKUP/RESTORE, CHECK, ATTACH/DETACH, DROP*, EXISTS,
-           UNDROP, transactions
+  select   one SELECT with a random subset of all clauses (WITH [RECURSIVE], DISTINCT ON, TOP, FROM with every
+           join spelling / table function / kql() / SAMPLE ratio spelling, ARRAY JOIN, PREWHERE, GROUP BY with
+           GROUPING SETS / ROLLUP / CUBE / TOTALS, WINDOW with references between windows, QUALIFY, ORDER BY
+           with COLLATE / WITH FILL / INTERPOLATE, every LIMIT / OFFSET / FETCH spelling, tails), expressions of
+           every kind the printers know; FROM-first spelling; 1 in 12 is a deep-nesting case (up to 300 levels,
+           never more)
+  setop    UNION ALL / DISTINCT / bare, INTERSECT, EXCEPT chains (also ALL / DISTINCT), parenthesised members, WITH
+           on the first member (inherited-WITH printers), UNION after an INTERSECT chain, union-level tails
+  insert   INSERT ... SELECT / VALUES / FORMAT with inline data / FROM INFILE, WITH ... INSERT ... SELECT, INSERT INTO
+           FUNCTION ... PARTITION BY, column lists (nested names, matchers with transformers), tails
+  create   CREATE TABLE / VIEW / MATERIALIZED VIEW / WINDOW VIEW / DICTIONARY / DATABASE / FUNCTION / USER / ROLE /
+           POLICY / QUOTA / PROFILE / INDEX / NAMED COLLECTION / RESOURCE / WORKLOAD, ATTACH TABLE / MATERIALIZED VIEW /
+           DICTIONARY / DATABASE (column lists with several indexes / constraints / projections, column-level and
+           inline PRIMARY KEY incl. the empty one, ORDER BY with ASC / DESC and (), table options in any order,
+           SETTINGS before and after COMMENT and a second SETTINGS clause, engines with parameters, CLONE AS,
+           tables without ENGINE, REFRESH views, several authentication methods: the shapes the ddlcount
+           enumeration of C04 reaches and a valid statement can produce)
+  alter    ALTER TABLE with every command kind the parser knows (statistics kinds with arguments, full column
+           declarations in ADD / MODIFY COLUMN, nested column names, ADD INDEX ... AFTER, IN PARTITION [ID | ALL],
+           RESET SETTING with repeated names, ALTER ... FORMAT / SETTINGS), ALTER USER / ROLE / POLICY / PROFILE /
+           NAMED COLLECTION
+  utility  SHOW* (with FORMAT / SETTINGS), DESCRIBE, EXPLAIN of all kinds and as a FROM / scalar subquery, USE, SET,
+           SYSTEM (SYNC REPLICA modes ...), OPTIMIZE, TRUNCATE, RENAME, EXCHANGE, GRANT / REVOKE, KILL, BACKUP /
+           RESTORE, CHECK, ATTACH / DETACH, DROP*, EXISTS, UNDROP, UPDATE / DELETE, transactions, PARALLEL WITH,
+           parenthesised statements
+
+About 1 statement in 25 gets a layout decoration that never changes its meaning (block comments between tokens,
+a trailing -- / # comment, zero-width separators, leading / trailing semicolons).
+
+The productions were extended from MEASURED coverage of /repo (parser, internal/explain, lexer) by
+this grammar: every statement printer, the literal formatters (negative / nested / big / special
+float literals, :: casts of them), SAMPLE ratio spellings, special functions (kql, DATE_ADD / DATE_DIFF
+families, POSITION(x IN y), quantified comparisons, FILTER / IGNORE NULLS / OVER), column matchers
+with transformers, JSON paths, MySQL-style types, Enum / Tuple / DateTime64 spellings with odd
+characters, string literals of every lexer form (escapes, doubled quotes, heredocs, x'..' / b'..',
+curly quotes) and comments.  A small share of the string literals contains a RAW TAB or CR (never a
+line feed); every other control character is spelled as an escape.
+
+KNOWN_OPEN: constructs that are valid ClickHouse and accepted by the parser but make a check fail on
+the unchanged /repo are reported to the maintainer and switched off here BY NAME until decided, so
+that the registered checks stay green; `ko(name)` is the only place that reads the set.
 """
+import re
 import sys
+
+# construct name -> one-line reason (see DESIGN.md open findings); empty = everything enabled
+KNOWN_OPEN = {
+    # (all nine constructs reported on 2026-10-01 were genuine defects and are fixed in /repo: see known_findings.json)
+}
+
+
+def ko(name):
+    return name in KNOWN_OPEN
+
+
+def unless(name, *items):
+    """the items, unless the construct `name` is switched off in KNOWN_OPEN"""
+    return [] if ko(name) else list(items)
+
+# Valid ClickHouse that the parser of /repo REJECTED when this grammar was extended (not generated: a rejected statement
+# teaches nothing; listed so that a later parser fix can be followed by a production)
+PARSER_GAPS = [
+    "EXPLAIN CURRENT TRANSACTION", "SYSTEM SYNC REPLICA db.t STRICT", "SYSTEM SYNC DATABASE REPLICA db", "SYSTEM REFRESH VIEW v",
+    "SYSTEM SYNC TRANSACTION LOG", "SHOW SETTING max_threads", "SHOW CURRENT ROLES", "SHOW ROW POLICIES", "SHOW TABLES IN db",
+    "INSERT INTO FUNCTION f(...) PARTITION BY (a, b) (cols) VALUES ...   -- ClickHouse's order; only (cols) PARTITION BY is taken",
+    "INSERT INTO t VALUES (1) (2)   -- rows without commas", "CREATE TABLE ... PRIMARY KEY (a + b) % 10", "x UInt8 EPHEMERAL now()",
+    "CREATE TABLE t CLONE AS db.t2", "CREATE TABLE t ENGINE = Memory EMPTY AS SELECT 1", "SOURCE(HTTP(... HEADERS(HEADER(NAME 'a' VALUE 'b'))))",
+    "CREATE MATERIALIZED VIEW mv REFRESH EVERY 1 HOUR TO dst EMPTY AS ...", "REFRESH EVERY 1 DAY OFFSET 1 HOUR", "ALTER ... MODIFY COLUMN c TTL expr   -- without a type",
+    "ALTER ... CLEAR COLUMN IF EXISTS c", "ALTER ... DROP DETACHED PARTITION ID 'x'", "ALTER ... ADD COLUMN c T FIRST", "ALTER ... ADD INDEX IF NOT EXISTS i ...",
+    "ALTER ... REPLACE PARTITION 1 FROM db.t2", "ALTER ... FREEZE WITH NAME 'n'", "ALTER ... DELETE IN PARTITION 1 WHERE ...",
+    "WITH 1 AS x SELECT x INTERSECT (SELECT 1) FORMAT Null", "SELECT 1 UNION ALL SELECT 2 INTERSECT (SELECT 2) SETTINGS a = 1", "COLUMNS('a') EXCEPT('pattern')",
+    "SELECT ... LIMIT 1 BY format(a) ...   -- FORMAT as the first word of a LIMIT BY element ends the list", "INTO OUTFILE 'f' COMPRESSION 'gzip'",
+    "INTERVAL {p:UInt32} DAY", "FROM t FETCH FIRST 1 ROWS ONLY   -- FETCH is taken for the table alias", "DETACH TABLE t PERMANENTLY", "OPTIMIZE TABLE t DEDUPLICATE BY a",
+    "BACKUP TABLE t AS t2 TO ...", "TRUNCATE ALL TABLES FROM db", "CHECK TABLE t PARTITION ID 'x'", "SET ROLE r",
+    "CREATE DICTIONARY d ON CLUSTER c (...) ...   -- accepted, but cluster and attributes are dropped (CLUSTER is compared as an identifier)",
+]
+
+# private-use code points standing for raw control characters inside string literals; they are
+# substituted AFTER the whitespace normalisation of main() (which would turn a TAB into a space)
+RAW_TAB, RAW_CR = "\ue000", "\ue001"
 
 MASK = (1 << 64) - 1
 
@@ -71,62 +132,229 @@ class Rng:
 
 COLS = ["a", "b", "c", "x", "y", "id", "ts", "val", "name", "arr", "tup", "m"]
 TABLES = ["t", "t1", "t2", "db.t", "db.events", "system.numbers", "hits"]
-FUNCS1 = ["abs", "toString", "length", "toDate", "lower", "isNull", "toUInt8", "negate", "reverse", "empty"]
-FUNCS2 = ["plus", "concat", "greatest", "if_null", "ifNull", "pow", "arrayElement", "has", "position", "substring"]
-AGGS = ["count", "sum", "min", "max", "avg", "any", "uniq", "groupArray"]
-FORMATS = ["Null", "JSON", "TSV", "CSV", "Pretty", "JSONEachRow", "Values", "TabSeparated"]
-SETTINGS = ["max_threads", "max_block_size", "allow_experimental_analyzer", "join_use_nulls", "optimize_read_in_order"]
+FUNCS1 = ["abs", "toString", "length", "toDate", "lower", "isNull", "toUInt8", "negate", "reverse", "empty",
+          "toTypeName", "hex", "toFloat64", "assumeNotNull", "toYYYYMM", "isNotNull", "notEmpty", "sipHash64"]
+FUNCS2 = ["plus", "concat", "greatest", "if_null", "ifNull", "pow", "arrayElement", "has", "position", "substring",
+          "intDiv", "modulo", "coalesce", "dateDiff", "arrayConcat", "tupleElement", "startsWith", "least"]
+AGGS = ["count", "sum", "min", "max", "avg", "any", "uniq", "groupArray", "argMax", "uniqExact", "anyLast", "sumIf"]
+FORMATS = ["Null", "JSON", "TSV", "CSV", "Pretty", "JSONEachRow", "Values", "TabSeparated", "Vertical", "Native",
+           "TSVWithNames", "RowBinary", "Parquet", "PrettyCompact", "XML", "LineAsString"]
+SETTINGS = ["max_threads", "max_block_size", "allow_experimental_analyzer", "join_use_nulls", "optimize_read_in_order",
+            "max_memory_usage", "limit", "offset", "final", "enable_optimize_predicate_expression"]
+# keywords of the lexer that ClickHouse (and the parser) take as plain names in a column position
+# (not `format`: after a comma the parser reads it as the FORMAT clause)
+KW_NAMES = ["key", "index", "sync", "first", "last", "array", "view", "database", "table"]
 
 
 def ident(r):
-    x = r.below(20)
-    if x == 0:
-        return "`" + r.pick(["weird name", "select", "a-b", "x.y", "1col"]) + "`"
-    if x == 1:
-        return '"' + r.pick(["quoted", "Order", "my col"]) + '"'
+    x = r.below(40)
+    if x < 2:
+        return "`" + r.pick(["weird name", "select", "a-b", "x.y", "1col", "ключ", "a'b", "a\\\\b", "tab\\tname", "a``b",
+                             "a\\`b", "日本", "x y z", "from", "{a}", "a\"b", "\\x41bc", "nul\\0x", "\\xffbad", "\\xc3\\x28", "a\\'b", "q\\\"q", "bell\\a", "bs\\b", "ff\\f", "vt\\v", "esc\\e", "\\x4A\\x6b", "un\\known"]) + "`"
+    if x < 4:
+        return '"' + r.pick(["quoted", "Order", "my col", "q\"\"q", "a\\\"b", "üñí", "a`b", "group"]) + '"'
+    if x == 4:
+        return r.pick(["“curly”", "_1", "x1_", "A", "ID", "Name", "a_1", "_"])
+    if x == 5:
+        return r.pick(KW_NAMES)
     return r.pick(COLS)
 
 
 def col(r):
-    x = r.below(10)
-    if x == 0:
+    x = r.below(40)
+    if x < 4:
         return r.pick(["t", "t1", "t2"]) + "." + r.pick(COLS)
-    if x == 1:
+    if x < 8:
         return "db.t." + r.pick(COLS)
+    if x == 8:
+        # JSON paths (sub-column, sub-object, typed sub-column, array of objects)
+        return r.pick(["json.a.b", "json.^sub", "json.a.:Int64", "json.a.:`Array(JSON)`", "json.arr[].x", "json.a.^b.c",
+                       "json.arr[].nested[].v", "json.`a b`.c", "json.a.:String", "j.k.v.w", "json.^`a`.b",
+                       "json.arr[].:Int64", "json.a.:'String'", "json.arr[].^sub.x", "json.a[].b[].^c"])
+    if x == 9:
+        return r.pick(["t.key", "t.index", "tup.first", "db.t.format", "n.a", "nested.x.y"])
     return ident(r)
 
 
+STR_BODIES = ["abc", "", "hello world", "it\\'s", "a\\\\b", "%x%", "2020-01-01", "1", "\\n", "tab\\there",
+              "üñí", "a;b", "--c", "/*d*/",
+              # every escape the lexer knows, doubled quotes, CR LF and other control characters (as escapes)
+              "line1\\r\\nline2", "nul\\0byte", "bell\\a", "bs\\b", "ff\\f", "vt\\v", "esc\\e[0m", "hex\\x41\\x7a\\x00",
+              "it''s", "q\\\"q", "back\\\\\\\\slash", "日本語", "emoji \U0001F600", "a\\tb\\tc", " lead", "trail ",
+              "\\q unknown", "{}", "[1,2]", "(a)", "$$", "`bt`", "\"dq\"", "NULL", "-1", "1e5", "\\\\", "\\'", "''",
+              "a\\\\\\'b", "x" * 70, "\\r", "\\0", "\\x7f\\xff", "α β γ", "1 day", "0", "a,b", "a|b", "{name:String}",
+              "SELECT 1", "\\\\n", "tab\\t", "\\x0b", "\\x4A\\x4b\\xAF", "\\xe2\\x82\\xac", "back\\\\", " nbsp", "it\\'s \\\"q\\\" \\\\ \\n \\t \\0 \\r"]
+
+
 def string_lit(r):
-    return "'" + r.pick(["abc", "", "hello world", "it\\'s", "a\\\\b", "%x%", "2020-01-01", "1", "\\n", "tab\\there",
-                         "üñí", "a;b", "--c", "/*d*/"]) + "'"
+    x = r.below(60)
+    if x == 0:
+        # heredocs (no escapes inside), hex / binary strings, curly quotes
+        return r.pick(["$$abc$$", "$$it's a \"heredoc\"$$", "$tag$a $$ b$tag$", "$$$$", "$q$\\n is not an escape here$q$",
+                       "x'616263'", "X'00ff'", "b'0110000101100010'", "B'01'", "x''", "‘curly’",
+                       "‘it’"])
+    if x == 1 and r.p(1, 6):
+        # the small dedicated share with RAW control characters (TAB / CR never break the line)
+        return "'" + r.pick(["raw" + RAW_TAB + "tab", "raw" + RAW_CR + "cr", "cr" + RAW_CR + "\\nlf", RAW_TAB,
+                             "a" + RAW_TAB + RAW_TAB + "b" + RAW_CR]) + "'"
+    return "'" + r.pick(STR_BODIES) + "'"
+
+
+BIG = "1" + "0" * 320          # an integer literal beyond the range of a double
+NUMBERS = [BIG, "-" + BIG, "0", "1", "42", "255", "65536", "18446744073709551615", "1.5", "0.1", "1e10", "1.5e-3", "0x1F",
+           "0b101", "-1", "-2.5", "3.", ".5", "1_000", "inf", "nan", "9223372036854775808",
+           # boundaries, big values, special spellings
+           "9223372036854775807", "18446744073709551616", "123456789012345678901234567890", "-0", "-0.0", "0.0",
+           "-9223372036854775808", "-9223372036854775809", "-18446744073709551615", "-18446744073709551616",
+           "1e-7", "1e21", "1E+5", "1e-3", "0.000001", "0.0000001", "100000000000000000000.", "1e400", "-1e-10",
+           "0xFFFFFFFFFFFFFFFF", "0xFFFFFFFFFFFFFFFFFF", "0x1.8p3", "0X1P-2", "0b11111111", "0xdeadBEEF", "0x0",
+           "-inf", "-nan", "+inf", "+1", "+0.5", "Inf", "NaN", "INF", "NAN", "-Inf", "-NaN", "1_000_000", "1_0.5",
+           "007", "00", "1.0", "2.50", "-.5", "1.e3", "1e0", "4294967296", "-128", "127", "0.30000000000000004",
+           "3.141592653589793", "1.7976931348623157e308", "5e-324", "-1.5e300", ".5e3", ".25E-2", ".0"]
 
 
 def number_lit(r):
-    return r.pick(["0", "1", "42", "255", "65536", "18446744073709551615", "1.5", "0.1", "1e10", "1.5e-3", "0x1F",
-                   "0b101", "-1", "-2.5", "3.", ".5", "1_000", "inf", "nan", "9223372036854775808"])
+    return r.pick(NUMBERS)
 
 
-def literal(r):
-    x = r.below(12)
-    if x < 5:
-        return number_lit(r)
-    if x < 8:
-        return string_lit(r)
+def unsigned_lit(r):
+    s = r.pick(NUMBERS)
+    while s[0] in "+-":
+        s = s[1:]
+    return s
+
+
+def neg_elem(r):
+    """an element of a literal array: negation of something that is not a plain number (negate(NULL) ...)"""
+    return r.pick(["-NULL", "-'a'", "-true", "-x", "-(1)", "-inf", "-nan", "- 1", "-0", "-0.0",
+                   "-18446744073709551615", "-9223372036854775808", "-1e400", "-123456789012345678901234567890"]
+                  + unless("neg-array-in-literal", "-[1]", "-(1, 2)", "-[1, 2]", "-[]"))
+
+
+def array_lit(r, depth=0):
+    """literal arrays of every shape the literal formatter distinguishes (flat, nested, empty, mixed, negated)"""
+    x = r.below(14)
+    if x == 0:
+        return "[]"
+    if x == 1:
+        return "[" + ", ".join(number_lit(r) for _ in range(1 + r.below(4))) + "]"
+    if x == 2:
+        return "[" + ", ".join(string_lit(r) for _ in range(1 + r.below(3))) + "]"
+    if x == 3:
+        return "[" + ", ".join(r.pick(["NULL", "1", "'a'", "true", "false", "-1", "1.5"]) for _ in range(1 + r.below(4))) + "]"
+    if x == 4 and depth < 3:
+        return "[" + ", ".join(array_lit(r, depth + 1) for _ in range(1 + r.below(3))) + "]"
+    if x == 5 and depth < 3:
+        return "[" + ", ".join(tuple_lit(r, depth + 1) for _ in range(1 + r.below(3))) + "]"
+    if x == 6:
+        # a negated non-number next to numbers: stays a Literal only inside a NESTED array
+        return "[" + ", ".join(r.pick([number_lit(r), neg_elem(r)]) for _ in range(1 + r.below(3))) + "]"
+    if x == 7:
+        return "[[" + ", ".join(r.pick([number_lit(r), neg_elem(r), "NULL"]) for _ in range(1 + r.below(3))) + "]]"
     if x == 8:
-        return "NULL"
+        return r.pick(["[1,2,3]", "[ 1, 2 ]", "[1 ,2]", "[ ]", "[[1,2],[3]]", "[ [1], [] ]", "[(1)]", "[(1), (2)]",
+                       "[[[]]]", "[[], [[]]]", "[NULL]", "[NULL, NULL]", "[[NULL]]", "[true]", "[[true, false], [NULL]]"])
     if x == 9:
-        return r.pick(["true", "false"])
+        return "[" + ", ".join(r.pick(["-1", "-0", "-1.5", "-inf", "1", "-9223372036854775808", "-18446744073709551615",
+                                       "-18446744073709551616", "0", "-0.0"]) for _ in range(1 + r.below(4))) + "]"
     if x == 10:
-        return "[" + ", ".join(r.pick([number_lit, string_lit])(r) for _ in range(r.below(4))) + "]"
-    return "(" + ", ".join(literal(r) for _ in range(2 + r.below(2))) + ")"
+        return "[" + number_lit(r) + ", " + string_lit(r) + ", NULL]"
+    if x == 11 and depth < 2:
+        return "[" + array_lit(r, depth + 1) + ", " + neg_elem(r) + "]"
+    return "[" + ", ".join(r.pick([number_lit, string_lit])(r) for _ in range(r.below(4))) + "]"
+
+
+def tuple_lit(r, depth=0):
+    x = r.below(12)
+    if x == 0:
+        return "()" if depth else "tuple()"
+    if x == 1:
+        return "(" + literal(r, depth + 1) + ",)"
+    if x == 2 and depth < 3:
+        return "(" + tuple_lit(r, depth + 1) + ", " + literal(r, depth + 1) + ")"
+    if x == 3:
+        return "(" + ", ".join(r.pick(["-1", "-2.5", "1", "'a'", "NULL", "-0", "-inf", "true"]) for _ in range(2 + r.below(3))) + ")"
+    if x == 4:
+        return r.pick(["((1), (2))", "((1, 2), (3, 4))", "(1,2)", "( 1 , 2 )", "(1, (2, (3, 4)))", "((), ())",
+                       "(NULL, NULL)", "(1, [2, 3])", "([1], [2])", "((1,), 2)", "(-1, -'a')", "(1, -NULL)",
+                       "((1, -2), (-3.5, 4))", "((1, -x), 2)"])
+    if x == 5 and depth < 3:
+        return "(" + array_lit(r, depth + 1) + ", " + literal(r, depth + 1) + ")"
+    return "(" + ", ".join(literal(r, depth + 1) for _ in range(2 + r.below(2))) + ")"
+
+
+def literal(r, depth=0):
+    x = r.below(16)
+    if x < 6:
+        return number_lit(r)
+    if x < 10:
+        return string_lit(r)
+    if x == 10:
+        return "NULL"
+    if x == 11:
+        return r.pick(["true", "false", "TRUE", "False"])
+    if x < 14 and depth < 4:
+        return array_lit(r, depth)
+    if depth < 4:
+        return tuple_lit(r, depth)
+    return number_lit(r)
 
 
 SIMPLE_TYPES = ["UInt8", "UInt16", "UInt32", "UInt64", "Int8", "Int32", "Int64", "Float32", "Float64", "String",
-                "Date", "DateTime", "UUID", "Bool", "IPv4", "Date32", "Int128", "UInt256"]
+                "Date", "DateTime", "UUID", "Bool", "IPv4", "Date32", "Int128", "UInt256", "IPv6", "Int16", "Int256",
+                "UInt128", "BFloat16", "Point", "Nothing", "IntervalDay", "Time", "Decimal32(2)", "Decimal64(4)"]
+
+# Enum spellings: many values, negative / implicit numbers, names with quotes, backslashes, control characters (escapes)
+ENUMS = ["Enum8('a' = 1, 'b' = 2)", "Enum('x', 'y')", "Enum16('k' = -5, 'l' = 300)",
+         "Enum8(" + ", ".join("'v%d' = %d" % (i, i) for i in range(1, 18)) + ")",
+         "Enum16(" + ", ".join("'name_%d' = %d" % (i, i * 100 - 800) for i in range(20)) + ")",
+         "Enum(" + ", ".join("'%s'" % w for w in ["a", "b", "c", "d", "e", "f", "g", "h", "i", "j", "k", "l", "m", "n", "o", "p", "q"]) + ")",
+         "Enum8('it\\'s' = 1, 'back\\\\slash' = 2, 'tab\\t' = 3, 'nl\\n' = 4, 'nul\\0' = 5, 'cr\\r' = 6, '' = 7)",
+         "Enum8('a''b' = 1, 'q\\\"' = 2, '\\x01' = 3, 'ü' = 4, ' ' = 5)", "Enum8('a' = -128, 'b' = 127)",
+         "Enum16('x' = 1, 'y')", "Enum8('only' = 0)", "Enum('a' = 1, 'b' = 2, 'c' = 3)",
+         "Enum8('\\b' = 1, '\\f' = 2, '\\a' = 3, '\\v' = 4, '\\e' = 5)"]
+# time zones and other string parameters with odd characters
+DT_TYPES = ["DateTime('UTC')", "DateTime64(3)", "DateTime64(6, 'Europe/Berlin')", "DateTime('Etc/GMT+5')",
+            "DateTime64(9, 'America/Argentina/Buenos_Aires')", "DateTime64(3, 'Asia/Kolkata')", "DateTime('Etc/GMT-14')",
+            "DateTime64(0, 'UTC')", "DateTime('it\\'s/odd')", "DateTime64(3, 'a\\\\b')", "DateTime64(3, 'tab\\tzone')",
+            "DateTime64(3, '')", "DateTime('Zone With Space')", "DateTime64(6, 'ü/ñ')", "Time64(3)", "DateTime64(1, 'nl\\nzone')",
+            "DateTime64(3, 'cr\\rzone')", "DateTime('q\\\"q')", "DateTime64(3, 'nul\\0')", "DateTime('a''b')"]
+# Tuple element names: plain, non-ASCII, names that need back-quotes, names that are type names or keywords
+TUPLE_NAMES = ["a", "b", "k", "v", "`a b`", "`ключ`", "`weird-name`", "\"q\"", "date", "string", "key", "`1st`", "`a.b`",
+               "`it's`", "naïve", "`select`", "`tab\\tname`", "uuid", "id", "`日本`", "`back\\\\slash`", "`a``b`"]
+MYSQL_TYPES = ["INT(11)", "INT(11) UNSIGNED", "INT UNSIGNED", "BIGINT SIGNED", "TINYINT(1)", "SMALLINT UNSIGNED", "MEDIUMINT",
+               "INTEGER", "INT1 UNSIGNED", "DOUBLE PRECISION", "CHAR VARYING(10)", "CHARACTER VARYING(5)", "CHAR LARGE OBJECT",
+               "CHARACTER LARGE OBJECT", "NCHAR VARYING(3)", "NCHAR LARGE OBJECT", "BINARY VARYING(8)", "BINARY LARGE OBJECT",
+               "NATIONAL CHAR(4)", "NATIONAL CHARACTER VARYING(7)", "NATIONAL CHAR VARYING(2)", "NATIONAL CHARACTER LARGE OBJECT",
+               "VARCHAR(255)", "TEXT", "BLOB", "FLOAT", "DOUBLE", "BIGINT", "CHAR(3)", "BINARY(4)", "DEC(9, 2)", "NUMERIC(10, 3)",
+               "REAL", "BOOLEAN", "TIMESTAMP", "int unsigned", "Int UNSIGNED", "bigint signed", "double precision"]
+JSON_TYPES = ["JSON", "Dynamic", "Object('json')", "Variant(String, UInt64)", "JSON(max_dynamic_paths = 8)",
+              "JSON(a.b UInt32, SKIP a.c)", "JSON(max_dynamic_types = 4, a String, SKIP REGEXP 'x.*')", "Dynamic(max_types = 3)",
+              "JSON(SKIP a, SKIP b.c.d)", "JSON(a.b.c Array(Nullable(String)))", "Variant(Array(UInt8), Tuple(a UInt8, b String), String)",
+              "JSON(SKIP REGEXP '^tmp\\\\.', max_dynamic_paths = 0)", "JSON(`a b` UInt8)", "Variant()", "JSON()",
+              "JSON(SKIP REGEXP 'it\\'s')", "Object(a UInt8)", "JSON(SKIP REGEXP 'a\\tb')"] + unless("json-skip-regexp-newline", "JSON(SKIP REGEXP 'a\\nb')")
+AGG_TYPES = ["SimpleAggregateFunction(sum, UInt64)", "AggregateFunction(uniq, String)",
+             "AggregateFunction(quantiles(0.5, 0.9), Float64)", "AggregateFunction(sumMapFiltered([1, 2]), Array(UInt8), Array(UInt8))",
+             "AggregateFunction(quantileTiming(0.5), UInt32)", "SimpleAggregateFunction(anyLast, Nullable(String))",
+             "AggregateFunction(groupArrayIf, UInt8, UInt8)", "AggregateFunction(argMax, String, DateTime64(3, 'UTC'))",
+             "AggregateFunction(topK(10), Tuple(a UInt8, b String))", "AggregateFunction(count)", "AggregateFunction(sequenceMatch('(?1)(?2)'), DateTime, UInt8, UInt8)",
+             "AggregateFunction(groupArray(-1), Int8)", "AggregateFunction(quantileExact(0.5), Decimal(9, 2))",
+             "AggregateFunction(groupArrayInsertAt(0, 3), Nullable(String), UInt32)", "AggregateFunction(groupConcat(','), String)",
+             "AggregateFunction(f(x, 'a', [1, [2]], g(1)), UInt8)", "AggregateFunction(f(-x), UInt8)", "AggregateFunction(1, sumMapFiltered([1, 2]), Array(UInt8))"] \
+    + unless("type-func-param-null", "AggregateFunction(groupArrayInsertAt(NULL, 3), Nullable(String), UInt32)", "AggregateFunction(f(NULL), UInt8)") \
+    + unless("type-func-param-newline", "AggregateFunction(groupConcat('\\n'), String)", "AggregateFunction(groupConcat('\\r\\n'), String)")
+
+
+def named_elem(r, depth):
+    n = r.pick(TUPLE_NAMES)
+    if n in ("date", "string", "uuid"):
+        # a name that is itself a type name is taken for the name only when a known type name follows
+        return n + " " + r.pick(["Date", "String", "UUID", "UInt8", "Array(String)", "Nullable(Date)", "DateTime64(3)", "Tuple(a UInt8)"])
+    return n + " " + data_type(r, depth + 1)
 
 
 def data_type(r, depth=0, ddl=False):
-    x = r.below(22 if depth < 3 else 8)
+    x = r.below(30 if depth < 3 else 8)
     if x == 19 and not ddl:
         x = 9
     if x < 8:
@@ -136,70 +364,102 @@ def data_type(r, depth=0, ddl=False):
     if x == 9:
         return "Array(" + data_type(r, depth + 1) + ")"
     if x == 10:
-        return "LowCardinality(" + r.pick(["String", "Nullable(String)", "FixedString(4)"]) + ")"
+        return "LowCardinality(" + r.pick(["String", "Nullable(String)", "FixedString(4)", "UInt8"]) + ")"
     if x == 11:
         return "FixedString(" + str(1 + r.below(64)) + ")"
+    if x == 12 and depth > 0:
+        return r.pick(["Decimal(" + str(10 + r.below(20)) + ", " + str(r.below(9)) + ")", "Decimal(9)", "Decimal128(10)", "Decimal(10, -2)"])
     if x == 12:
-        return "Decimal(" + str(10 + r.below(20)) + ", " + str(r.below(9)) + ")"
+        return r.pick(["Decimal(" + str(10 + r.below(20)) + ", " + str(r.below(9)) + ")", "Decimal(9)", "Decimal128(10)",
+                       "Decimal256(20)", "Decimal(76, 38)", "Decimal(10, -2)",
+                       # type names the parser does not know, with every kind of literal argument a type may take
+                       "Custom(-1, - 1.5, 'a', b, true)", "Custom(1 = 2, a = b, 'k' = -1, 'a' = 'b', a = 'x')", "MyType(-x)", "MyType(NOT y, f(x) = 1, a = f(x))"]
+                      + unless("type-literal-param", "Custom([1, 2])", "Custom((1, 'a'), [[1], [2]])", "Custom(NULL)", "Custom(1, NULL, [NULL])"))
     if x == 13:
-        return r.pick(["DateTime('UTC')", "DateTime64(3)", "DateTime64(6, 'Europe/Berlin')"])
+        return r.pick(DT_TYPES)
     if x == 14:
         return "Tuple(" + ", ".join(data_type(r, depth + 1) for _ in range(1 + r.below(3))) + ")"
-    if x == 15:
-        return "Tuple(" + ", ".join(r.pick(["a", "b", "k", "v"]) + str(i) + " " + data_type(r, depth + 1)
-                                    for i in range(1 + r.below(3))) + ")"
+    if x == 15 or x == 22:
+        return "Tuple(" + ", ".join(named_elem(r, depth) for i in range(1 + r.below(3))) + ")"
     if x == 16:
-        return "Map(" + r.pick(["String", "UInt64", "LowCardinality(String)"]) + ", " + data_type(r, depth + 1) + ")"
-    if x == 17:
-        return "Enum8('a' = 1, 'b' = 2)"
-    if x == 18:
-        return r.pick(["Enum('x', 'y')", "Enum16('k' = -5, 'l' = 300)"])
+        return "Map(" + r.pick(["String", "UInt64", "LowCardinality(String)", "Date"]) + ", " + data_type(r, depth + 1) + ")"
+    if x == 17 or x == 18 or x == 23:
+        return r.pick(ENUMS)
     if x == 19:
-        return "Nested(" + ", ".join(r.pick(["n", "k", "v"]) + str(i) + " " + r.pick(SIMPLE_TYPES)
+        return "Nested(" + ", ".join(r.pick(["n%d", "k%d", "v%d", "`a b%d`", "`ключ%d`", "key%d"]) % i + " " + r.pick(SIMPLE_TYPES)
                                      for i in range(1 + r.below(3))) + ")"
     if x == 20:
-        return r.pick(["SimpleAggregateFunction(sum, UInt64)", "AggregateFunction(uniq, String)",
-                       "AggregateFunction(quantiles(0.5, 0.9), Float64)"])
-    return r.pick(["JSON", "Variant(String, UInt64)", "Dynamic", "Object('json')"])
+        return r.pick(AGG_TYPES)
+    if x == 21:
+        return r.pick(JSON_TYPES)
+    if x == 24:
+        # the multi-word CHAR / BINARY / NATIONAL spellings are type names only where a type is expected directly
+        t = r.pick(MYSQL_TYPES)
+        if depth > 0 and t.split("(")[0].split()[0].upper() not in ("INT", "DOUBLE", "FLOAT"):
+            t = r.pick(["INT UNSIGNED", "DOUBLE PRECISION", "INT SIGNED", "INT(11)", "INT(11) UNSIGNED"])
+        return t
+    if x == 25:
+        return r.pick(["Tuple()", "Array(Nothing)", "Nullable(Nothing)", "Tuple(Tuple(a UInt8), Tuple(UInt8))", "Array(Array(Array(String)))",
+                       "Map(String, Map(String, Array(Tuple(k String, v Nullable(UInt64)))))", "Tuple(date Date, string String, uuid UUID)",
+                       "LowCardinality(Nullable(FixedString(16)))", "Nested(a UInt8, b Nested(c String))", "Tuple(a Tuple(b Tuple(c UInt8)))",
+                       "Ring", "Polygon", "MultiPolygon", "QBit(Float32, 8)", "Interval", "Tuple(`a` UInt8, `b` String)"])
+    if x == 26:
+        return "Array(" + r.pick(ENUMS + DT_TYPES) + ")"
+    if x == 27:
+        return "Nullable(" + r.pick(DT_TYPES + ["Decimal(18, 4)", "FixedString(3)", "Enum8('a' = 1)"]) + ")"
+    return r.pick(SIMPLE_TYPES)
+
+
+def type_string(r):
+    """a data type spelled inside a string literal (CAST(x, 'T'), table function structures)"""
+    return "'" + data_type(r).replace("\\", "\\\\").replace("'", "\\'") + "'"
 
 
 # ------------------------------------------------------------------------------------------
 # expressions
 
 BINOPS = ["+", "-", "*", "/", "%", "=", "==", "!=", "<>", "<", "<=", ">", ">=", "AND", "OR", "||", "<=>",
-          "DIV", "MOD"]
+          "DIV", "MOD", "and", "or", "div", "mod", "||", "<=>", "DIV", "MOD"]
+CMPOPS = ["=", "==", "!=", "<>", "<", "<=", ">", ">="]
+UNITS = ["DAY", "HOUR", "MONTH", "SECOND", "WEEK", "YEAR", "MINUTE", "QUARTER", "MILLISECOND", "MICROSECOND", "NANOSECOND",
+         "day", "Days", "HOURS", "weeks", "years", "minutes", "seconds", "months", "quarters"]
+# units as the DATE_ADD / DATE_DIFF families take them (also SQL abbreviations and ODBC SQL_TSI_* names)
+DATE_UNITS = ["DAY", "day", "MONTH", "YEAR", "HOUR", "MINUTE", "SECOND", "WEEK", "QUARTER", "yy", "qq", "mm", "wk", "ww", "dd",
+              "hh", "mi", "ss", "SQL_TSI_DAY", "SQL_TSI_MONTH", "sql_tsi_year", "ms", "us", "ns", "days", "years", "w", "d", "h",
+              "m", "s", "MILLISECOND", "microseconds"]
 
 
 def expr(r, d=0, subq=True):
     """an expression; d = current depth (bounded), subq = may contain subqueries"""
     if d >= 4:
         return atom(r)
-    x = r.below(46)
+    x = r.below(78)
     e = lambda: expr(r, d + 1, subq)
-    if x < 10:
+    if x < 12:
         return atom(r)
-    if x < 14:
-        return e() + " " + r.pick(BINOPS) + " " + e()
-    if x == 14:
-        return "(" + e() + ")"
-    if x == 15:
-        a = atom(r)
-        op = r.pick(["NOT ", "-", "not "])
-        return op + ("(" + a + ")" if a.startswith("-") else a)     # never "--": that starts a comment
-    if x == 16:
-        return r.pick(FUNCS1) + "(" + e() + ")"
+    if x < 17:
+        return e() + " " + r.pick(BINOPS) + " " + no_quantifier(e())
     if x == 17:
-        return r.pick(FUNCS2) + "(" + e() + ", " + e() + ")"
+        return "(" + e() + ")"
     if x == 18:
-        return r.pick(AGGS) + "(" + r.pick(["", "DISTINCT "]) + col(r) + ")"
+        a = atom(r)
+        op = r.pick(["NOT ", "-", "not ", "+", "- "])
+        if op[0] == "-" and a[0] in "[(" and ko("neg-array-in-literal"):
+            op = "NOT "
+        return op + ("(" + a + ")" if a[0] in "-+" else a)     # never "--": that starts a comment
     if x == 19:
-        return r.pick(["quantile(0.5)", "quantiles(0.5, 0.9)", "topK(3)", "groupArray(10)",
-                       "sequenceMatch('(?1)(?2)')"]) + "(" + e() + (", " + e() if r.p(1, 3) else "") + ")"
+        return r.pick(FUNCS1) + "(" + e() + ")"
     if x == 20:
-        return "count(*)" if r.p(1, 2) else "count()"
+        return r.pick(FUNCS2) + "(" + e() + ", " + e() + ")"
     if x == 21:
-        return window_func(r, d)
+        return r.pick(AGGS) + "(" + r.pick(["", "DISTINCT ", "ALL ", "distinct "]) + col(r) + ")"
     if x == 22:
+        return parametric_call(r, d, subq)
+    if x == 23:
+        return r.pick(["count(*)", "count()", "COUNT(*)", "count(DISTINCT x)", "count(ALL x)", "count(1)"])
+    if x == 24:
+        return window_func(r, d)
+    if x == 25:
         n = 1 + r.below(3)
         s = "CASE " + (e() + " " if r.p(1, 2) else "")
         for _ in range(n):
@@ -207,96 +467,375 @@ def expr(r, d=0, subq=True):
         if r.p(2, 3):
             s += "ELSE " + e() + " "
         return s + "END"
-    if x == 23:
-        return "CAST(" + e() + " AS " + data_type(r) + ")"
-    if x == 24:
-        return "CAST(" + e() + ", '" + data_type(r).replace("'", "\\'") + "')"
-    if x == 25:
-        return cast_op(r, d)
     if x == 26:
-        return lambda_call(r, d)
+        a = e()
+        if a.rstrip().upper().endswith("END"):
+            a = "(" + a + ")"                        # CASE ... END AS <word> would name the CASE
+        return "CAST(" + a + " AS " + data_type(r) + ")"
     if x == 27:
-        return in_expr(r, d, subq)
-    if x == 28:
-        return e() + r.pick([" BETWEEN ", " NOT BETWEEN "]) + atom(r) + " AND " + atom(r)
-    if x == 29:
-        return e() + r.pick([" LIKE ", " NOT LIKE ", " ILIKE ", " NOT ILIKE "]) + string_lit(r)
+        return "CAST(" + e() + ", " + type_string(r) + ")"
+    if x == 28 or x == 29:
+        return cast_op(r, d)
     if x == 30:
-        return e() + r.pick([" IS NULL", " IS NOT NULL"])
-    if x == 31:
-        return "INTERVAL " + r.pick(["1", "5", "'3'", "x"]) + " " + r.pick(["DAY", "HOUR", "MONTH", "SECOND", "WEEK",
-                                                                           "YEAR", "MINUTE", "QUARTER"])
-    if x == 32:
-        return "EXTRACT(" + r.pick(["YEAR", "MONTH", "DAY", "HOUR"]) + " FROM " + e() + ")"
+        return lambda_call(r, d)
+    if x == 31 or x == 32:
+        return in_expr(r, d, subq)
     if x == 33:
-        return "[" + ", ".join(e() for _ in range(r.below(4))) + "]"
+        return e() + r.pick([" BETWEEN ", " NOT BETWEEN ", " between "]) + atom(r) + " AND " + atom(r)
     if x == 34:
-        return "(" + e() + ", " + ", ".join(e() for _ in range(1 + r.below(2))) + ")"
+        return e() + r.pick([" LIKE ", " NOT LIKE ", " ILIKE ", " NOT ILIKE ", " REGEXP ", " NOT REGEXP ", " like "]) + string_lit(r)
     if x == 35:
-        return "tuple(" + ", ".join(e() for _ in range(r.below(3))) + ")"
+        return e() + r.pick([" IS NULL", " IS NOT NULL", " is null"])
     if x == 36:
-        return "map(" + ", ".join(string_lit(r) + ", " + e() for _ in range(1 + r.below(2))) + ")"
+        return interval_expr(r, d)
     if x == 37:
-        return postfix_base(r) + "[" + e() + "]"
+        return extract_expr(r, d, subq)
     if x == 38:
-        return postfix_base(r) + "." + str(1 + r.below(3))
+        return "[" + ", ".join(e() for _ in range(r.below(4))) + "]"
     if x == 39:
-        return e() + " ? " + e() + " : " + e()
-    if x == 40 and subq:
-        return "(" + select_core(r, d + 2, simple=True) + ")"
-    if x == 41 and subq:
-        return "EXISTS (" + select_core(r, d + 2, simple=True) + ")"
+        return "(" + e() + ", " + ", ".join(e() for _ in range(1 + r.below(2))) + ")"
+    if x == 40:
+        return "tuple(" + ", ".join(e() for _ in range(r.below(3))) + ")"
+    if x == 41:
+        return "map(" + ", ".join(string_lit(r) + ", " + e() for _ in range(1 + r.below(2))) + ")"
     if x == 42:
-        return r.pick(["if", "multiIf"]) + "(" + e() + ", " + e() + ", " + e() + ")"
+        return postfix_base(r) + "[" + e() + "]"
     if x == 43:
-        return "trim(" + r.pick(["BOTH ", "LEADING ", "TRAILING "]) + string_lit(r) + " FROM " + e() + ")"
+        return postfix_base(r) + "." + r.pick(["1", "2", "3", "1.2", "2.1.1", "name", "key"])
     if x == 44:
-        return r.pick(["now()", "today()", "rand()", "currentDatabase()", "pi()"])
-    return "substring(" + e() + r.pick([" FROM 1 FOR 2", ", 1, 2", " FROM 2"]) + ")"
+        return e() + " ? " + e() + " : " + e()
+    if x == 45 and subq:
+        return "(" + select_core(r, d + 2, simple=True) + ")"
+    if x == 46 and subq:
+        return "EXISTS (" + select_core(r, d + 2, simple=True) + ")"
+    if x == 47:
+        return r.pick(["if", "multiIf", "IF", "If"]) + "(" + e() + ", " + e() + ", " + e() + ")"
+    if x == 48:
+        return trim_expr(r, d, subq)
+    if x == 49:
+        return r.pick(["now()", "today()", "rand()", "currentDatabase()", "pi()", "now64(3)", "version()"])
+    if x == 50:
+        return substring_expr(r, d, subq)
+    # --- constructs added from measured coverage -------------------------------------------------
+    if x == 51:
+        return quantified_cmp(r, d, subq)
+    if x == 52:
+        # IS [NOT] DISTINCT FROM and <=>, next to || and arithmetic
+        return r.pick([lambda: e() + r.pick([" IS DISTINCT FROM ", " IS NOT DISTINCT FROM "]) + atom(r),
+                       lambda: atom(r) + " || " + atom(r) + r.pick([" IS DISTINCT FROM ", " IS NOT DISTINCT FROM ", " <=> "]) + atom(r) + " + 1",
+                       lambda: atom(r) + " <=> " + atom(r) + " || " + atom(r),
+                       lambda: atom(r) + r.pick([" DIV ", " MOD ", " div ", " mod "]) + atom(r) + r.pick([" * ", " + ", " || ", " <=> "]) + atom(r),
+                       lambda: atom(r) + " IS NOT DISTINCT FROM " + atom(r) + " IN (1, 2)",
+                       lambda: "NOT " + atom(r) + " IS DISTINCT FROM NULL"])()
+    if x == 53:
+        return agg_filter(r, d, subq)
+    if x == 54:
+        return date_func(r, d, subq)
+    if x == 55:
+        return keyword_func(r, d, subq)
+    if x == 56:
+        return r.pick(["DATE '2020-01-01'", "TIMESTAMP '2020-01-01 00:00:00'", "date '2021-02-03'", "Timestamp '2020-01-01 10:00:00.123'",
+                       "TIME '12:00:00'"])
+    if x == 57:
+        return r.pick(["POSITION(" + string_lit(r) + " IN " + col(r) + ")", "position(" + atom(r) + " IN " + e() + ")",
+                       "position(" + col(r) + ", " + string_lit(r) + ")", "POSITION(" + col(r) + " IN " + col(r) + " || 'x')",
+                       "position('a' IN (SELECT 'abc'))" if subq else "position('a' IN 'abc')"])
+    if x == 58:
+        return cast_func(r, d, subq)
+    if x == 59:
+        return r.pick(["@@version", "@@session.max_threads", "@@global.sql_mode", "@@GLOBAL.time_zone", "@@max_allowed_packet",
+                       "@@session.format", "@@SESSION.auto_increment_increment"])
+    if x == 60:
+        return literal(r)
+    if x == 61:
+        return tuple_access(r, d)
+    if x == 62:
+        return r.pick(["+", "-", "- ", "+ "]) + r.pick(["inf", "nan", "INF", "NaN", "Inf", "NAN"])
+    if x == 63:
+        return nulls_func(r, d)
+    if x == 64:
+        return r.pick(["dictGet('db.d', 'attr', toUInt64(" + col(r) + "))", "dictGetOrDefault('d', 'a', " + col(r) + ", " + literal(r) + ")",
+                       "arrayJoin(" + r.pick(["arr", "[1, 2, 3]", "range(3)"]) + ")", "toDecimal64(" + atom(r) + ", 4)",
+                       "reinterpretAsUInt64(" + atom(r) + ")", "JSONExtractString(" + col(r) + ", 'a', 'b')",
+                       "toDateTime64(" + atom(r) + ", 3, 'UTC')", "format('{} {}', " + atom(r) + ", " + atom(r) + ")",
+                       "multiSearchAny(" + col(r) + ", ['a', 'b'])", "arraySort((x, y) -> y, arr, arr)",
+                       "h3ToString(" + atom(r) + ")", "transform(" + col(r) + ", [1, 2], ['a', 'b'], 'c')",
+                       "nested.x[1]", "tupleConcat((1, 2), (3,))", "mapKeys(m)", "m['k']", "m[" + string_lit(r) + "]",
+                       "arr[-1]", "arr[1][2]", "grouping(a, b)", "toIntervalDay(" + atom(r) + ")", "date_trunc('day', ts)",
+                       "toStartOfInterval(ts, INTERVAL 5 MINUTE)", "age('day', ts, now())", "left(name, 2)", "right(name, 1)",
+                       "replace(name, 'a', 'b')", "char(65, 66)", "values(1)"])
+    if x == 65:
+        return e() + " " + r.pick(CMPOPS) + " " + no_quantifier(e())
+    if x == 66:
+        return e() + r.pick([" AND ", " OR "]) + e() + r.pick([" AND ", " OR "]) + e()
+    if x == 67:
+        return "(" + e() + r.pick([" AND ", " OR ", " || "]) + e() + ")" + r.pick([" AND ", " OR ", " || "]) + e()
+    if x == 68:
+        return "NOT (" + e() + ")" + r.pick(["", " + 1", " AND " + atom(r)])
+    if x == 69:
+        return "-(" + r.pick(["1", "-1", "1.5", "x", "18446744073709551615", "'a'", "NULL"]) + ")"
+    if x == 70:
+        return r.pick(["- " + unsigned_lit(r), "-" + col(r), "-(" + e() + ")", "+" + unsigned_lit(r), "- - 1", "-+1", "+-1", "NOT NOT a",
+                       "NOT -1", "- NOT a", "-a.1", "-arr[1]", "-f(x)", "-x::Int8", "-(x)::Int8", "-1 AND 1", "-1 * -1", "1 - -1"])
+    return atom(r)
+
+
+def no_quantifier(s):
+    """right operand of a comparison: `= any(x) OVER ...` would be read as a quantified comparison"""
+    return "(" + s + ")" if s[:4].lower() in ("any(", "all(", "any ", "all ") else s
 
 
 def atom(r):
-    x = r.below(10)
-    if x < 5:
+    x = r.below(12)
+    if x < 6:
         return col(r)
-    if x < 9:
+    if x < 11:
         return literal(r)
-    return r.pick(["{p:UInt32}", "{name:String}"])
+    return r.pick(["{p:UInt32}", "{name:String}", "{a:Array(UInt8)}", "{ts : DateTime64(3, 'UTC')}", "{n: Nullable(String)}",
+                   "{id:Identifier}", "{m:Map(String, UInt8)}"])
 
 
 def postfix_base(r):
-    return r.pick(["arr", "tup", "m", "x", "(1, 2, 3)", "[1, 2]", "t.arr", "f(x)", "arr[1]", "tup.1"])
+    return r.pick(["arr", "tup", "m", "x", "(1, 2, 3)", "[1, 2]", "t.arr", "f(x)", "arr[1]", "tup.1", "(tup)", "(t.tup)",
+                   "tuple(1, 'a')", "CAST(x AS Tuple(a UInt8, b String))", "(SELECT (1, 2))", "x::Tuple(a UInt8)", "json.a"])
+
+
+def tuple_access(r, d):
+    return r.pick(["tup.1.2", "(tup).a", "arr[1].name", "f(x).2", "(t).key", "t.tup.1", "tup.1 + tup.2", "(a, b).1", "tuple(1, 2).1",
+                   "nested.a[1].2", "(tup).1.b", "(SELECT (1, 2)).1", "tup.a.b.c", "(x AS y).1", "arr[1].1.2", "(tup).`a b`",
+                   "tup.18446744073709551616", "tup.0", "(1, (2, 3)).2.1"])
+
+
+def parametric_call(r, d, subq):
+    e = lambda: expr(r, d + 1, subq)
+    f = r.pick(["quantile(0.5)", "quantiles(0.5, 0.9)", "topK(3)", "groupArray(10)", "sequenceMatch('(?1)(?2)')",
+                "quantileExactWeighted(0.99)", "histogram(5)", "medianGK()", "groupArraySample(3, 42)", "quantilesTDigest(0.1, 0.5, 0.9)",
+                "uniqUpTo(4)", "windowFunnel(3600, 'strict_order')", "quantile(-0.5 + 1)", "topK(3, 'counts')", "quantile(x)"])
+    s = f + "(" + r.pick(["", "", "DISTINCT ", "ALL "]) + e() + (", " + e() if r.p(1, 3) else "") + ")"
+    y = r.below(8)
+    if y == 0:
+        s += r.pick([" IGNORE NULLS", " RESPECT NULLS"])
+    if y <= 1:
+        s += " OVER " + r.pick(["()", "w", "(PARTITION BY a)", "(ORDER BY b ROWS 1 PRECEDING)"])
+    return s
+
+
+def agg_filter(r, d, subq):
+    """FILTER (WHERE ...) on aggregate calls (the printer appends If and moves the condition into the arguments)"""
+    c = lambda: expr(r, d + 2, False)
+    f = r.pick([lambda: "count(*)", lambda: "count()", lambda: "uniq(*, " + col(r) + ")", lambda: "sum(" + col(r) + ")",
+                lambda: "avg(DISTINCT " + col(r) + ")", lambda: "any(" + col(r) + ")", lambda: "groupArray(" + col(r) + ")",
+                lambda: "count(" + col(r) + ", *)", lambda: "argMax(" + col(r) + ", " + col(r) + ")", lambda: "uniq(*)",
+                lambda: "COUNT(*)", lambda: "max(" + col(r) + " + 1)", lambda: "format(" + col(r) + ")", lambda: "first(" + col(r) + ")"])()
+    s = f + r.pick([" FILTER (WHERE ", " FILTER(WHERE ", " filter (where "]) + c() + ")"
+    if r.p(1, 4):
+        s += " OVER " + r.pick(["()", "w", "(PARTITION BY a ORDER BY b)"])
+    return s
+
+
+def nulls_func(r, d):
+    f = r.pick(["first_value(x)", "last_value(y)", "any(x)", "anyLast(x)", "lagInFrame(x, 1)", "leadInFrame(x)", "nth_value(x, 2)",
+                "first_value(" + col(r) + ")", "any(" + col(r) + ")", "last(x)", "first(x)"])
+    s = f + r.pick([" IGNORE NULLS", " RESPECT NULLS", " ignore nulls", " RESPECT NULLS IGNORE NULLS"])
+    if r.p(1, 2):
+        s += " OVER " + r.pick(["()", "w", "(ORDER BY ts)", "(PARTITION BY a ORDER BY ts ROWS BETWEEN UNBOUNDED PRECEDING AND CURRENT ROW)"])
+    return s
+
+
+def quantified_cmp(r, d, subq):
+    op = r.pick(CMPOPS)
+    q = r.pick(["ANY", "ALL", "any", "all"])
+    if subq and r.p(5, 6):
+        return atom(r) + " " + op + " " + q + " (" + select_core(r, d + 2, simple=True) + ")"
+    return atom(r) + " " + op + " " + q.lower() + "(" + r.pick(["arr", "[1, 2]", "x, y"]) + ")"
+
+
+def date_func(r, d, subq):
+    """DATE_ADD / DATE_SUB / TIMESTAMPADD / DATE_DIFF families (rewritten by the printer)"""
+    e = lambda: expr(r, d + 2, False)
+    u = lambda: r.pick(DATE_UNITS)
+    dt = lambda: r.pick(["ts", "d", "now()", "toDate('2020-01-01')", "today()", col(r)])
+    add = r.pick(["DATE_ADD", "DATEADD", "TIMESTAMP_ADD", "TIMESTAMPADD", "date_add", "dateAdd", "timestampAdd",
+                  "DATE_SUB", "DATESUB", "TIMESTAMP_SUB", "TIMESTAMPSUB", "date_sub", "dateSub", "timestamp_sub"])
+    x = r.below(10)
+    if x < 3:
+        return add + "(" + u() + ", " + r.pick(["1", "-1", "x", "2 + 1", "{p:UInt32}", "1.5"]) + ", " + dt() + ")"
+    if x == 3:
+        return add + "(" + dt() + ", INTERVAL " + r.pick(["1", "x", "'2'"]) + " " + r.pick(UNITS) + ")"
+    if x == 4:
+        return add + "(INTERVAL " + r.pick(["1", "x"]) + " " + r.pick(UNITS) + ", " + dt() + ")"
+    if x == 5:
+        return add + "(" + dt() + ", toIntervalDay(" + r.pick(["1", "x"]) + "))"
+    if x == 6:
+        return add + "(toIntervalMonth(2), " + dt() + ")"
+    if x == 7:
+        return add + "(" + dt() + ", " + e() + ")"          # not an interval: stays an ordinary function
+    diff = r.pick(["DATE_DIFF", "DATEDIFF", "dateDiff", "date_diff", "age", "TIMESTAMPDIFF", "timestamp_diff"])
+    if x == 8:
+        return diff + "(" + r.pick([u(), "'" + u() + "'"]) + ", " + dt() + ", " + dt() + r.pick(["", "", ", 'UTC'", ", 'Europe/Berlin'"]) + ")"
+    return diff + "(" + u() + ", " + e() + ", " + dt() + ")"
+
+
+def keyword_func(r, d, subq):
+    """functions whose name is a keyword token of the lexer"""
+    e = lambda: expr(r, d + 2, False)
+    return r.pick([lambda: "format('{}-{}', " + e() + ", " + e() + ")",
+                   lambda: "array(" + ", ".join(e() for _ in range(r.below(4))) + ")",
+                   lambda: "ARRAY(1, 2)",
+                   lambda: "left(" + e() + ", 2)",
+                   lambda: "right(" + e() + ", 1)",
+                   lambda: "replace(" + e() + ", 'a', 'b')",
+                   lambda: "any(" + r.pick(["", "DISTINCT ", "ALL "]) + e() + ")" + r.pick(["", " OVER ()", " OVER w", " FILTER (WHERE a)", " IGNORE NULLS"]),
+                   lambda: "all(" + e() + ")",
+                   lambda: "first(" + e() + ")",
+                   lambda: "last(" + e() + ")" + r.pick(["", " RESPECT NULLS", " OVER (ORDER BY a)"]),
+                   lambda: "values(" + e() + ")",
+                   lambda: "key(" + e() + ")",
+                   lambda: "index(" + e() + ", 1)",
+                   lambda: "view(SELECT 1)" if subq else "view(x)",
+                   lambda: "default(" + e() + ")",
+                   lambda: "interval(" + e() + ")",
+                   lambda: "set(" + e() + ")",
+                   lambda: "if(a, b, c)",
+                   lambda: "user()",
+                   lambda: "database()",
+                   lambda: "table(" + e() + ")",
+                   lambda: "insert(" + e() + ", 1, 2, 'x')",
+                   lambda: "truncate(" + e() + ", 2)",
+                   lambda: "show(" + e() + ")",
+                   lambda: "system(" + e() + ")"])()
+
+
+def interval_expr(r, d):
+    x = r.below(12)
+    if x < 5:
+        return "INTERVAL " + r.pick(["1", "5", "'3'", "x", "-1", "1.5", "(x + 1)", "x + 1", "number - 15", "a.b", "(SELECT 1)" if d < 3 else "2"]) + " " + r.pick(UNITS)
+    if x == 5:
+        return "INTERVAL " + r.pick(["'1 day'", "'2 years'", "'1 DAY 2 HOUR'", "'-1 SECOND 2 MINUTE -3 MONTH 1 YEAR'", "'1 YEAR 2 MONTH 3 DAY'",
+                                     "' 1   week '", "'3 ms'", "'1 h 2 m 3 s'", "'10 microseconds'", "'1'", "''", "'1 2 3'", "'day'",
+                                     "'1 SQL_TSI_DAY'", "'-5 dd'", "'1 qq 2 yy'"])
+    if x == 6:
+        return "INTERVAL '2' AS n MINUTE"
+    if x == 7:
+        return "INTERVAL " + r.pick(["1", "x"]) + " " + r.pick(["W", "D", "H", "M", "S", "MS", "US", "NS", "w", "d", "h", "m", "s", "ms", "us", "ns"])
+    if x == 8:
+        return "toDate('2020-01-01') + INTERVAL " + r.pick(["1", "x"]) + " " + r.pick(UNITS) + " - INTERVAL '1 hour'"
+    if x == 9:
+        return "INTERVAL '1 day' - INTERVAL '1 hour'"
+    if x == 10:
+        return "(INTERVAL 1 DAY, INTERVAL 2 HOUR)"
+    return "INTERVAL " + r.pick(["1", "2"]) + " " + r.pick(UNITS) + " + INTERVAL " + r.pick(["'3'", "4"]) + " " + r.pick(UNITS)
+
+
+def extract_expr(r, d, subq):
+    e = lambda: expr(r, d + 1, subq)
+    x = r.below(8)
+    if x < 5:
+        return r.pick(["EXTRACT", "extract", "Extract"]) + "(" + r.pick(["YEAR", "MONTH", "DAY", "HOUR", "MINUTE", "SECOND", "QUARTER", "WEEK", "YYYY",
+                                                                          "DAYOFWEEK", "DAYOFYEAR", "TIMEZONE_HOUR", "TIMEZONE_MINUTE", "year", "Day"]) + " FROM " + e() + ")"
+    if x == 5:
+        return "extract(" + col(r) + ", " + r.pick(["'\\\\d+'", "'(a|b)'", "'^x'"]) + ")"
+    if x == 6:
+        return "EXTRACT(DAY FROM " + col(r) + " AS dd)"
+    return r.pick(["extract(year, ts)", "extract(" + e() + ", 'x')", "extractAll(name, 'a')", "EXTRACT(day)", "extract(toString(x), '\\\\w')", "extract(year, ts, 1)", "extract(day, a, b, c)"])
+
+
+def trim_expr(r, d, subq):
+    e = lambda: expr(r, d + 1, subq)
+    x = r.below(8)
+    if x < 3:
+        return r.pick(["trim(", "TRIM(", "Trim("]) + r.pick(["BOTH ", "LEADING ", "TRAILING ", "both ", "leading "]) + string_lit(r) + " FROM " + e() + ")"
+    if x == 3:
+        return "trim(" + r.pick(["BOTH ", "LEADING ", "TRAILING "]) + "'' FROM " + e() + ")"       # empty characters: printed as the operand itself
+    if x == 4:
+        return "trim(" + e() + ")"
+    if x == 5:
+        return r.pick(["ltrim", "rtrim", "trimLeft", "trimRight", "trimBoth", "LTRIM"]) + "(" + e() + r.pick(["", ", 'x'", ", ''"]) + ")"
+    if x == 6:
+        return "trim(" + r.pick(["BOTH ", "LEADING ", "TRAILING ", ""]) + "'x' AS chars FROM " + col(r) + " AS s)"
+    if r.p(1, 2):
+        return r.pick(["trim(BOTH 'x' chars FROM " + col(r) + ")", "trim(LEADING 'x' FROM " + col(r) + " str)", "trim(" + col(r) + " AS s)",
+                       "trim(TRAILING 'x' chars FROM " + col(r) + " str)", "trim(BOTH FROM " + col(r) + " AS s)"])
+    return "trim(" + r.pick(["BOTH", "LEADING", "TRAILING"]) + " FROM " + e() + ")"
+
+
+def substring_expr(r, d, subq):
+    e = lambda: expr(r, d + 1, subq)
+    x = r.below(8)
+    if x < 5:
+        return r.pick(["substring(", "SUBSTRING(", "Substring("]) + e() + r.pick([" FROM 1 FOR 2", ", 1, 2", " FROM 2", ", 2", " FROM -1", " FROM x FOR y", " FOR 3"]) + ")"
+    if x == 5:
+        return "substring(" + col(r) + " AS s FROM 1 AS f FOR 2 AS n)"
+    if x == 6:
+        return "substring(" + col(r) + " s, 1 f, 2 n)"
+    return r.pick(["substr(" + e() + ", 1, 2)", "mid(" + e() + ", 1)", "substring(" + col(r) + " s FROM 1 f FOR 2 n)", "SUBSTRING(" + col(r) + " AS s, 1 AS f)",
+                   "substring(" + col(r) + ", 1, 2 AS n)", "substring(" + col(r) + ", 1 AS f, 2 AS n)", "substring(" + col(r) + " FROM 1 AS f)"])
+
+
+def cast_func(r, d, subq):
+    """CAST(...) with aliases on the operand and / or on the type string"""
+    e = lambda: expr(r, d + 2, False)
+    t = lambda: r.pick(["'UInt32'", "'String'", "'Nullable(UInt8)'", "'Array(String)'", type_string(r)])
+    return r.pick([lambda: "CAST(" + e() + " AS lhs AS " + data_type(r) + ")",
+                   lambda: "CAST(" + col(r) + " lhs AS " + data_type(r) + ")",
+                   lambda: "CAST(" + e() + " AS lhs, " + t() + ")",
+                   lambda: "CAST(" + e() + " AS lhs, " + t() + " AS rhs)",
+                   lambda: "CAST(" + e() + " AS lhs, " + t() + " rhs)",
+                   lambda: "CAST(" + col(r) + " lhs, " + t() + ")",
+                   lambda: "CAST(" + col(r) + " lhs, " + t() + " AS rhs)",
+                   lambda: "CAST(" + col(r) + " lhs, " + t() + " rhs)",
+                   lambda: "CAST(" + e() + ", " + t() + " AS rhs)",
+                   lambda: "CAST(" + e() + ", " + t() + " rhs)",
+                   lambda: "CAST(" + e() + ", if(a, 'UInt8', 'Int8'))",
+                   lambda: "CAST(" + e() + ", 'Str' || 'ing')",
+                   lambda: "CAST(" + e() + ", concat('Array(', 'UInt8', ')'))",
+                   lambda: "cast(" + e() + ", " + t() + ")",
+                   lambda: "Cast(" + e() + " as " + data_type(r) + ")",
+                   lambda: "CAST(" + e() + " AS lhs, toTypeName(x))",
+                   lambda: "CAST(" + col(r) + " lhs, toTypeName(x) AS tn)",
+                   lambda: "CAST((" + e() + ") AS " + data_type(r) + ")",
+                   lambda: "_CAST(" + e() + ", " + t() + ")",
+                   lambda: "accurateCastOrNull(" + e() + ", " + t() + ")"])()
 
 
 def window_func(r, d):
     f = r.pick(["row_number()", "rank()", "sum(x)", "lagInFrame(x, 1)", "count()", "first_value(y)",
-                "dense_rank()", "nth_value(x, 2)"])
-    if r.p(1, 4):
-        return f + " OVER w"
+                "dense_rank()", "nth_value(x, 2)", "avg(x + 1)", "max(y)", "ntile(4)", "percent_rank()", "count(*)", "uniq(x, y)"])
+    x = r.below(12)
+    if x < 3:
+        return f + " OVER " + r.pick(["w", "w", "w2", "(w)", "(w ORDER BY x)", "(w2 ROWS UNBOUNDED PRECEDING)", "(w PARTITION BY a)", "()"])
     parts = []
     if r.p(1, 2):
-        parts.append("PARTITION BY " + ", ".join(col(r) for _ in range(1 + r.below(2))))
+        parts.append("PARTITION BY " + ", ".join(r.pick([col(r), "toDate(ts)", "a + 1"]) for _ in range(1 + r.below(2))))
     if r.p(2, 3):
-        parts.append("ORDER BY " + col(r) + r.pick(["", " DESC", " ASC"]))
+        parts.append("ORDER BY " + col(r) + r.pick(["", " DESC", " ASC", " DESC NULLS LAST", " ASC NULLS FIRST"]) + r.pick(["", "", ", " + col(r) + " DESC"]))
         if r.p(1, 2):
             parts.append(r.pick(["ROWS BETWEEN UNBOUNDED PRECEDING AND CURRENT ROW",
                                  "ROWS BETWEEN 1 PRECEDING AND 1 FOLLOWING",
                                  "RANGE BETWEEN UNBOUNDED PRECEDING AND UNBOUNDED FOLLOWING",
                                  "ROWS 2 PRECEDING", "RANGE CURRENT ROW",
-                                 "ROWS BETWEEN CURRENT ROW AND UNBOUNDED FOLLOWING"]))
+                                 "ROWS BETWEEN CURRENT ROW AND UNBOUNDED FOLLOWING",
+                                 "GROUPS BETWEEN 1 PRECEDING AND 1 FOLLOWING", "GROUPS UNBOUNDED PRECEDING", "GROUPS CURRENT ROW",
+                                 "ROWS BETWEEN 1 + 1 PRECEDING AND x FOLLOWING", "RANGE BETWEEN INTERVAL 1 DAY PRECEDING AND CURRENT ROW",
+                                 "ROWS BETWEEN 3 FOLLOWING AND 5 FOLLOWING", "RANGE 10 PRECEDING", "rows between unbounded preceding and current row",
+                                 "ROWS UNBOUNDED PRECEDING", "RANGE BETWEEN 1.5 PRECEDING AND 2.5 FOLLOWING", "ROWS BETWEEN {p:UInt32} PRECEDING AND CURRENT ROW"]))
+    elif r.p(1, 4):
+        parts.append(r.pick(["ROWS BETWEEN UNBOUNDED PRECEDING AND UNBOUNDED FOLLOWING", "ROWS 1 PRECEDING", "RANGE UNBOUNDED PRECEDING"]))
     return f + " OVER (" + " ".join(parts) + ")"
 
 
 def cast_op(r, d):
     """the `::` operator, including array / tuple literal operands with non-literal elements"""
-    x = r.below(12)
+    x = r.below(24)
     e = lambda: expr(r, d + 2, False)
+    flt = lambda: r.pick(["Float64", "Float32", "Nullable(Float64)", "BFloat16", "String", "Decimal(10, 2)"])
     if x == 0:
         return col(r) + "::" + data_type(r)
     if x == 1:
-        return number_lit(r).lstrip("-") + "::" + r.pick(["UInt8", "Int64", "Float64", "String", "Decimal(10, 2)"])
+        return unsigned_lit(r) + "::" + r.pick(["UInt8", "Int64", "Float64", "String", "Decimal(10, 2)", "UInt256", "Int128"])
     if x == 2:
-        return string_lit(r) + "::" + r.pick(["Date", "DateTime", "UUID", "String", "IPv4", "Int32"])
+        return string_lit(r) + "::" + r.pick(["Date", "DateTime", "UUID", "String", "IPv4", "Int32", "DateTime64(3, 'UTC')", "FixedString(3)",
+                                              "Enum8('a' = 1)", "JSON", "LowCardinality(String)"])
     if x == 3:
         return "[" + ", ".join(number_lit(r) for _ in range(r.below(4))) + "]::Array(" + r.pick(SIMPLE_TYPES) + ")"
     if x == 4:
@@ -306,13 +845,14 @@ def cast_op(r, d):
         # NON-literal elements
         return "[" + ", ".join(r.pick(["NULL", "1", "x[1]", "t.1", "tup.2", "a::UInt8", "1::Int8::Int16",
                                        "CASE WHEN a THEN 1 ELSE 2 END", "(a ? 1 : 2)", "abs(x)", "x + 1",
-                                       "arr[2]", "(SELECT 1)", "-x", "NOT a"])
+                                       "arr[2]", "(SELECT 1)", "-x", "NOT a", "x -> x", "a IN (1, 2)", "a GLOBAL NOT IN (SELECT 1)",
+                                       "-f(x)", "a || b", "INTERVAL 1 DAY", "{p:UInt8}", "a AS b", "*"])
                                for _ in range(1 + r.below(4))) + "]::Array(Nullable(UInt8))"
     if x == 6:
         return "(" + ", ".join(r.pick(["NULL", "1", "'s'", "x[1]", "t.1", "a::UInt8", "abs(x)", "[1, 2]", "true",
-                                       "CASE WHEN a THEN 1 END", "x", "1 + 2"])
+                                       "CASE WHEN a THEN 1 END", "x", "1 + 2", "-1", "-x", "(1, 2)", "'it\\'s'", "a IN (1, 2)"])
                                for _ in range(2 + r.below(3))) + ")::Tuple(" + r.pick(
-            ["UInt8, String", "Nullable(UInt8), Nullable(UInt8)", "a UInt8, b String"]) + ")"
+            ["UInt8, String", "Nullable(UInt8), Nullable(UInt8)", "a UInt8, b String", "`a b` Int8, `ключ` String"]) + ")"
     if x == 7:
         return "(" + e() + ")::" + data_type(r)
     if x == 8:
@@ -321,25 +861,90 @@ def cast_op(r, d):
         return col(r) + "::" + r.pick(SIMPLE_TYPES) + "::" + r.pick(["String", "Nullable(String)"])
     if x == 10:
         return "arr[1]::" + r.pick(SIMPLE_TYPES)
-    return "NULL::Nullable(" + r.pick(SIMPLE_TYPES) + ")"
+    if x == 11:
+        return "NULL::Nullable(" + r.pick(SIMPLE_TYPES) + ")"
+    # --- special floats, negative numbers, booleans under :: ------------------------------------------
+    if x == 12:
+        return r.pick(["inf", "nan", "INF", "NAN", "Inf", "NaN", "-inf", "-nan", "-INF", "-NaN", "+inf", "+nan", "- inf", "-Inf", "+INF"]) + "::" + flt()
+    if x == 13:
+        return "-" + r.pick(["1", "0", "128", "1.5", "0.0", "1e3", "1E-2", "9223372036854775808", "9223372036854775809",
+                             "170141183460469231731687303715884105728", "0.10", ".5", "1.", "18446744073709551615", "1_000", "0x10", "0b1"]) \
+            + "::" + r.pick(["Int8", "Int16", "Int64", "Int128", "Int256", "Float32", "Float64", "Decimal(38, 10)", "String"])
+    if x == 14:
+        return r.pick(["true", "false", "TRUE", "NULL"]) + "::" + r.pick(["Bool", "UInt8", "Nullable(Bool)", "String"])
+    if x == 15:
+        # literal arrays / tuples: spacing variants (the printer keeps the source text), strings needing escapes, big integers
+        return r.pick(["[1,2,3]::Array(UInt8)", "[1, 2, 3]::Array(UInt8)", "[ 1, 2 ]::Array(UInt8)", "[1 ,2]::Array(Int8)", "[]::Array(UInt8)",
+                       "[ ]::Array(String)", "['a','b']::Array(String)", "['it\\'s', 'back\\\\slash', 'tab\\t', '']::Array(String)",
+                       "['a\\nb', 'c\\rd', 'nul\\0']::Array(String)", "[123456789012345678901234567890, 1]::Array(UInt256)",
+                       "[-123456789012345678901234567890]::Array(Int256)", "[0.0, 1.50, -2.25, 1e3]::Array(Float64)",
+                       "[[1, 2], [3]]::Array(Array(UInt8))", "[[1,2],[]]::Array(Array(UInt8))", "[(1, 'a'), (2, 'b')]::Array(Tuple(UInt8, String))",
+                       "(1,2)::Tuple(UInt8, UInt8)", "(1, 'a')::Tuple(UInt8, String)", "( 1 , 'a' )::Tuple(a UInt8, b String)",
+                       "(1, (2, 3), [4])::Tuple(UInt8, Tuple(UInt8, UInt8), Array(UInt8))", "[true, false]::Array(Bool)", "[NULL]::Array(Nullable(UInt8))",
+                       "[NULL, 1]::Array(Nullable(UInt8))", "[[NULL]]::Array(Array(Nullable(String)))", "(NULL, true)::Tuple(Nullable(UInt8), Bool)",
+                       "[-1, -2.5, -0]::Array(Float32)", "(-1, -'a')::Tuple(Int8, String)", "[-NULL]::Array(Nullable(Int8))", "[-inf, nan]::Array(Float64)",
+                       "['2020-01-01']::Array(Date)", "[1.]::Array(Float32)", "[.5, 1e-3]::Array(Float64)", "[0x10, 0b11]::Array(UInt8)",
+                       "['üñí', '日本']::Array(String)", "['a''b']::Array(String)", "[$$here$$]::Array(String)", "[x'41']::Array(String)",
+                       "[18446744073709551616]::Array(Float64)", "[-9223372036854775809]::Array(Int128)", "()::Tuple()",
+                       "(1,)::Tuple(UInt8)", "[1,]::Array(UInt8)", "[(1,2),(3,4)]::Array(Tuple(UInt8,UInt8))"])
+    if x == 16:
+        return literal(r) + "::" + data_type(r)
+    if x == 17:
+        return array_lit(r) + "::Array(" + r.pick(["UInt8", "String", "Nullable(Int64)", "Array(UInt8)", "Float64"]) + ")"
+    if x == 18:
+        return tuple_lit(r, 1) + "::Tuple(" + r.pick(["UInt8, String", "a Int8, b Int8", "Nullable(String), Float64"]) + ")"
+    if x == 19:
+        return r.pick(["x::Int8 + 1", "-x::Int8", "(-x)::Int8", "x::Int8::Int16::Int32", "1 + 2::Int8", "(1 + 2)::Int8", "(x::Int8 AS y)", "x::Int8 % 2",
+                       "NOT x::UInt8", "x.1::UInt8", "arr[1]::UInt8[2]", "x::Array(UInt8)[1]", "x::Tuple(a UInt8).a", "f(x)::String || 'a'",
+                       "1::UInt8 IN (1, 2)", "x::Date BETWEEN '2020-01-01'::Date AND today()", "{p:String}::UInt8", "(SELECT 1)::UInt8",
+                       "CASE WHEN a THEN 1 END::UInt8", "x::INT UNSIGNED", "x::DOUBLE PRECISION", "x::Nullable(INT(11))"])
+    if x == 20:
+        return string_lit(r) + "::" + data_type(r)
+    if x == 21:
+        return r.pick(["'2020-01-01'::Date + INTERVAL 1 DAY", "'1'::UInt8::String", "''::String", "'a\\'b'::String", "'\\\\'::String",
+                       "'nl\\n'::String", "'tab\\t'::FixedString(4)", "'\\0'::String", "'[1, 2]'::Array(UInt8)", "'(1, 2)'::Tuple(UInt8, UInt8)",
+                       "'{\"a\": 1}'::JSON", "'{\"a\": 1}'::JSON(a UInt8)", "$$x$$::String", "'a'::Enum8('a' = 1, 'b' = 2)"])
+    if x == 22:
+        return number_lit(r) + "::" + flt()
+    return "(" + e() + ", " + e() + ")::Tuple(" + r.pick(["UInt8, UInt8", "a String, b String"]) + ")"
 
 
 def lambda_call(r, d):
     e = lambda: expr(r, d + 2, False)
-    x = r.below(4)
+    x = r.below(14)
     if x == 0:
         return "arrayMap(x -> " + e() + ", " + r.pick(["arr", "[1, 2, 3]", "range(10)"]) + ")"
     if x == 1:
         return "arrayFilter((x, y) -> " + e() + ", arr, arr)"
     if x == 2:
         return "arrayMap(lambda(tuple(x), x + 1), arr)"
-    return "arrayExists(x -> x " + r.pick(["=", ">", "!="]) + " " + atom(r) + ", arr)"
+    if x == 3:
+        return "arrayExists(x -> x " + r.pick(["=", ">", "!="]) + " " + atom(r) + ", arr)"
+    if x == 4:
+        return "arrayMap((x, y) -> x + y, " + r.pick(["a, b", "arr, arr", "[1, 2], [3, 4]"]) + ")"
+    if x == 5:
+        return "arrayMap(x, y -> x + y, arr, arr)"                                   # parameters without parentheses
+    if x == 6:
+        return "arrayFold(acc, x -> acc + x, arr, toUInt64(0))"
+    if x == 7:
+        return "arrayMap((x) -> " + e() + ", arr)"
+    if x == 8:
+        return "arrayMap(x -> arrayMap(y -> x + y, arr), arr)"
+    if x == 9:
+        return "arrayMap(() -> 1, arr)"
+    if x == 10:
+        return "arraySort((x, y, z) -> (x, y), arr, arr, arr)"
+    if x == 11:
+        return "f(a, (x -> x + 1))"                                                   # parenthesised lambda: not merged with `a`
+    if x == 12:
+        return "arrayMap((x, y) -> (x, y), arr, arr)"
+    return "mapApply((k, v) -> (k, v * 2), m)"
 
 
 def in_expr(r, d, subq):
     lhs = expr(r, d + 2, False) if r.p(2, 3) else "(" + col(r) + ", " + col(r) + ")"
-    op = r.pick([" IN ", " NOT IN ", " GLOBAL IN ", " GLOBAL NOT IN "])
-    x = r.below(7)
+    op = r.pick([" IN ", " NOT IN ", " GLOBAL IN ", " GLOBAL NOT IN ", " in ", " global not in "])
+    x = r.below(20)
     if x == 0:
         rhs = "(" + ", ".join(literal(r) for _ in range(1 + r.below(4))) + ")"
     elif x == 1:
@@ -347,43 +952,84 @@ def in_expr(r, d, subq):
     elif x == 2 and subq:
         rhs = "(" + select_core(r, d + 2, simple=True) + ")"
     elif x == 3:
-        rhs = r.pick(["t2", "db.t", "arr", "[1, 2, 3]", "tuple(1, 2)"])
+        rhs = r.pick(["t2", "db.t", "arr", "[1, 2, 3]", "tuple(1, 2)", "[]", "['a', 'b']", "t::String", "{p:Array(UInt8)}", "f(x)", "x.1"])
     elif x == 4:
         rhs = "(" + expr(r, d + 2, False) + ")"
     elif x == 5:
         rhs = "(" + col(r) + ", " + number_lit(r) + ", " + expr(r, d + 2, False) + ")"
+    elif x == 6:
+        rhs = r.pick(["(1)", "(1,)", "('a',)", "(NULL)", "(NULL, NULL)", "(NULL, 1)", "(1)" if ko("in-empty-list") else "()",
+                      "((1, 2))", "((1, 2),)", "(x,)", "((1), (2))"])
+    elif x == 7:
+        rhs = "(" + ", ".join(number_lit(r) for _ in range(2 + r.below(4))) + ")"
+    elif x == 8:
+        rhs = "(" + ", ".join(string_lit(r) for _ in range(r.pick([2, 3, 5, 10, 11, 12, 14]))) + ")"   # more than 10 strings: not folded under an alias
+    elif x == 9:
+        rhs = "(" + ", ".join(r.pick(["true", "false", "NULL"]) for _ in range(2 + r.below(3))) + ")"
+    elif x == 10:
+        rhs = "(" + ", ".join(tuple_lit(r, 1) for _ in range(2 + r.below(3))) + ")"
+    elif x == 11:
+        rhs = "(" + ", ".join(r.pick(["-1", "-0", "-1.5", "1", "NULL", "-18446744073709551615", "-9223372036854775808", "-inf", "0.5"])
+                              for _ in range(2 + r.below(4))) + ")"
+    elif x == 12:
+        rhs = "(" + ", ".join(r.pick(["(1, -2)", "(-1.5, 'a')", "((1, 2), 3)", "(NULL, NULL)", "(1, [2])", "(x, 1)", "(-x, 1)", "(1, 2)"])
+                              for _ in range(1 + r.below(3))) + ")"
+    elif x == 13:
+        rhs = "(" + ", ".join(r.pick(["1", "'a'", "true", "NULL", "1.5", "(1, 2)"]) for _ in range(2 + r.below(3))) + ")"   # mixed primitive kinds
+    elif x == 14:
+        rhs = "(" + ", ".join(array_lit(r, 1) for _ in range(1 + r.below(3))) + ")"
+    elif x == 15 and subq:
+        rhs = "(" + select_with_union(r, d + 2, simple=True) + ")"
+    elif x == 16:
+        rhs = r.pick(["((1), (2))", "(((1)), 2)", "(((1), (2)))", "((('a'), (NULL)))", "(((1), 2))", "(((1, 2)))"]
+                     + ([] if ko("in-empty-list") else ["(())", "((()))"]))
     else:
-        rhs = "(1)"
+        rhs = "(" + ", ".join(literal(r) for _ in range(1 + r.below(3))) + r.pick(["", ","]) + ")"
     return lhs + op + rhs
 
 
 def alias(r):
-    return r.pick(["k", "v", "res", "cnt", "x1", "`my alias`", "total"])
+    return r.pick(["k", "v", "res", "cnt", "x1", "`my alias`", "total", "`it's`", "\"q\"", "`a\\\\b`", "key", "index", "`ключ`"])
+
+
+NESTED_ARRAY = re.compile(r"\[\s*\[|,\s*\[")
 
 
 def select_item(r, d):
-    x = r.below(24)
+    x = r.below(36)
     if x == 0:
         return "*"
     if x == 1:
-        return r.pick(["t", "t1", "db.t"]) + ".*"
+        return r.pick(["t", "t1", "db.t"]) + ".*" + (col_transformers(r, star=True) if r.p(1, 3) else "")
     if x == 2:
-        return "COLUMNS('" + r.pick(["^a", "x|y", ".*id$"]) + "')" + col_transformers(r)
+        return "COLUMNS('" + r.pick(["^a", "x|y", ".*id$", "it\\'s", "a\\\\d"]) + "')" + col_transformers(r)
     if x == 3:
-        return "* " + col_transformers(r, force=True).strip()
+        return "* " + col_transformers(r, force=True, star=True).strip()
     if x == 4:
-        return "COLUMNS(a, b)" + col_transformers(r)
+        return "COLUMNS(" + r.pick(["a, b", "a", "t.a, t.b", "a, b, c"]) + ")" + col_transformers(r)
+    if x == 5:
+        # qualified column matchers
+        return r.pick(["t", "t1", "db.t"]) + "." + r.pick(["COLUMNS('^a')", "COLUMNS(a, b)", "COLUMNS(id)", "columns('x')"]) + col_transformers(r)
+    if x == 6:
+        return r.pick(["tuple(1, 'a').*", "tup.*", "CAST(x AS Tuple(a UInt8)).*", "(1, 2).*", "t.tup.*", "f(x).*", "system.*", "system.one.*", "default.t.*"])
+    if x == 7:
+        return r.pick(["()", "[]", "[[a + b]]", "[[f(x), -y]]", "[[x IN (1, 2)]]", "[[NOT a, a.b]]", "[[1, x]]", "([1, a], 2)", "(1, (2, x))", "[(1, x)]",
+                       "[[a GLOBAL NOT IN (SELECT 1)]]", "[[[x]]]", "[[1], [x]]", "[[-x]]", "[[a || b, 'c']]", "[[x -> x]]", "[[CASE WHEN a THEN 1 END]]",
+                       "[[x::UInt8]]", "[[arr[1], tup.1]]", "[[1, 2], [3, -4]]", "((1, 2), (3, x))", "[[], [x]]", "[[NULL, x]]", "[[(1, x)]]",
+                       "[[a BETWEEN 1 AND 2]]", "[[a IS NULL]]", "[[a LIKE 'x']]", "[[INTERVAL 1 DAY]]", "[[{p:UInt8}]]", "[[(SELECT 1)]]", "[[*]]"]) \
+            + " AS " + alias(r)
     e = expr(r, d)
-    if r.p(1, 3):
-        e += r.pick([" AS ", " "]) + alias(r) if not e.rstrip().endswith(("END", "NULL")) or True else ""
+    if r.p(1, 3) and not (ko("aliased-nested-array") and NESTED_ARRAY.search(e)):
+        a = alias(r)
+        e += (r.pick([" AS ", " as "]) if a in ("key", "index") else r.pick([" AS ", " ", " as "])) + a     # a keyword as alias: after AS
     return e
 
 
-def col_transformers(r, force=False):
+def col_transformers(r, force=False, star=False):
     out = ""
     n = r.below(3) + (1 if force else 0)
     for _ in range(n):
-        x = r.below(6)
+        x = r.below(16)
         if x == 0:
             out += " APPLY(" + r.pick(["sum", "toString", "max"]) + ")"
         elif x == 1:
@@ -395,8 +1041,28 @@ def col_transformers(r, force=False):
         elif x == 4:
             out += " REPLACE (" + ", ".join(r.pick(["a + 1", "toString(b)", "x * 2"]) + " AS " + r.pick(COLS)
                                             for _ in range(1 + r.below(2))) + ")"
-        else:
+        elif x == 5:
             out += " APPLY(x -> x + 1)"
+        elif x == 6:
+            out += " EXCEPT STRICT (" + r.pick(COLS) + ")"
+        elif x == 7:
+            out += " REPLACE STRICT (" + r.pick(["a + 1", "x * 2"]) + " AS " + r.pick(COLS) + ")"
+        elif x == 8 and star:
+            out += r.pick([" EXCEPT('^a')", " EXCEPT ('x|y')", " EXCEPT '.*id$'", " EXCEPT STRICT ('z')"])     # a pattern: after `*` only
+        elif x == 9:
+            out += " APPLY(" + r.pick(["quantiles(0.5, 0.9)", "quantile(0.5)", "topK(3)", "groupArray(2)", "f()"]) + ")"
+        elif x == 10:
+            out += " APPLY " + r.pick(["quantile(0.5)", "toString"]) 
+        elif x == 11 and star:
+            out += " REPLACE " + r.pick(["a + 1 AS a", "toString(b) AS b"])
+        elif x == 12:
+            out += " APPLY(x -> " + r.pick(["toString(x)", "x * 2", "(x, 1)", "if(isNull(x), 0, x)"]) + ")"
+        elif x == 13:
+            out += " EXCEPT (" + r.pick(["key", "index", "`a b`"]) + ")"
+        elif x == 14:
+            out += " APPLY x -> x"
+        else:
+            out += " apply(" + r.pick(["sum", "any"]) + ") except (a)"
     return out
 
 
@@ -407,31 +1073,77 @@ def col_transformers(r, force=False):
 # expression without alias / FINAL / SAMPLE; STATE["bare"] tells that the text generated last ends so
 STATE = {"bare": False}
 
+TABLE_FUNCS = ["numbers(10)", "numbers(1, 5)", "remote('127.0.0.1', db.t)", "file('a.csv', 'CSV', 'x UInt8')",
+               "url('http://h/x', JSONEachRow)", "s3('http://b/k', 'CSV')", "generateRandom('a UInt8', 1, 2)",
+               "cluster('c', db, t)", "merge('db', '^t')", "view(SELECT 1)", "values('a UInt8', 1, 2)",
+               "zeros(3)", "mysql('h:3306', 'd', 't', 'u', 'p')",
+               # arguments of every kind the printers of table functions see
+               "mysql('h:3306', 'd', 't', 'u', 'p', SETTINGS connect_timeout = 1, connection_pool_size = 2)",
+               "postgresql('h:5432', 'd', 't', 'u', 'p', 'schema')", "s3('http://b/k', 'key', 'secret', 'CSV', 'a UInt8', 'gzip')",
+               "s3(named_coll, format = 'CSV', structure = 'a UInt8')", "url('http://h/x', format = 'Parquet')",
+               "file('*.csv', 'CSVWithNames', 'a UInt8, b Nullable(String), c Tuple(x UInt8, y String)')",
+               "format(JSONEachRow, '{\"a\": 1}')", "format('CSV', '1,2')", "format(JSONEachRow, $${\"a\": [1, 2]}$$)",
+               "view(SELECT a, b FROM t WHERE a > 1)", "view(WITH 1 AS x SELECT x)", "view(SELECT 1 UNION ALL SELECT 2)",
+               "cluster('c', view(SELECT 1))", "clusterAllReplicas('c', system.one)", "clusterAllReplicas(default, system, one)",
+               "remoteSecure('h{1,2}:9440', db.t, 'u', 'p')", "remote('h', numbers(3))", "input('a UInt8, b String')",
+               "generateSeries(1, 10, 2)", "null('x UInt8')", "dictionary('db.d')", "dictionary(d)", "loop(t)", "loop(db, t)",
+               "mergeTreeIndex(db, t, with_marks = true)", "merge(REGEXP('^db'), '^t')", "merge('^t')", "numbers_mt(10)",
+               "zeros_mt(5)", "fuzzJSON('{}', 1)", "executable('s.py', TabSeparated, 'a UInt8', (SELECT 1))",
+               "hdfs('hdfs://h/f', 'TSV', 'a UInt8')", "sqlite('f.db', 't')", "odbc('DSN=x', 'd', 't')", "jdbc('u', 's', 't')",
+               "azureBlobStorage('c', 'cont', 'blob', 'acc', 'key', 'CSV')", "deltaLake('http://b/k')", "iceberg('http://b/k', 'a', 's')",
+               "s3Cluster('c', 'http://b/k', 'CSV')", "urlCluster('c', 'http://h/x', CSV)", "timeSeriesData(db.ts)",
+               "values('a UInt8, b String', (1, 'a'), (2, 'b'))", "values((1, 'a'), (2, 'b'))", "values(1, 2, 3)",
+               "numbers(toUInt64(1 + 1))", "numbers({n:UInt64})", "generateRandom('a Array(Int8), b Tuple(UInt8, String)')",
+               "arrayJoin([1, 2])", "system.numbers", "`my table`", "db.`my table`", "`my db`.t", "\"quoted\".\"t\"",
+               "file('a.csv', 'CSV', 'x UInt8', SETTINGS format_csv_delimiter = ';')", "url('http://h/x', CSV, headers('a' = 'b'))"]
+KQL = ["kql('Customers | project FirstName, LastName')", "kql('T | project a | filter a == 1')",
+       "kql('Customers | project FirstName | filter LastName == \\'Diaz\\'')", "kql($$Customers|project FirstName$$)",
+       "kql($$Customers | project Name | filter Name == 'two words'$$)", "kql($$T | filter City != \"New York\" | project City$$)",
+       "kql('T')", "kql('T | project a, b, c | filter b >= 10')", "kql('T | filter a < b')", "kql($$ T | PROJECT a | FILTER a > 1 $$)",
+       "kql('T | project x | filter x <= \\'it\\\\\\'s\\'')", "kql($$T | filter Name == 'a | b' | project Name$$)",
+       "kql('T | take 10')", "kql('T | project a | sort by a')", "kql($$T | project `a b`, c$$)", "kql('my table | project  a ,  b ')",
+       "kql('T | filter a == \"x y\"')", "kql('')", "kql('T | filter x')", "kql('T | project a', 1)",
+       "kql(concat('T', ' | project a'))"]
+SAMPLES = ["0.1", "1/10", "1000", "1/10 OFFSET 1/2", "0.5 OFFSET 0.25",
+           "0.0000000000000000001", "0.0000000000000000000000001", "0.1234567890123456789", "0.12345678901234567890123", "1e-3", "1E-3",
+           "2e-2", "1e-30", "1.5e-3", "25e-2", "0.10", "0.05", "0.50", ".5", "1 / 3", "3/4", "10000000", "0.1 OFFSET 1/2", "1/2 OFFSET 0.1",
+           "0.999999999999999999999", "1e0", "1e3", "100 OFFSET 10", "0.33", "0.3333333", "0.1234567", "0.000001", "0.0000001", "1 OFFSET 0",
+           "0.0", "0", "1", "1.0", "1e-1 OFFSET 1e-2", "18446744073709551615", "1/18446744073709551615", "0.5e0", "0.25 OFFSET 0.75",
+           "1 / 2 OFFSET 1 / 4", "0.7", "0.125", "0.0625", "0.2 OFFSET .1", "1/1000000", "5e-1", "0.5E-1", "9223372036854775808",
+           "0.9223372036854775808", "0.09223372036854775807", "1e-18", "1e-19", "1e-20 OFFSET 1e-19", "0.3 OFFSET 1e-3"]
+
 
 def table_expr(r, d, first=True):
-    x = r.below(16)
-    if x < 7:
+    x = r.below(22)
+    fn = False
+    if x < 8:
         s = r.pick(TABLES)
-    elif x < 10 and d < 4:
+    elif x < 11 and d < 4:
         s = "(" + select_with_union(r, d + 1, simple=True) + ")"
-    elif x == 10:
-        s = r.pick(["numbers(10)", "numbers(1, 5)", "remote('127.0.0.1', db.t)", "file('a.csv', 'CSV', 'x UInt8')",
-                    "url('http://h/x', JSONEachRow)", "s3('http://b/k', 'CSV')", "generateRandom('a UInt8', 1, 2)",
-                    "cluster('c', db, t)", "merge('db', '^t')", "view(SELECT 1)", "values('a UInt8', 1, 2)",
-                    "zeros(3)", "mysql('h:3306', 'd', 't', 'u', 'p')"])
-    elif x == 11:
+    elif x == 11 or x == 12:
+        s = r.pick(TABLE_FUNCS)
+        fn = True
+    elif x == 13:
         s = "system.one"
+    elif x == 14:
+        s = r.pick(KQL)
+        fn = True
+    elif x == 15 and d < 4:
+        s = r.pick(["(FROM " + r.pick(TABLES) + " SELECT " + col(r) + ")", "((SELECT 1) UNION ALL SELECT 2)", "((SELECT 1))",
+                    "(SELECT 1 UNION ALL (SELECT 2 UNION ALL SELECT 3))", "(WITH 1 AS x SELECT x)",
+                    "(SELECT 1 INTERSECT SELECT 1)", "(SELECT * FROM (SELECT * FROM (SELECT 1)))"])
     else:
         s = r.pick(TABLES)
     bare = True
     if r.p(1, 4):
-        s += r.pick([" AS ", " "]) + r.pick(["u", "v", "tt", "s1", "s2"])
+        a = r.pick(["u", "v", "tt", "s1", "s2", "`a b`", "key", "\"q\"", "first"])
+        s += (r.pick([" AS ", " as "]) if a in ("key", "first") else r.pick([" AS ", " ", " as "])) + a
         bare = False
-    if first and x < 7 and r.p(1, 8):
+    if first and x < 8 and r.p(1, 8):
         s += " FINAL"
         bare = False
-    if first and x < 7 and r.p(1, 8):
-        s += " SAMPLE " + r.pick(["0.1", "1/10", "1000", "1/10 OFFSET 1/2", "0.5 OFFSET 0.25"])
+    if first and x < 8 and r.p(1, 6):
+        s += " SAMPLE " + r.pick(SAMPLES)
         bare = False
     STATE["bare"] = bare
     return s
@@ -440,104 +1152,156 @@ def table_expr(r, d, first=True):
 JOINS = ["JOIN", "INNER JOIN", "LEFT JOIN", "RIGHT JOIN", "FULL JOIN", "LEFT OUTER JOIN", "FULL OUTER JOIN",
          "CROSS JOIN", "ANY LEFT JOIN", "ALL INNER JOIN", "ASOF LEFT JOIN", "SEMI LEFT JOIN", "ANTI LEFT JOIN",
          "GLOBAL LEFT JOIN", "LEFT ANY JOIN", "LEFT SEMI JOIN", "LEFT ANTI JOIN", "ASOF JOIN", "INNER ANY JOIN",
-         "RIGHT SEMI JOIN", "GLOBAL ANY INNER JOIN", "PASTE JOIN"]
+         "RIGHT SEMI JOIN", "GLOBAL ANY INNER JOIN", "PASTE JOIN",
+         "RIGHT OUTER JOIN", "INNER ALL JOIN", "LEFT ASOF JOIN", "GLOBAL RIGHT JOIN", "RIGHT ANTI JOIN", "ALL LEFT JOIN",
+         "ALL FULL OUTER JOIN", "GLOBAL ALL LEFT OUTER JOIN", "ANY RIGHT JOIN", "SEMI RIGHT JOIN", "ANTI RIGHT JOIN", "ASOF INNER JOIN",
+         "GLOBAL ASOF LEFT JOIN", "GLOBAL CROSS JOIN", "LEFT ALL JOIN", "RIGHT ALL JOIN", "FULL ALL JOIN", "RIGHT ANY JOIN",
+         "GLOBAL INNER JOIN", "GLOBAL FULL JOIN", "ANY JOIN", "ALL JOIN", "GLOBAL JOIN", "inner join", "left outer join", "Global Any Left Join"]
 
 
 def from_clause(r, d):
     s = "FROM " + table_expr(r, d)
     n = r.pick([0, 0, 0, 1, 1, 2, 3])
+    aj = False
     for _ in range(n):
         x = r.below(8)
-        if x == 0:
+        if x == 0 and not aj:
             s += ", " + table_expr(r, d, first=False)
             continue
+        if x == 0:
+            x = 2
         if x == 1:
-            s += r.pick([" ARRAY JOIN ", " LEFT ARRAY JOIN "]) + ", ".join(
-                r.pick(["arr", "arr AS e", "[1, 2] AS q", "arrayEnumerate(arr) AS i", "m.keys AS k"])
+            s += r.pick([" ARRAY JOIN ", " LEFT ARRAY JOIN ", " array join "]) + ", ".join(
+                r.pick(["arr", "arr AS e", "[1, 2] AS q", "arrayEnumerate(arr) AS i", "m.keys AS k", "nested.x", "nested.x AS nx, nested.y AS ny",
+                        "arrayMap(x -> x + 1, arr) AS inc", "t.arr", "splitByChar(',', name) AS part", "range(3) r", "[[1, 2], [3]] AS aa", "mapKeys(m) AS mk"])
                 for _ in range(1 + r.below(2)))
             STATE["bare"] = False
+            aj = True
             continue
+        aj = False
         j = r.pick(JOINS)
         s += " " + j + " " + table_expr(r, d, first=False)
-        if "CROSS" in j or "PASTE" in j:
+        if "CROSS" in j.upper() or "PASTE" in j.upper():
             continue
-        if r.p(2, 3):
-            s += " ON " + r.pick(["t.a = t2.a", "t1.id = t2.id AND t1.x > 0", "a = b", "t.ts >= t2.ts"])
+        y = r.below(9)
+        if y < 5:
+            s += " ON " + r.pick(["t.a = t2.a", "t1.id = t2.id AND t1.x > 0", "a = b", "t.ts >= t2.ts", "(t.a, t.b) = (t2.a, t2.b)",
+                                  "t.a = t2.a OR t.b = t2.b", "toDate(t.ts) = t2.d AND t.id IN (1, 2)", "t.a <=> t2.a", "1", "t.a = t2.a AND t.ts BETWEEN t2.s AND t2.e",
+                                  "t.id = t2.id AND t2.val IS NOT NULL", "lower(t.name) = t2.name", "t.a::String = t2.a"])
+        elif y < 8:
+            u = r.pick(["(a)", "(a, b)", "a", "id, ts", "(id)", "(`a b`)", "(a, b, c)", "(key)"])
+            s += " USING " + u
+            aj = u[0] != "("          # (a comma after an unparenthesised USING list continues that list)
         else:
-            s += " USING " + r.pick(["(a)", "(a, b)", "a", "id, ts"])
+            s += " USING " + r.pick(["()", "(a)", "(*)"])
         STATE["bare"] = False
     return s
 
 
-def with_clause(r, d):
+def with_clause(r, d, top=False):
     items = []
     for _ in range(1 + r.below(3)):
-        x = r.below(6)
+        x = r.below(12)
         if x == 0 and d < 4:
-            items.append(r.pick(["cte", "q1", "sub"]) + " AS (" + select_with_union(r, d + 1, simple=True) + ")")
+            items.append(r.pick(["cte", "q1", "sub", "`my cte`", "table", "key"]) + " AS (" + select_with_union(r, d + 1, simple=True) + ")")
         elif x == 1 and d < 4:
             items.append("(" + select_core(r, d + 1, simple=True) + ") AS " + r.pick(["s", "mx"]))
         elif x == 2:
             items.append(literal(r) + " AS " + r.pick(["c1", "c2", "w"]))
+        elif x == 3:
+            items.append(r.pick(["number AS k", "a AS b", "x AS `y z`", "ts AS key"]))                    # identifier AS identifier
+        elif x == 4:
+            items.append(r.pick(["x -> x + 1 AS f", "(x, y) -> x + y AS add", "x -> toString(x) AS lambda_1", "() -> 1 AS one",
+                                 "x -> (x, x) AS dup", "(x) -> x AS ident"]))
+        elif x == 5 and top:
+            items.append(r.pick(["1", "'a'", "now()", "[1, 2]", "(1, 2)", "a + 1", "-1", "[1, x]", "(1, x)", "()", "a", "a || b", "-x", "NOT a",
+                                 "a ? 1 : 2", "(SELECT 1)", "a AND b", "a OR b OR c", "[[1, 2], [x]]", "-1.5", "f(x)", "x -> x + 1", "a BETWEEN 1 AND 2",
+                                 "a LIKE 'x'", "arr[1]", "x::UInt8", "CAST(x AS UInt8)", "INTERVAL 1 DAY", "NULL", "t.a"]))    # the alias is optional
+        elif x == 6:
+            items.append(r.pick(["-1", "-1.5", "-x", "NOT a", "- 18446744073709551615", "-inf", "-(1)"]) + " AS " + r.pick(["n1", "n2"]))
+        elif x == 7:
+            items.append(r.pick([array_lit(r), tuple_lit(r, 1)]) + " AS " + r.pick(["lit1", "lit2"]))
         else:
             items.append(expr(r, d + 2, False) + " AS " + r.pick(["w1", "w2", "e"]))
-    return "WITH " + ", ".join(items)
+    return "WITH " + ("RECURSIVE " if top and r.p(1, 12) and items[0][0] not in "[(" else "") + ", ".join(items)
 
 
 def order_elem(r, d):
     s = expr(r, d + 2, False) if r.p(1, 3) else col(r)
-    s += r.pick(["", "", " ASC", " DESC"])
+    s += r.pick(["", "", " ASC", " DESC", " asc", " desc"])
     if r.p(1, 8):
-        s += r.pick([" NULLS FIRST", " NULLS LAST"])
+        s += r.pick([" NULLS FIRST", " NULLS LAST", " nulls first"])
     if r.p(1, 10):
-        s += " COLLATE " + r.pick(["'en'", "'en'", "'tr'", "'x\\ny'"])
+        s += " COLLATE " + r.pick(["'en'", "'en'", "'tr'", "'x\\ny'", "'de_DE'", "'it\\'s'", "en", "'ru-RU-u-kn'", "'back\\\\slash'"])
     return s
+
+
+def fill_spec(r):
+    f = " WITH FILL"
+    if r.p(1, 2):
+        f += " FROM " + r.pick(["1", "toDate('2020-01-01')", "0", "-10", "toDateTime64('2020-01-01 00:00:00', 3)", "x", "1.5"])
+    if r.p(1, 2):
+        f += " TO " + r.pick(["10", "100", "toDate('2021-01-01')", "-1", "now()", "y + 1"])
+    if r.p(1, 2):
+        f += " STEP " + r.pick(["1", "2", "INTERVAL 1 DAY", "-1", "0.5", "INTERVAL 2 WEEK", "toIntervalHour(1)", "INTERVAL -1 MONTH"])
+    if r.p(1, 6):
+        f += " STALENESS " + r.pick(["3", "INTERVAL 2 HOUR", "-2", "INTERVAL 1 DAY"])
+    return f
 
 
 def order_by(r, d):
     elems = [order_elem(r, d) for _ in range(1 + r.below(3))]
     fill = r.p(1, 4)
     if fill:
-        f = " WITH FILL"
-        if r.p(1, 2):
-            f += " FROM " + r.pick(["1", "toDate('2020-01-01')", "0"])
-        if r.p(1, 2):
-            f += " TO " + r.pick(["10", "100", "toDate('2021-01-01')"])
-        if r.p(1, 2):
-            f += " STEP " + r.pick(["1", "2", "INTERVAL 1 DAY"])
-        if r.p(1, 6):
-            f += " STALENESS " + r.pick(["3", "INTERVAL 2 HOUR"])
-        elems[-1] += f
+        elems[-1] += fill_spec(r)
+        if len(elems) > 1 and r.p(1, 4):
+            elems[0] += fill_spec(r)
     s = "ORDER BY " + ", ".join(elems)
+    if r.p(1, 40):
+        s = "ORDER BY ALL" + r.pick(["", " DESC", " ASC NULLS FIRST"])
+        fill = False
     if fill and r.p(2, 3):
         s += " " + r.pick(["INTERPOLATE", "INTERPOLATE ()", "INTERPOLATE (a)", "INTERPOLATE (a AS a + 1)",
-                           "INTERPOLATE (a, b AS b * 2)", "INTERPOLATE (x AS x + 1, y)"])
+                           "INTERPOLATE (a, b AS b * 2)", "INTERPOLATE (x AS x + 1, y)", "INTERPOLATE ( )", "interpolate",
+                           "INTERPOLATE (key AS key + 1)", "INTERPOLATE (a AS NULL, b AS 'x', c AS [1, -2])", "INTERPOLATE (`a b` AS `a b` || 'x')",
+                           "INTERPOLATE (a AS a + 1, b AS b + 1, c, d AS (SELECT 1))", "INTERPOLATE (x AS if(x > 0, x, 0))"])
     return s
 
 
 def group_by(r, d):
-    x = r.below(14)
+    x = r.below(18)
     if x == 0:
-        return "GROUP BY ALL"
+        return "GROUP BY ALL" + r.pick(["", " WITH TOTALS", " WITH ROLLUP"])
     if x == 1:
         return "GROUP BY GROUPING SETS (" + ", ".join(
-            r.pick(["(a)", "(a, b)", "()", "a", "((a, b))", "(a, b, c)", "(toDate(ts))", "(a + 1, b)"])
-            for _ in range(1 + r.below(4))) + ")"
+            r.pick(["(a)", "(a, b)", "()", "a", "((a, b))", "(a, b, c)", "(toDate(ts))", "(a + 1, b)", "(key)", "((a), (b))", "(a, (b, c))", "a + b", "(())", "((a))", "((a, b), c)"])
+            for _ in range(1 + r.below(4))) + ")" + r.pick(["", "", " WITH TOTALS"])
     if x == 2:
-        return "GROUP BY " + r.pick(["ROLLUP", "CUBE"]) + "(" + ", ".join(col(r) for _ in range(1 + r.below(3))) + ")"
+        return "GROUP BY " + r.pick(["ROLLUP", "CUBE", "rollup", "Cube"]) + "(" + ", ".join(col(r) for _ in range(1 + r.below(3))) + ")" \
+            + r.pick(["", "", " WITH TOTALS"])
     s = "GROUP BY " + ", ".join(expr(r, d + 2, False) if r.p(1, 3) else col(r) for _ in range(1 + r.below(3)))
     if x == 3:
         s += " WITH ROLLUP"
     elif x == 4:
         s += " WITH CUBE"
+    elif x == 7:
+        s += r.pick([" WITH ROLLUP WITH TOTALS", " WITH CUBE WITH TOTALS", " with totals"])
+    elif x == 8:
+        s = "GROUP BY " + r.pick(["1", "1, 2", "()", "(a, b)", "((a, b), c)", "tuple()", "a, (b)", "[a, b]", "NULL", "'x'"])
     if x in (5, 6):
         s += " WITH TOTALS"
     return s
 
 
+def lcol(r):
+    c = col(r)
+    return "ts" if c.lower().startswith("format") else c
+
+
 def limit_clause(r):
-    x = r.below(20)
-    n = lambda: r.pick(["1", "2", "10", "100", "{lim:UInt64}", "1 + 1", "toUInt8(5)"])
+    x = r.below(32)
+    col = lcol
+    n = lambda: r.pick(["1", "2", "10", "100", "{lim:UInt64}", "1 + 1", "toUInt8(5)", "0", "-1", "0.5", "(SELECT 10)", "18446744073709551615"])
     forms = [
         lambda: "LIMIT " + n(),
         lambda: "LIMIT " + n() + ", " + n(),
@@ -555,25 +1319,43 @@ def limit_clause(r):
         lambda: "LIMIT " + n() + " BY " + col(r) + " OFFSET " + n(),
         lambda: "OFFSET " + n() + " ROWS FETCH FIRST " + n() + " ROW ONLY",
         lambda: "LIMIT " + n() + ", " + n() + " BY " + col(r) + " LIMIT " + n(),
-        lambda: "LIMIT " + n() + " BY " + expr(r, 3, False),
+        lambda: "LIMIT " + n() + " BY (" + expr(r, 3, False) + ")",
         lambda: "LIMIT " + n() + " BY " + col(r) + ", " + col(r) + ", " + col(r),
         lambda: "LIMIT " + n(),
         lambda: "LIMIT " + n() + " BY " + col(r) + ", " + col(r) + " LIMIT " + n() + " OFFSET " + n(),
+        # --- further spellings
+        lambda: "LIMIT " + n() + ", " + n() + " WITH TIES",
+        lambda: "LIMIT " + n() + " OFFSET " + n() + r.pick([" ROW", " ROWS"]),
+        lambda: "FETCH FIRST " + n() + " ROWS ONLY",
+        lambda: "FETCH NEXT " + n() + " ROW ONLY",
+        lambda: "OFFSET " + n() + " ROWS FETCH NEXT " + n() + " ROWS WITH TIES",
+        lambda: "FETCH FIRST " + n() + " ROWS WITH TIES",
+        lambda: "LIMIT " + n() + " BY " + col(r) + " LIMIT " + n() + " WITH TIES",
+        lambda: "LIMIT " + n() + " OFFSET " + n() + " BY " + col(r) + ", " + col(r),
+        lambda: "limit " + n() + " by " + col(r) + " limit " + n() + " offset " + n(),
+        lambda: "LIMIT " + n() + " BY (" + col(r) + ", " + col(r) + ")",
+        lambda: "LIMIT " + n() + " BY toDate(ts), " + col(r),
+        lambda: "LIMIT " + n() + " BY " + col(r) + " OFFSET " + n() + r.pick([" ROW", " ROWS"]),
     ]
     return forms[x]()
 
 
+def setting_value(r):
+    return r.pick(["1", "0", "100", "'x'", "1.5", "true", "false", "-1", "'a\\'b'", "NULL", "[1, 2]", "(1, 'a')", "'{}'",
+                   "18446744073709551615", "1e3", "'tab\\t'", "inf", "'default'", "{p:UInt64}", "1 + 1", "toUInt8(1)"])
+
+
 def settings_clause(r):
-    return "SETTINGS " + ", ".join(r.pick(SETTINGS) + " = " + r.pick(["1", "0", "100", "'x'", "1.5"])
-                                   for _ in range(1 + r.below(2)))
+    return "SETTINGS " + ", ".join(r.pick(SETTINGS) + " = " + setting_value(r) for _ in range(1 + r.below(2)))
 
 
 def select_tail(r, outfile=True, s_then_f=True, fmt_ok=True):
     """statement-level tail after a select / union: a mix of SETTINGS, INTO OUTFILE, FORMAT, SETTINGS.
     The flags switch off the forms the parser does not take after a parenthesised last member /
     after an INTERSECT-EXCEPT chain."""
-    f = lambda: "FORMAT " + r.pick(FORMATS)
-    o = lambda: "INTO OUTFILE " + r.pick(["'f.csv'", "'out.tsv'", "'o.gz'", "'dir/f.csv'", "'a\\tb.tsv'", "'two\\nlines'"])
+    f = lambda: r.pick(["FORMAT ", "FORMAT ", "format "]) + r.pick(FORMATS)
+    o = lambda: "INTO OUTFILE " + r.pick(["'f.csv'", "'out.tsv'", "'o.gz'", "'dir/f.csv'", "'a\\tb.tsv'", "'two\\nlines'", "'it\\'s.csv'",
+                                          "'back\\\\slash'", "''", "'ü.csv'", "$$heredoc.csv$$"]) + r.pick(["", "", " TRUNCATE"])
     s = lambda: settings_clause(r)
     forms = [(lambda: "", True)] * 6 + [
         (f, fmt_ok), (s, True), (o, outfile),
@@ -588,37 +1370,49 @@ def select_tail(r, outfile=True, s_then_f=True, fmt_ok=True):
     return g() if ok else ""
 
 
+WINDOWS = ["PARTITION BY a", "ORDER BY ts", "PARTITION BY a ORDER BY b DESC", "ORDER BY x ROWS BETWEEN 1 PRECEDING AND CURRENT ROW", "",
+           "PARTITION BY a, b ORDER BY c ASC NULLS LAST, d DESC", "ORDER BY x RANGE BETWEEN 1 PRECEDING AND 1 FOLLOWING", "ROWS UNBOUNDED PRECEDING",
+           "PARTITION BY toDate(ts) ORDER BY ts GROUPS BETWEEN UNBOUNDED PRECEDING AND CURRENT ROW", "ORDER BY x ROWS 10 PRECEDING",
+           "PARTITION BY a ORDER BY b ROWS BETWEEN x + 1 PRECEDING AND 2 * y FOLLOWING", "ORDER BY ts RANGE BETWEEN INTERVAL 1 HOUR PRECEDING AND CURRENT ROW"]
+
+
 def select_core(r, d=0, simple=False, force_from=False):
     """SELECT ... without a statement-level tail"""
     p = []
     rich = not simple or r.p(1, 3)
     if rich and r.p(1, 4):
-        p.append(with_clause(r, d))
+        p.append(with_clause(r, d, top=(d == 0)))
     s = "SELECT"
     x = r.below(12)
+    items = [select_item(r, d + 1) for _ in range(1 + (r.below(4) if rich else r.below(2)))]
     if x == 0:
         s += " DISTINCT"
-    elif x == 1 and rich:
+    elif x == 1 and rich and items[0][0] not in "[(":
+        # (`DISTINCT ON (a) [1]::T`: the re-layout harness of C05 reads `(a) [1]` as an element access and does not freeze the literal)
         s += " DISTINCT ON (" + ", ".join(col(r) for _ in range(1 + r.below(2))) + ")"
     elif x == 2:
         s += " ALL"
-    if rich and r.p(1, 14):
-        s += " TOP " + r.pick(["3", "10", "5 WITH TIES"])
+    if rich and r.p(1, 14) and items[0][0] not in "[.(":
+        # (TOP n is followed by an expression: `TOP 3 [1]` would be an element access)
+        s += " TOP " + r.pick(["3", "10", "5 WITH TIES", "1", "100 WITH TIES", "{n:UInt64}", "(1 + 1)"])
     p.append(s)
-    p.append(", ".join(select_item(r, d + 1) for _ in range(1 + (r.below(4) if rich else r.below(2)))))
     has_from = force_from or r.p(4, 5)
+    lst = ", ".join(items)
+    p.append(lst)
     from_idx = -1
     from_bare = False
     if has_from:
         p.append(from_clause(r, d + 1) if rich else "FROM " + table_expr(r, d + 1))
+        if r.p(1, 30) and not lst.rstrip().endswith(("*", ")")) and (not p[-1].startswith("FROM (") or p[-1].startswith(("FROM (SELECT", "FROM (WITH"))):
+            p[-2] += ","                             # trailing comma of the select list
         from_idx = len(p)
         from_bare = STATE["bare"]
         if rich and r.p(1, 8):
             p.append("PREWHERE " + expr(r, d + 2, False))
     elif rich and r.p(1, 10):
-        p.append("ARRAY JOIN [1, 2] AS e")
+        p.append(r.pick(["ARRAY JOIN [1, 2] AS e", "LEFT ARRAY JOIN [1, 2] AS e, ['a'] AS f", "ARRAY JOIN arr"]))
     if r.p(1, 3):
-        p.append("WHERE " + expr(r, d + 1))
+        p.append(r.pick(["WHERE ", "WHERE ", "where "]) + expr(r, d + 1))
     if not rich:
         if r.p(1, 5):
             p.append("GROUP BY " + col(r))
@@ -632,14 +1426,27 @@ def select_core(r, d=0, simple=False, force_from=False):
         p.append(group_by(r, d))
         if r.p(1, 3):
             p.append("HAVING " + expr(r, d + 2, False))
+    elif has_from and r.p(1, 40) and not from_bare:
+        # WITH TOTALS without GROUP BY (then only HAVING / SETTINGS can follow)
+        p.append("WITH TOTALS" + (" HAVING " + expr(r, d + 2, False) if r.p(1, 2) else ""))
+        STATE["bare"] = False
+        return " ".join(x for x in p if x)
     has_window = r.p(1, 10)
     has_qualify = r.p(1, 12)
     if has_qualify and not has_window:
         p.append("QUALIFY " + expr(r, d + 2, False))
     if has_window:
-        p.append("WINDOW w AS (" + r.pick(["PARTITION BY a", "ORDER BY ts", "PARTITION BY a ORDER BY b DESC",
-                                            "ORDER BY x ROWS BETWEEN 1 PRECEDING AND CURRENT ROW", ""]) + ")"
-                 + (", w2 AS (PARTITION BY b)" if r.p(1, 3) else ""))
+        w = "WINDOW w AS (" + r.pick(WINDOWS) + ")"
+        y = r.below(6)
+        if y == 0:
+            w += ", w2 AS (PARTITION BY b)"
+        elif y == 1:
+            w += ", w2 AS (w ORDER BY x)"                       # a window that refers to another one
+        elif y == 2:
+            w += ", w2 AS (w), w3 AS (w2 ROWS UNBOUNDED PRECEDING)"
+        else:
+            w += ", w2 AS (" + r.pick(WINDOWS) + ")"
+        p.append(w)
     if has_window and has_qualify:
         # ClickHouse's order is WINDOW, QUALIFY, ORDER BY; the parser takes a QUALIFY that follows
         # WINDOW only at the very end of the SELECT
@@ -648,7 +1455,12 @@ def select_core(r, d=0, simple=False, force_from=False):
         if r.p(1, 3):
             p.append(order_by(r, d))
         if r.p(2, 5):
-            p.append(limit_clause(r))
+            lc = limit_clause(r)
+            if lc.upper().startswith("FETCH") and from_bare and from_idx == len(p):
+                lc = "OFFSET 1 ROWS " + lc           # (directly after a table name FETCH would be taken for its alias)
+            if lc.upper().startswith("OFFSET") and from_idx == len(p) and " SAMPLE " in p[-1]:
+                lc = ""                              # (SAMPLE r OFFSET n: the OFFSET would belong to SAMPLE)
+            p.append(lc)
     STATE["bare"] = from_bare and from_idx == len(p)
     return " ".join(x for x in p if x)
 
@@ -664,13 +1476,13 @@ def select_with_union(r, d=0, simple=False):
     s = select_core(r, d, simple)
     n = r.pick([0, 0, 0, 1, 1, 2])
     for _ in range(n):
-        s += " " + r.pick(["UNION ALL", "UNION ALL", "UNION DISTINCT", "UNION"]) + " " + member(r, d, True)
+        s += " " + r.pick(["UNION ALL", "UNION ALL", "UNION DISTINCT", "UNION", "union all"]) + " " + member(r, d, True)
     return s
 
 
 def deep_case(r):
     """nesting up to 300 levels, never more"""
-    x = r.below(8)
+    x = r.below(12)
     if x == 0:
         n = 100 + r.below(200)      # nested function calls: 130+ for most
         f = r.pick(["abs", "toString", "negate", "identity"])
@@ -693,16 +1505,134 @@ def deep_case(r):
     if x == 6:
         n = 10 + r.below(60)
         return "SELECT a FROM t WHERE a IN (" + "SELECT a FROM t WHERE a IN (" * n + "SELECT 1" + ")" * n + ")"
-    n = 30 + r.below(200)
-    return "SELECT " + "-(" * n + "x" + ")" * n + ", " + "NOT (" * 40 + "a" + ")" * 40
+    if x == 7:
+        n = 30 + r.below(200)
+        return "SELECT " + "-(" * n + "x" + ")" * n + ", " + "NOT (" * 40 + "a" + ")" * 40
+    if x == 8:
+        n = 20 + r.below(150)       # nested literal arrays / tuples (literal formatters recurse)
+        return "SELECT " + "[" * n + r.pick(["1", "-1", "NULL", "'a'", "-NULL", ""]) + "]" * n + ", " + "(1, " * (n // 2) + "2" + ")" * (n // 2)
+    if x == 9:
+        n = 20 + r.below(100)       # nested types
+        return "SELECT CAST(x AS " + "Array(" * n + "UInt8" + ")" * n + "), x::" + "Nullable(" * (n // 2) + "Tuple(a UInt8)" + ")" * (n // 2)
+    if x == 10:
+        n = 20 + r.below(100)       # nested lambdas and casts
+        return "SELECT " + "arrayMap(x -> " * n + "x" + ", arr)" * n + ", " + "x" + "::String" * n
+    n = 20 + r.below(100)
+    return "WITH " + "(SELECT " * n + "1" + ")" * n + " AS s SELECT s"
+
+
+def top_level_spaces(s):
+    """indexes of the spaces of s that lie outside string literals, quoted identifiers, heredocs and {parameters}"""
+    out = []
+    i, n = 0, len(s)
+    while i < n:
+        c = s[i]
+        if c in "'\"`":
+            i += 1
+            while i < n:
+                if s[i] == "\\":
+                    i += 2
+                    continue
+                if s[i] == c:
+                    if i + 1 < n and s[i + 1] == c:
+                        i += 2
+                        continue
+                    break
+                i += 1
+        elif c == "$":
+            j = s.find("$", i + 1)
+            if j < 0:
+                return []
+            tag = s[i:j + 1]
+            k = s.find(tag, j + 1)
+            if k < 0:
+                return []
+            i = k + len(tag) - 1
+        elif c in "‘“":
+            j = s.find("’" if c == "‘" else "”", i + 1)
+            if j < 0:
+                return []
+            i = j
+        elif c == "{":
+            j = s.find("}", i + 1)
+            if j < 0:
+                return []
+            i = j
+        elif c == " ":
+            out.append(i)
+        i += 1
+    return out
+
+
+COMMENTS = ["/* c */", "/**/", "/* a /* nested */ b */", "/* -- */", "/* ' */", "/*+ hint */", "/* \" ` */", "/* ; */", "/*\\*/", "/* üñí */"]
+
+
+def decorate(r, s):
+    """layout that never changes the meaning: block comments between tokens, a trailing comment or semicolon"""
+    x = r.below(8)
+    if x < 4:
+        sp = top_level_spaces(s)
+        if not sp or " FORMAT " in s.upper():
+            return s
+        for i in sorted(set(r.pick(sp) for _ in range(1 + r.below(2))), reverse=True):
+            s = s[:i] + " " + r.pick(COMMENTS) + " " + s[i + 1:]
+        return s
+    if " FORMAT " in s.upper():
+        return s
+    if x == 4:
+        return s + r.pick([" -- trailing comment", " --", " # hash comment", " -- it's", " /* end */", " #", " --;"])
+    if x == 5:
+        if s[:5].upper() == "SHOW ":
+            return s            # (checks/c04.py recognises the known SHOW finding by the first word of the statement)
+        return r.pick(["/* lead */ ", "/**/", "; ", ";; ", ";"]) + s
+    if x == 6:
+        # the zero-width characters ClickHouse's lexer skips like white space, a TAB, several blanks
+        sp = top_level_spaces(s)
+        if not sp:
+            return s
+        i = r.pick(sp)
+        return s[:i] + r.pick(["\u200b", "\ufeff", "\u2060", "\u180e", "\u200c", "\u200d", " \u200b ", "   ", " " + RAW_TAB + " "]) + s[i + 1:]
+    return s + r.pick([";", " ;", ";;", "; -- done"])
 
 
 def gen_select(r):
     if r.p(1, 12):
         return deep_case(r)
+    if r.p(1, 60):
+        return r.pick(["SELECT interval, columns, array FROM t WHERE interval = 1 AND columns != array",
+                       "SELECT (explain LIKE '%a%') AS m, explain FROM (EXPLAIN SELECT 1)", "SELECT (EXPLAIN header = 1 SELECT 1)",
+                       "SELECT (EXPLAIN AST SELECT 1) AS e", "SELECT (explain) FROM (EXPLAIN SYNTAX SELECT 1)", "SELECT exists, exists + 1 FROM t",
+                       "SELECT 1 UNION ALL FROM t SELECT a", "SELECT a FROM t UNION ALL FROM t2 SELECT DISTINCT b WHERE b > 0",
+                       "WITH 1 AS n FROM t SELECT n, a", "WITH x -> x + 1 AS f FROM numbers(3) SELECT f(number)",
+                       "SELECT * FROM (WITH 1 AS n FROM t SELECT n)", "SELECT interval AS i, columns AS c FROM t ORDER BY interval, columns",
+                       "SELECT array[1], array.1 FROM t", "SELECT t.interval, t.columns, t.array, t.exists FROM t",
+                       "SELECT 1 AS interval, 2 AS columns, 3 AS array, 4 AS format, 5 AS exists", "SELECT a, FROM (SELECT 1 AS a)", "SELECT a, b, FROM (WITH 1 AS a SELECT a, 2 AS b)",
+                       "SELECT COLUMNS('a') REPLACE a + 1 AS a FROM t", "SELECT b, COLUMNS(a, b) REPLACE toString(b) AS b APPLY sum FROM t", "SELECT t.COLUMNS(a) REPLACE a * 2 AS a",
+                       "SELECT x IN ('a', 'b', 'c', 'd', 'e', 'f', 'g', 'h', 'i', 'j', 'k', 'l') AS many, y NOT IN ('1', '2', '3', '4', '5', '6', '7', '8', '9', '10', '11') m FROM t",
+                       "SELECT x IN ('a', 'b', NULL, 'd', 'e', 'f', 'g', 'h', 'i', 'j', 'k') AS with_null FROM t"])
+    if r.p(1, 40):
+        # FROM-first spelling
+        s = (with_clause(r, 2) + " " if r.p(1, 5) else "") + "FROM " + table_expr(r, 1) + " SELECT " + r.pick(["", "", "DISTINCT ", "DISTINCT ON (a, b) "]) \
+            + ", ".join(select_item(r, 2) for _ in range(1 + r.below(3)))
+        if r.p(1, 2):
+            s += " WHERE " + expr(r, 2, False)
+        if r.p(1, 2):
+            s += " GROUP BY " + ", ".join(col(r) for _ in range(1 + r.below(2)))
+            if r.p(1, 2):
+                s += " HAVING " + expr(r, 3, False)
+        if r.p(1, 2):
+            s += " ORDER BY " + order_elem(r, 2)
+        if r.p(1, 2):
+            s += " LIMIT " + r.pick(["1", "10", "{lim:UInt64}"])
+        if r.p(1, 3):
+            s += " " + settings_clause(r)
+        return s
     s = select_core(r, 0)
     t = select_tail(r, outfile=not STATE["bare"])
-    return s + (" " + t if t else "")
+    s = s + (" " + t if t else "")
+    if r.p(1, 40) and not t.strip().upper().startswith(("FORMAT", "INTO", "SETTINGS")) and " FORMAT " not in t.upper():
+        s = "(" + s + ")"            # the whole statement in parentheses
+    return s
 
 
 def gen_setop(r):
@@ -710,9 +1640,9 @@ def gen_setop(r):
     if x < 5:
         ops = ["UNION ALL", "UNION ALL", "UNION DISTINCT", "UNION"]
     elif x < 7:
-        ops = ["INTERSECT", "EXCEPT", "INTERSECT DISTINCT", "EXCEPT DISTINCT"]
+        ops = ["INTERSECT", "EXCEPT", "INTERSECT DISTINCT", "EXCEPT DISTINCT", "INTERSECT ALL", "EXCEPT ALL", "intersect", "except all"]
     else:
-        ops = ["UNION ALL", "UNION DISTINCT", "UNION", "INTERSECT", "EXCEPT"]
+        ops = ["UNION ALL", "UNION DISTINCT", "UNION", "INTERSECT", "EXCEPT", "INTERSECT ALL", "EXCEPT DISTINCT"]
     maybe_setop = x >= 5
     # (a member ending in `*` / COLUMNS(..) directly before EXCEPT would read as a column transformer)
     first = select_core(r, 1, simple=not r.p(1, 3), force_from=maybe_setop)
@@ -720,7 +1650,7 @@ def gen_setop(r):
         first = with_clause(r, 2) + " " + first      # WITH on the first member: inherited-WITH printers
     if first.startswith("WITH") and x >= 7:
         # a statement that starts with WITH takes UNION before INTERSECT / EXCEPT only in parentheses
-        ops = r.pick([["UNION ALL", "UNION DISTINCT", "UNION"], ["INTERSECT", "EXCEPT"]])
+        ops = r.pick([["UNION ALL", "UNION DISTINCT", "UNION"], ["INTERSECT", "EXCEPT", "INTERSECT ALL", "EXCEPT DISTINCT"]])
     first_paren = (not maybe_setop or x < 7) and r.p(1, 6)
     if first_paren:
         first = "(" + first + ")"
@@ -737,10 +1667,24 @@ def gen_setop(r):
         if y == 0:
             m = "(" + m + ")"
         elif y == 1:
-            m = "(" + m + " " + r.pick(["UNION ALL", "UNION DISTINCT"]) + " " + select_core(r, 2, True) + ")"
+            m = "(" + m + " " + r.pick(["UNION ALL", "UNION DISTINCT", "UNION", "UNION ALL"]) + " " + select_core(r, 2, True) \
+                + (" " + r.pick(["UNION ALL", "UNION DISTINCT", "UNION"]) + " " + select_core(r, 2, True) if r.p(1, 3) else "") + ")"
         op = r.pick(ops)
-        setop = setop or op[0] in "IE"
+        setop = setop or op[0] in "IEie"
         s += " " + op + " " + m
+    if first.startswith("WITH") and setop and not last_paren and r.p(1, 3):
+        # after an INTERSECT / EXCEPT chain of a statement that starts with WITH: UNION members
+        for _ in range(1 + r.below(2)):
+            m = select_core(r, 1, simple=True, force_from=True)
+            bare = STATE["bare"]
+            last_paren = r.p(1, 4)
+            s += " " + r.pick(["UNION ALL", "UNION DISTINCT", "UNION"]) + " " + ("(" + m + ")" if last_paren else m)
+    if setop and last_paren:
+        if first.startswith("WITH") and r.p(1, 2):
+            # (a statement that starts with WITH takes SETTINGS at the level of the whole chain)
+            # (only SETTINGS: the FORMAT name is taken there only when the first member is a plain SELECT)
+            return s + " " + r.pick(["SETTINGS max_threads = 1", "SETTINGS a = 1, b = 'x'", "settings max_threads = 1"])
+        return s                # (no tail is taken after a parenthesised last member of an INTERSECT / EXCEPT chain)
     t = select_tail(r, outfile=not last_paren and not bare, s_then_f=not setop,
                     fmt_ok=not (setop and last_paren))
     return s + (" " + t if t else "")
@@ -749,35 +1693,64 @@ def gen_setop(r):
 # ------------------------------------------------------------------------------------------
 # INSERT
 
+def values_rows(r):
+    rows = []
+    for _ in range(1 + r.below(3)):
+        rows.append("(" + ", ".join(r.pick([literal(r), literal(r), expr(r, 3, False), "DEFAULT", "NULL", "now()", "-1", "[]", "(1, 'a')"])
+                                    for _ in range(1 + r.below(4))) + ")")
+    return r.pick([", ", ",", " , "]).join(rows)        # (ClickHouse also takes rows without commas; the parser does not)
+
+
 def gen_insert(r):
     pre = ""
     if r.p(1, 3):
         pre = with_clause(r, 2) + " "            # WITH ... INSERT ... SELECT (inherited-WITH printers)
     x = r.below(10)
     if x == 0:
-        tgt = r.pick(["FUNCTION ", "TABLE FUNCTION "]) + r.pick(
-            ["file('a.csv', 'CSV', 'x UInt8')", "remote('h', db.t)", "s3('http://b/k', 'CSV')", "null('a UInt8')"])
+        tgt = r.pick(["FUNCTION ", "TABLE FUNCTION ", "function "]) + r.pick(
+            ["file('a.csv', 'CSV', 'x UInt8')", "remote('h', db.t)", "s3('http://b/k', 'CSV')", "null('a UInt8')",
+             "url('http://h/x', JSONEachRow, 'a UInt8')", "mysql('h:3306', 'd', 't', 'u', 'p')", "cluster('c', db.t)",
+             "s3('http://b/{_partition_id}', 'CSV', 'a UInt8')", "file('out.parquet')", "remoteSecure('h', 'db', 't')",
+             "azureBlobStorage('c', 'cont', 'blob', 'CSV')", "hdfs('hdfs://h/f', 'TSV', 'a UInt8')", "postgresql('h', 'd', 't', 'u', 'p')",
+             "s3(named_coll, filename = 'f.csv')", "file('f', 'CSV', 'a UInt8', SETTINGS max_threads = 1)"])
         if r.p(1, 3):
-            tgt += " PARTITION BY " + col(r)
+            tgt += " PARTITION BY " + r.pick([col(r), "toYYYYMM(ts)", "(a, b)", "a % 10", "rand() % 4"])
     else:
-        tgt = r.pick(["", "", "TABLE "]) + r.pick(["t", "db.t", "`my table`", "t2"])
+        tgt = r.pick(["", "", "TABLE ", "table "]) + r.pick(["t", "db.t", "`my table`", "t2", "`my db`.`my table`", "\"t\"", "db.`t-1`",
+                                                             "{db:Identifier}.t", "{CLICKHOUSE_DATABASE:Identifier}.{tbl:Identifier}", "system.t",
+                                                             "`таблица`", "default.t"])
     cols = ""
-    y = r.below(8)
+    y = r.below(10)
+    if " PARTITION BY " in tgt:
+        y = 9           # (ClickHouse: PARTITION BY before the column list; the parser: after it — neither order serves both)
     if y < 3:
         cols = " (" + ", ".join(ident(r) for _ in range(1 + r.below(3))) + ")"
     elif y == 3:
-        cols = r.pick([" (*)", " (* EXCEPT (a))", " (COLUMNS('a'))", " (* EXCEPT a)"])
-    s = pre + "INSERT INTO " + tgt + cols
+        cols = r.pick([" (*)", " (* EXCEPT (a))", " (COLUMNS('a'))", " (* EXCEPT a)", " (* EXCEPT (a, b))", " (COLUMNS('^x') EXCEPT (y))",
+                       " (t.*)", " (*, a)", " (* EXCEPT (a), b)", " (COLUMNS(a, b))", " (* REPLACE (a + 1 AS a))", " (* APPLY(toString))"])
+    elif y == 4:
+        cols = r.pick([" (n.a, n.b)", " (a, nested.x, nested.y)", " (`n.a`, b)", " (ip4Map.value, ip4Map.key)", " (a.b.c)", " (key, value)",
+                       " (`a b`, \"c d\")", " ()", " (a,)"])
+    s = pre + r.pick(["INSERT INTO ", "INSERT INTO ", "insert into "]) + tgt + cols
     if not pre and r.p(1, 10):
         s += " " + settings_clause(r)
-    z = r.below(14)
+    z = r.below(20)
     if z == 0 and not pre:
         return s + " FORMAT " + r.pick(FORMATS)
     if z == 1 and not pre:
-        return s + " FROM INFILE 'f.csv'" + r.pick(["", " COMPRESSION 'gzip'"]) + " FORMAT CSV"
-    if z < 5:
+        return s + " FROM INFILE " + r.pick(["'f.csv'", "'dir/*.csv.gz'", "'it\\'s.tsv'", "'{a,b}.csv'", "'tab\\t.csv'", "'back\\\\slash.csv'"] + unless("infile-newline", "'nl\\n.csv'")) \
+            + r.pick(["", " COMPRESSION 'gzip'", " COMPRESSION 'zstd'", " COMPRESSION 'none'", " COMPRESSION 'it\\'s'"] + unless("infile-newline", " COMPRESSION 'a\\nb'")) + r.pick([" FORMAT CSV", " FORMAT TSV", ""])
+    if z in (2, 3, 4) and not pre:
+        # VALUES and inline data (raw text for the parser, never looked at)
+        return s + r.pick([" VALUES ", " VALUES ", " values ", " VALUES"]) + (values_rows(r) if r.p(11, 12) else "")
+    if z == 5 and not pre:
+        return s + " FORMAT " + r.pick(["JSONEachRow {\"a\": 1, \"b\": \"x\"} {\"a\": 2}", "CSV 1,2,\"a b\"", "TSV 1 2", "Values (1, 'a'), (2, 'b')",
+                                        "JSONEachRow {\"k\": [1, 2, {\"n\": null}]}", "CSV", "TabSeparated a b c", "JSONCompactEachRow [1, \"a\"]",
+                                        "Values (1, 'it''s'), (2, 'q\\'q')", "LineAsString some free text, with 'quotes' and (parens", "RawBLOB xyz",
+                                        "CustomSeparated 1|2", "Values", "JSONEachRow"])
+    if z < 9:
         body = select_with_union(r, 1, simple=True)
-    elif z < 7:
+    elif z < 11:
         body = gen_setop(Rng(r.next()))
         while body.startswith("("):
             body = gen_setop(Rng(r.next()))
@@ -794,61 +1767,103 @@ def gen_insert(r):
 def stat_kinds(r):
     """statistics kinds of ALTER ... ADD / MODIFY STATISTICS: plain and with arguments (ParserIdentifierWithOptionalParameters)"""
     return ", ".join(r.pick(["tdigest", "uniq", "minmax", "countmin", "tdigest(5)", "countmin(1, 2)", "uniq(a + 1)",
-                             "tdigest('x', 2)"]) for _ in range(1 + r.below(3)))
+                             "tdigest('x', 2)", "TDigest", "count_min", "tdigest()"]) for _ in range(1 + r.below(3)))
+
+
+CODECS = ["ZSTD(3)", "LZ4", "Delta", "DoubleDelta", "NONE", "LZ4HC(9)", "T64", "Gorilla", "Delta(4)", "ZSTD", "Default", "DEFAULT",
+          "FPC(12)", "GCD", "AES_128_GCM_SIV", "DEFLATE_QPL", "T64('bit')", "ZSTD(1 + 2)", "LZ4HC()", "Delta(-1)", "ZSTD_QAT(5)"]
+
+
+def column_name(r):
+    x = r.below(12)
+    if x == 0:
+        return r.pick(["n.a", "n.b", "nested.x.y", "`n.x`", "a.b", "key.value"])       # nested columns
+    if x == 1:
+        return r.pick(["key", "value", "table", "comment", "ttl", "codec", "settings", "default", "alias", "type"])
+    n = ident(r)
+    return "idx_col" if n.lower() in ("index", "primary", "constraint", "projection") else n   # (these words start other list elements)
 
 
 def column_decl(r):
-    s = ident(r) + " " + data_type(r, ddl=True)
+    name = column_name(r)
+    y = r.below(30)
+    if y == 0:
+        # the type is omitted
+        return name + " " + r.pick(["DEFAULT", "MATERIALIZED", "ALIAS", "default"]) + " " + expr(r, 3, False) \
+            + r.pick(["", "", " COMMENT 'no type'", " CODEC(ZSTD)"])
+    s = name + " " + data_type(r, ddl=True)
     if r.p(1, 12):
-        return s + " STATISTICS(" + r.pick(["tdigest", "uniq", "tdigest, uniq", "minmax, uniq, countmin"]) + ")"
+        return s + " STATISTICS(" + r.pick(["tdigest", "uniq", "tdigest, uniq", "minmax, uniq, countmin", "tdigest(100)", "countmin(1, 2), uniq"]) + ")"
     x = r.below(12)
+    if r.p(1, 40):
+        s += r.pick([" COLLATE binary", " COLLATE 'utf8_general_ci'", " COLLATE utf8mb4_bin"])
     if x == 0:
-        s += r.pick([" NULL", " NOT NULL"])
+        s += r.pick([" NULL", " NOT NULL", " not null"])
     if r.p(1, 4):
-        s += " " + r.pick(["DEFAULT", "MATERIALIZED", "ALIAS"]) + " " + expr(r, 3, False)
+        s += " " + r.pick(["DEFAULT", "MATERIALIZED", "ALIAS", "default", "materialized"]) + " " + expr(r, 3, False)
         if r.p(1, 12):
             return s + " PRIMARY KEY"
     elif r.p(1, 20):
-        s += " EPHEMERAL" + r.pick(["", "", " 'x'", " 0"])
+        s += " EPHEMERAL" + r.pick(["", "", " 'x'", " 0", " -1", " [1, 2]", " (1 + 1)", " NULL", " (now())"])
     elif r.p(1, 24):
         return s + " PRIMARY KEY"
     if r.p(1, 6):
-        s += " CODEC(" + ", ".join(r.pick(["ZSTD(3)", "LZ4", "Delta", "DoubleDelta", "NONE", "LZ4HC(9)", "T64",
-                                            "Gorilla", "Delta(4)"]) for _ in range(1 + r.below(2))) + ")"
+        s += " CODEC(" + ", ".join(r.pick(CODECS) for _ in range(1 + r.below(2))) + ")"
     if r.p(1, 8):
         s += " TTL " + r.pick(["ts", "d"]) + " + INTERVAL " + str(1 + r.below(9)) + " " + r.pick(["DAY", "MONTH"])
     if r.p(1, 8):
         s += " COMMENT " + string_lit(r)
     if r.p(1, 16):
-        s += " SETTINGS (max_compress_block_size = 1)"
+        s += r.pick([" SETTINGS (max_compress_block_size = 1)", " SETTINGS (min_compress_block_size = 1, max_compress_block_size = 2)"])
     return s
 
 
-def columns_def(r):
+INDEX_TYPES = ["minmax", "set(100)", "bloom_filter(0.01)", "ngrambf_v1(3, 256, 2, 0)", "tokenbf_v1(256, 2, 0)", "bloom_filter", "set(0)",
+               "vector_similarity('hnsw', 'L2Distance', 1)", "text(tokenizer = 'default')", "inverted(2)", "full_text", "hypothesis",
+               "annoy('cosineDistance', 100)", "usearch()", "MinMax", "set(-1)", "bloom_filter(0.1 + 0.1)", "gin(0)"]
+INDEX_EXPRS = ["a", "a + 1", "(a, b)", "lower(name)", "(a)", "toDate(ts)", "a * b + c", "(lower(a), b)", "arr", "m['k']", "cityHash64(a, b)",
+               "`a b`", "tup.1", "x::String", "key"]
+
+
+def index_def(r):
+    return "INDEX " + r.pick(["i", "idx1", "j", "`my idx`", "key", "idx_2"]) + " " + r.pick(INDEX_EXPRS) \
+        + " TYPE " + r.pick(INDEX_TYPES) + r.pick(["", " GRANULARITY 4", " GRANULARITY 1", " GRANULARITY 100000000"])
+
+
+PROJ_BODIES = ["a, count() GROUP BY a", "* ORDER BY a", "sum(b)", "a, b ORDER BY b", "a, sum(b) GROUP BY a",
+               "a, b ORDER BY a, b", "a, b, c ORDER BY (a, b)", "a AS k, b v ORDER BY k", "toDate(ts) AS d, count() GROUP BY d",
+               "a, b GROUP BY a, b ORDER BY a", "count()", "*, a + 1 AS a1 ORDER BY a1", "a, groupArray(b) GROUP BY a", "a ORDER BY -a",
+               "a, b, c GROUP BY (a, b), c", "uniq(x), min(ts), max(ts)", "_part_offset ORDER BY a"]
+
+
+def projection_def(r):
+    return "PROJECTION " + r.pick(["p", "proj", "`my p`", "values"]) + " (" + r.pick(["", "", "WITH 1 AS w ", "WITH 1 AS w, toDate(ts) AS d "]) \
+        + "SELECT " + r.pick(PROJ_BODIES) + ")"
+
+
+def columns_def(r, attach=False):
     items = [column_decl(r) for _ in range(1 + r.below(4))]
     if r.p(1, 5):
         for _ in range(r.pick([1, 1, 1, 2, 3])):
-            items.append("INDEX " + r.pick(["i", "idx1", "j"]) + " " + r.pick(["a", "a + 1", "(a, b)", "lower(name)"])
-                         + " TYPE " + r.pick(["minmax", "set(100)", "bloom_filter(0.01)", "ngrambf_v1(3, 256, 2, 0)",
-                                              "tokenbf_v1(256, 2, 0)", "bloom_filter", "set(0)"]) + r.pick(["", " GRANULARITY 4"]))
-    if r.p(1, 8):
+            items.append(index_def(r))
+    if r.p(1, 8) and not attach:
         for _ in range(r.pick([1, 1, 2])):
-            items.append("CONSTRAINT " + r.pick(["c1", "chk"]) + r.pick([" CHECK ", " ASSUME "]) + expr(r, 3, False))
-    if r.p(1, 8):
+            items.append("CONSTRAINT " + r.pick(["c1", "chk", "`my c`"]) + r.pick([" CHECK ", " ASSUME ", " check "]) + expr(r, 3, False))
+    if r.p(1, 8) and not attach:
         for _ in range(r.pick([1, 1, 2])):
-            items.append("PROJECTION " + r.pick(["p", "proj"]) + " (" + r.pick(["", "", "WITH 1 AS w "]) + "SELECT "
-                         + r.pick(["a, count() GROUP BY a", "* ORDER BY a", "sum(b)", "a, b ORDER BY b", "a, sum(b) GROUP BY a",
-                                   "a, b ORDER BY a, b", "a, b, c ORDER BY (a, b)"]) + ")")
+            items.append(projection_def(r))
     if r.p(1, 12):
-        items.append("PRIMARY KEY " + r.pick(["(a)", "(a, b)", "a", "()", "(a, b, c)"]))
+        items.append("PRIMARY KEY " + r.pick(["(a)", "(a, b)", "a", "()", "(a, b, c)", "(toDate(ts), a)", "a + 1"]))
     return "(" + ", ".join(items) + ")"
 
 
 def ttl_list(r):
     elems = []
     for _ in range(1 + r.below(3)):
-        e = r.pick(["ts", "d", "toDate(ts)"]) + " + INTERVAL " + str(1 + r.below(9)) + " " + r.pick(["DAY", "MONTH", "YEAR"])
-        x = r.below(8)
+        e = r.pick(["ts", "d", "toDate(ts)", "toStartOfDay(ts)"]) + " + INTERVAL " + str(1 + r.below(9)) + " " + r.pick(["DAY", "MONTH", "YEAR", "WEEK"])
+        if r.p(1, 10):
+            e = r.pick(["d + toIntervalMonth(1)", "ts + toIntervalDay(x)", "d", "expire_at", "toDateTime(d) + 3600"])
+        x = r.below(12)
         if x == 0:
             e += " DELETE"
         elif x == 1:
@@ -858,62 +1873,181 @@ def ttl_list(r):
         elif x == 3:
             e += " RECOMPRESS CODEC(" + r.pick(["ZSTD(1)", "LZ4HC(10)", "ZSTD(17), Delta"]) + ")"
         elif x == 4:
-            e += " GROUP BY a SET b = max(b)" + r.pick(["", ", c = any(c)"])
+            e += " GROUP BY a SET b = max(b)" + r.pick(["", ", c = any(c)", ", c = any(c), d = sum(d)"])
         elif x == 5:
             e += " DELETE WHERE " + expr(r, 3, False)
+        elif x == 6:
+            e += " WHERE " + expr(r, 3, False)
+        elif x == 7:
+            e += " GROUP BY a, b SET c = sum(c)"
+        elif x == 8:
+            e += r.pick([" TO DISK 'it\\'s'", " TO VOLUME 'tab\\t'", " TO DISK ''"])
         elems.append(e)
     return ", ".join(elems)
 
 
+ENGINES = ["Memory", "MergeTree", "MergeTree()", "ReplacingMergeTree(ver)", "SummingMergeTree",
+           "ReplicatedMergeTree('/p/{shard}', '{replica}')", "Log", "TinyLog", "Null",
+           "Distributed(c, db, t, rand())", "AggregatingMergeTree", "CollapsingMergeTree(sign)",
+           "Buffer(db, t, 16, 10, 100, 10000, 1000000, 10000000, 100000000)", "Kafka", "File(CSV)",
+           "URL('http://h/x', CSV)", "Merge(db, '^t')", "Join(ANY, LEFT, a)", "Set", "EmbeddedRocksDB",
+           # engines WITH parameters of every expression kind
+           "SummingMergeTree(v)", "SummingMergeTree((a, b))", "ReplacingMergeTree(ver, is_deleted)", "VersionedCollapsingMergeTree(sign, ver)",
+           "GraphiteMergeTree('graphite_rollup')", "ReplicatedReplacingMergeTree('/clickhouse/tables/{shard}/t', '{replica}', ver)",
+           "Distributed('c', currentDatabase(), t, sipHash64(x))", "Distributed(c, '', t)", "Dictionary(db.d)", "Dictionary('d')",
+           "MySQL('h:3306', 'd', 't', 'u', 'p')", "PostgreSQL('h:5432', 'd', 't', 'u', 'p', 's')", "S3('http://b/k', 'CSV')",
+           "S3('http://b/k', 'key', 'secret', 'Parquet', 'gzip')", "Kafka('h:9092', 't', 'g', 'JSONEachRow')", "RabbitMQ", "StripeLog",
+           "MaterializedPostgreSQL('h', 'd', 't', 'u', 'p')", "Join(ALL, INNER, a, b)", "Buffer('', t, 1, 1, 1, 1, 1, 1, 1)",
+           "GenerateRandom(1, 2, 3)", "KeeperMap('/path')", "TimeSeries", "MergeTree ()", "Memory()", "SharedMergeTree",
+           "Merge(REGEXP('^db'), '^t')", "Executable('s.py', TabSeparated)", "SQLite('f.db', 't')", "Hive('thrift://h', 'd', 't')",
+           "ReplacingMergeTree(-ver)", "CoalescingMergeTree", "View", "Iceberg('http://b/k')", "AzureQueue('c', 'cont', 'CSV')",
+           "MongoDB('h:27017', 'd', 'c', 'u', 'p')", "Redis('h:6379', 0, 'p')", "ExternalDistributed('MySQL', 'h1|h2', 'd', 't', 'u', 'p')"]
+ORDER_KEYS = ["a", "(a, b)", "tuple()", "(a, toDate(ts), b)", "id", "a", "(a, b)", "()", "a DESC",
+              "(a, b DESC)", "(a DESC, b DESC)", "a ASC", "toDate(ts)", "(a)",
+              "(a, b ASC)", "a % 10", "(toDate(ts), cityHash64(id))", "`a b`", "(key, value)", "a.b", "n.a[1]",
+              "(a ASC, b)", "-a", "(a, (b, c))", "xxHash32(a)", "(a || 'x')", "tuple(a, b)", "(a + 1)", "(a DESC)"]
+
+
 def engine_clause(r, full=True):
-    e = r.pick(["Memory", "MergeTree", "MergeTree()", "ReplacingMergeTree(ver)", "SummingMergeTree",
-                "ReplicatedMergeTree('/p/{shard}', '{replica}')", "Log", "TinyLog", "Null",
-                "Distributed(c, db, t, rand())", "AggregatingMergeTree", "CollapsingMergeTree(sign)",
-                "Buffer(db, t, 16, 10, 100, 10000, 1000000, 10000000, 100000000)", "Kafka", "File(CSV)",
-                "URL('http://h/x', CSV)", "Merge(db, '^t')", "Join(ANY, LEFT, a)", "Set", "EmbeddedRocksDB"])
-    s = "ENGINE = " + e
+    e = r.pick(ENGINES)
+    s = r.pick(["ENGINE = ", "ENGINE = ", "ENGINE ", "ENGINE=", "engine = "]) + e
     if "MergeTree" in e and full:
+        parts = []
         if r.p(1, 3):
-            s += " PARTITION BY " + r.pick(["toYYYYMM(ts)", "a", "(a, toDate(ts))", "tuple()"])
-        s += " ORDER BY " + r.pick(["a", "(a, b)", "tuple()", "(a, toDate(ts), b)", "id", "a", "(a, b)", "()", "a DESC",
-                                    "(a, b DESC)", "(a DESC, b DESC)", "a ASC", "toDate(ts)", "(a)"])
+            parts.append("PARTITION BY " + r.pick(["toYYYYMM(ts)", "a", "(a, toDate(ts))", "tuple()", "a % 10", "(toMonday(d), a)", "()", "ignore(a)"]))
+        parts.append("ORDER BY " + r.pick(ORDER_KEYS))
         if r.p(1, 5):
-            s += " PRIMARY KEY " + r.pick(["a", "(a)", "id", "(a, b)", "()", "tuple()", "toDate(ts)"])
+            parts.append("PRIMARY KEY " + r.pick(["a", "(a)", "id", "(a, b)", "()", "tuple()", "toDate(ts)", "(a + 1)", "a % 10"]))
         if r.p(1, 8):
-            s += " SAMPLE BY " + r.pick(["a", "intHash32(id)"])
+            parts.append("SAMPLE BY " + r.pick(["a", "intHash32(id)", "(a)", "cityHash64(id) % 100"]))
         if r.p(1, 5):
-            s += " TTL " + ttl_list(r)
+            parts.append("TTL " + ttl_list(r))
         if r.p(1, 4):
-            s += " SETTINGS index_granularity = " + r.pick(["8192", "1024"]) + r.pick(["", ", min_bytes_for_wide_part = 0"])
+            parts.append("SETTINGS index_granularity = " + r.pick(["8192", "1024"]) + r.pick(["", ", min_bytes_for_wide_part = 0",
+                                                                                             ", storage_policy = 'hot_cold', allow_nullable_key = 1"]))
+        if r.p(1, 6):
+            # the options may come in any order
+            head, tail = parts[:1], parts[1:]
+            k = r.below(len(parts))
+            parts = parts[k:] + parts[:k]
+        s += " " + " ".join(parts)
     elif e == "Kafka":
         s += " SETTINGS kafka_broker_list = 'h:9092', kafka_topic_list = 't', kafka_format = 'JSONEachRow'"
+    elif e == "RabbitMQ":
+        s += " SETTINGS rabbitmq_host_port = 'h:5672', rabbitmq_exchange_name = 'e', rabbitmq_format = 'JSONEachRow'"
+    elif e == "EmbeddedRocksDB" and r.p(1, 2):
+        s += " PRIMARY KEY " + r.pick(["a", "(a)", "key"])
     return s
 
 
+def dict_def(r):
+    attrs = [r.pick(["id UInt64", "key String", "k1 UInt64", "`a b` UInt64"])] + [
+        r.pick(["v String DEFAULT ''", "w UInt8 EXPRESSION toUInt8(1)", "p UInt64 HIERARCHICAL",
+                "q UInt8 DEFAULT 0 INJECTIVE", "n Nullable(String) DEFAULT NULL",
+                "o UInt8 IS_OBJECT_ID", "d Date DEFAULT toDate('2020-01-01')", "arr Array(String) DEFAULT []", "f Float64 DEFAULT -1.5",
+                "t Tuple(a UInt8, b String) DEFAULT (0, '')", "s String DEFAULT 'it\\'s' EXPRESSION lower(s)", "x UInt8 DEFAULT 1 + 1",
+                "h UInt64 DEFAULT 0 HIERARCHICAL INJECTIVE", "e Enum8('a' = 1, 'b' = 2) DEFAULT 'a'", "dt DateTime64(3, 'UTC') DEFAULT now64()",
+                "u UUID DEFAULT '00000000-0000-0000-0000-000000000000'", "m Map(String, UInt8)", "lc LowCardinality(String) DEFAULT 'x'",
+                "neg Int64 DEFAULT -9223372036854775808", "big UInt64 DEFAULT 18446744073709551615", "z", "b Bool DEFAULT true",
+                "`ключ` String DEFAULT 'ü'", "dec Decimal(9, 2) DEFAULT 0", "par UInt64 DEFAULT 0 HIERARCHICAL BIDIRECTIONAL",
+                "w2 String EXPRESSION concat(v, 'x') INJECTIVE", "nn String DEFAULT '' IS_OBJECT_ID"]) for _ in range(r.below(4))]
+    s = " (" + ", ".join(attrs) + ")"
+    clauses = []
+    clauses.append("PRIMARY KEY " + r.pick(["id", "id, v", "(id)", "(id, v)", "key", "k1, k2, k3", "`a b`", "(toUInt64(id))"]))
+    clauses.append("SOURCE(" + r.pick([
+        "CLICKHOUSE(TABLE 't' DB 'db')", "HTTP(URL 'http://x' FORMAT 'TSV')", "NULL()",
+        "FILE(PATH '/f.tsv' FORMAT 'TabSeparated')", "MYSQL(PORT 3306 USER 'u' PASSWORD 'p' DB 'd' TABLE 't')",
+        "CLICKHOUSE(QUERY 'SELECT 1')", "EXECUTABLE(COMMAND 'cat' FORMAT 'TSV')",
+        "CLICKHOUSE(HOST 'localhost' PORT tcpPort() USER 'default' PASSWORD '' DB currentDatabase() TABLE 't')",
+        "CLICKHOUSE(HOST 'h' PORT 9000 SECURE 1 TABLE 't' WHERE 'id > 10' INVALIDATE_QUERY 'SELECT max(ts) FROM t')",
+        "EXECUTABLE(COMMAND 'c' FORMAT TSV IMPLICIT_KEY true)", "EXECUTABLE_POOL(COMMAND 'c' FORMAT 'TSV' POOL_SIZE 4 SEND_CHUNK_HEADER false)",
+        "HTTP(URL 'http://x' FORMAT 'JSONEachRow')",
+        "POSTGRESQL(PORT 5432 HOST 'h' USER 'u' PASSWORD 'p' DB 'd' TABLE 't' SCHEMA 's')",
+        "MONGODB(HOST 'h' PORT 27017 USER '' PASSWORD '' DB 'd' COLLECTION 'c')", "REDIS(HOST 'h' PORT 6379 STORAGE_TYPE 'simple' DB_INDEX 0)",
+        "CLICKHOUSE(TABLE t DB db)", "CLICKHOUSE(QUERY 'SELECT \\'it\\\\\\'s\\'')", "ODBC(DB 'd' TABLE 't' CONNECTION_STRING 'DSN=x')",
+        "CLICKHOUSE(NAME named_coll)", "CLICKHOUSE(TABLE 't' UPDATE_FIELD ts UPDATE_LAG 15)", "YAMLRegExpTree(PATH '/r.yaml')",
+        "CLICKHOUSE(TABLE 't' PORT -1)", "FILE(PATH './f' FORMAT CSV)", "CLICKHOUSE(TABLE 't' DB 'd' QUERY $$SELECT 1$$)",
+        "NULL", "CLICKHOUSE()", "CASSANDRA(HOST 'h' PORT 9042 KEYSPACE 'k' COLUMN_FAMILY 'c' ALLOW_FILTERING 1)"]) + ")")
+    clauses.append("LAYOUT(" + r.pick([
+        "FLAT()", "HASHED()", "COMPLEX_KEY_HASHED(SHARDS 4)", "RANGE_HASHED()",
+        "CACHE(SIZE_IN_CELLS 1000)", "DIRECT()", "IP_TRIE", "HASHED_ARRAY()",
+        "SPARSE_HASHED()", "FLAT(INITIAL_ARRAY_SIZE 10 MAX_ARRAY_SIZE 100)",
+        "COMPLEX_KEY_CACHE(SIZE_IN_CELLS 10)", "SSD_CACHE(BLOCK_SIZE 4096 FILE_SIZE 16777216 PATH '/ssd' READ_BUFFER_SIZE 1048576)",
+        "RANGE_HASHED(RANGE_LOOKUP_STRATEGY 'max')", "HASHED(SHARDS 16 SHARD_LOAD_QUEUE_BACKLOG 10000 MAX_LOAD_FACTOR 0.5)",
+        "COMPLEX_KEY_DIRECT()", "IP_TRIE(ACCESS_TO_KEY_FROM_ATTRIBUTES true)", "POLYGON(STORE_POLYGON_KEY_COLUMN 1)", "REGEXP_TREE",
+        "COMPLEX_KEY_RANGE_HASHED()", "HASHED", "flat()", "COMPLEX_KEY_SPARSE_HASHED(SHARDS 2)", "CACHE(SIZE_IN_CELLS 1 + 1)"]) + ")")
+    clauses.append("LIFETIME(" + r.pick(["0", "300", "MIN 0 MAX 10", "MIN 300 MAX 360", "MAX 10 MIN 0", "MAX 100", "MIN 5", "1 + 1", ""]) + ")")
+    if r.p(1, 5):
+        clauses.append("RANGE(" + r.pick(["MIN a MAX b", "MIN start_date MAX end_date", "MAX b MIN a", "MIN a", "MIN toDate(a) MAX b"]) + ")")
+    if r.p(1, 6):
+        clauses.append(r.pick(["SETTINGS(format_csv_allow_single_quotes = 0)", "SETTINGS(max_threads = 1, max_block_size = 10)",
+                               "SETTINGS (dictionary_use_async_executor = 1)"]))
+    if r.p(1, 6):
+        clauses.append("COMMENT " + string_lit(r))
+    if r.p(1, 5):
+        head, rest = clauses[:1], clauses[1:]
+        k = r.below(len(rest))
+        clauses = head + rest[k:] + rest[:k]
+    if r.p(1, 12):
+        clauses = clauses[1:]                 # no PRIMARY KEY
+    if r.p(1, 12) and not any(c.startswith("SETTINGS") for c in clauses):
+        clauses.append("SETTINGS format_csv_allow_single_quotes = 0, max_threads = 1")     # without parentheses: last
+    return s + " " + " ".join(clauses)
+
+
+USERS = ["u", "u1, u2", "'user@host'", "`my user`", "u@'%'", "u@localhost", "'u'@'192.168.%'", "u@'h', u2", "\"q\"", "`it's`"]
+AUTH = ["", " NOT IDENTIFIED", " IDENTIFIED BY 'p'", " IDENTIFIED WITH sha256_password BY 'p'",
+        " IDENTIFIED WITH plaintext_password BY 'p'", " IDENTIFIED WITH no_password",
+        " IDENTIFIED WITH double_sha1_hash BY 'abcd'", " IDENTIFIED WITH ssh_key BY KEY 'k' TYPE 'ssh-rsa'",
+        " IDENTIFIED WITH bcrypt_password BY 'p'", " IDENTIFIED WITH ldap SERVER 's'",
+        " IDENTIFIED WITH kerberos REALM 'r'",
+        " IDENTIFIED WITH ssh_key BY KEY 'k1' TYPE 'ssh-rsa', KEY 'k2' TYPE 'ssh-ed25519'",
+        " IDENTIFIED WITH plaintext_password BY 'a', bcrypt_password BY 'b'",
+        " IDENTIFIED WITH sha256_hash BY 'abc' SALT 'def'", " IDENTIFIED WITH kerberos", " IDENTIFIED WITH ssl_certificate CN 'a', 'b'",
+        " IDENTIFIED WITH http SERVER 's' SCHEME 'Basic'", " IDENTIFIED BY 'it\\'s'", " IDENTIFIED WITH sha256_password BY 'p' VALID UNTIL '2030-01-01'",
+        " IDENTIFIED WITH jwt", " IDENTIFIED BY 'a', BY 'b'", " IDENTIFIED WITH scram_sha256_password BY 'p'", " identified by 'p'",
+        " IDENTIFIED WITH ldap SERVER 's', kerberos REALM 'r'"]
+
+
 def gen_create(r):
-    x = r.below(40)
-    ine = r.pick(["", "", "IF NOT EXISTS "])
-    oc = r.pick(["", "", "", " ON CLUSTER c", " ON CLUSTER test_cluster"])
-    tname = r.pick(["t", "db.t", "`my table`", "t_new"])
+    x = r.below(48)
+    ine = r.pick(["", "", "IF NOT EXISTS ", "if not exists "])
+    oc = r.pick(["", "", "", " ON CLUSTER c", " ON CLUSTER test_cluster", " ON CLUSTER '{cluster}'", " ON CLUSTER `my cluster`", " on cluster c"])
+    tname = r.pick(["t", "db.t", "`my table`", "t_new", "{db:Identifier}.t", "`my db`.`my t`", "\"t\"", "db.`1t`", "key", "default.`таблица`"])
     if x < 12:
         head = r.pick(["CREATE TABLE ", "CREATE TABLE ", "CREATE OR REPLACE TABLE ", "CREATE TEMPORARY TABLE ",
-                       "ATTACH TABLE ", "REPLACE TABLE "])
-        if head.startswith(("CREATE OR", "REPLACE")):
+                       "ATTACH TABLE ", "REPLACE TABLE ", "create table ", "CREATE OR REPLACE TEMPORARY TABLE "])
+        attach = head.startswith("ATTACH")
+        if head.upper().startswith(("CREATE OR", "REPLACE")):
             ine = ""
-        if head.startswith("ATTACH"):
-            oc = ""
+        if attach:
+            return gen_attach(r)
         s = head + ine + tname + oc
         if r.p(1, 12):
             s += " UUID '00000000-0000-0000-0000-000000000001'"
-        y = r.below(10)
-        if head.startswith("ATTACH") and y < 3:
-            y = 5
+        y = r.below(12)
         if y == 0:
-            return s + " AS " + r.pick(["t2", "db.t2"]) + r.pick(["", " " + engine_clause(r)])
+            return s + " AS " + r.pick(["t2", "db.t2", "`my table`", "db.`t 2`"]) + r.pick(["", " " + engine_clause(r)])
         if y == 1:
-            return s + " AS " + r.pick(["numbers(10)", "remote('h', db.t)", "file('a.csv')"])
+            return s + " AS " + r.pick(["numbers(10)", "remote('h', db.t)", "file('a.csv')", "s3('http://b/k', 'CSV', 'a UInt8')", "mysql('h', 'd', 't', 'u', 'p')",
+                                         "url('http://h/x', CSV, 'a UInt8, b String')", "generateRandom()", "values('a UInt8', 1)", "merge(db, '^t')"])
         if y == 2:
             return s + " " + engine_clause(r) + " AS " + select_with_union(r, 1, simple=True)
+        if y == 10:
+            return head + ine + tname + oc + " CLONE AS " + r.pick(["t2", "src", "`my src`"]) + r.pick(["", " " + engine_clause(r)])
+        if y == 11:
+            opt = r.pick([" AS SELECT 1", " AS SELECT * FROM t2", " ENGINE = Memory AS (SELECT 1) UNION ALL (SELECT 2)", " AS (SELECT 1)",
+                               " ENGINE = Memory AS WITH 1 AS x SELECT x", " ENGINE = Log AS SELECT 1 INTERSECT SELECT 1",
+                               " (a UInt8, b UInt8, c UInt8) ENGINE = MergeTree ORDER BY (a + b) * c", " (a UInt8) ENGINE = MergeTree ORDER BY (a) + 1",
+                               " (a UInt8, b UInt8) ENGINE = MergeTree ORDER BY (a + b) % 10 PRIMARY KEY a",
+                               " (a UInt8, b UInt8) ENGINE = MergeTree ORDER BY (a * 2) + (b * 3) SETTINGS index_granularity = 1",
+                               " (a UInt8 PRIMARY KEY)", " (a UInt8, PRIMARY KEY (a))", " (a UInt8, b String, PRIMARY KEY (a, b))", " (a UInt8) ORDER BY a", " (a UInt8) PRIMARY KEY a",
+                               " (a UInt8)", " (a UInt8, PRIMARY KEY ())", " (a UInt8) ORDER BY () SETTINGS index_granularity = 1", " (a UInt8) COMMENT 'no engine'",
+                               " (a UInt8) PARTITION BY a ORDER BY a", " (a UInt8) ENGINE = Memory FORMAT Null", " (a UInt8) ENGINE = MergeTree ORDER BY a FORMAT JSON",
+                               " AS t2 FORMAT Null", " (a UInt8) TTL d + INTERVAL 1 DAY", " (a UInt8) SAMPLE BY a ORDER BY a"])
+            if " FORMAT " in opt and not head.upper().startswith("CREATE"):
+                opt = opt.split(" FORMAT ")[0]                 # (REPLACE TABLE ... FORMAT is not taken by the parser)
+            return s + opt
         s += " " + columns_def(r) + " " + engine_clause(r)
         if y == 3:
             s += " AS " + select_core(r, 1, simple=True) + r.pick(["", "", "", " FORMAT Null"])
@@ -924,106 +2058,190 @@ def gen_create(r):
             s += " AS SELECT 1 SETTINGS max_threads = 1"
         return s
     if x < 17:
-        s = r.pick(["CREATE VIEW ", "CREATE OR REPLACE VIEW ", "CREATE VIEW IF NOT EXISTS "]) + r.pick(["v", "db.v"]) + oc
+        s = r.pick(["CREATE VIEW ", "CREATE OR REPLACE VIEW ", "CREATE VIEW IF NOT EXISTS ", "create view "]) + r.pick(["v", "db.v", "`my view`"]) + oc
         if r.p(1, 6):
-            s += " (a UInt8, b String)"
+            s += r.pick([" (a UInt8, b String)", " (a Nullable(UInt8) COMMENT 'c')", " (`a b` Tuple(x UInt8))"])
+        elif r.p(1, 8) and not oc:
+            s += " (a UInt8, b String)" + r.pick([" ON CLUSTER c", " ON CLUSTER '{cluster}'"])          # ON CLUSTER after the column list
         body = r.pick([lambda: select_core(r, 1), lambda: select_with_union(r, 1, simple=True),
-                       lambda: "(" + select_core(r, 1, True) + ")", lambda: gen_setop(Rng(r.next()))])()
+                       lambda: "(" + select_core(r, 1, True) + ")", lambda: gen_setop(Rng(r.next())),
+                       lambda: select_core(r, 1, simple=True) + r.pick([" FORMAT Null", " FORMAT TSV", " format JSON"])])()
         return s + " AS " + body
     if x < 22:
-        s = "CREATE MATERIALIZED VIEW " + ine + r.pick(["mv", "db.mv"]) + oc
-        y = r.below(8)
+        s = r.pick(["CREATE MATERIALIZED VIEW ", "CREATE MATERIALIZED VIEW ", "create materialized view "]) + ine + r.pick(["mv", "db.mv", "`my mv`"])
+        if r.p(1, 10):
+            s += " UUID '00000000-0000-0000-0000-00000000000a'"
+        s += oc
+        y = r.below(12)
         if y == 0:
-            s += " REFRESH " + r.pick(["EVERY 1 HOUR", "AFTER 10 MINUTE", "EVERY 30 MINUTE"]) \
-                 + r.pick(["", " APPEND"]) + " TO dst"
-        elif y < 4:
-            s += " TO " + r.pick(["dst", "db.dst"]) + r.pick(["", " (a UInt8, b String)"])
-        elif y == 4:
+            s += " REFRESH " + r.pick(["EVERY 1 HOUR", "AFTER 10 MINUTE", "EVERY 30 MINUTE", "EVERY 1 DAY", "AFTER 5 SECOND", "EVERY 2 WEEK", "every 1 month"]) \
+                 + " TO " + r.pick(["dst", "db.dst"]) + r.pick(["", "", " (a UInt8, b String)"])
+        elif y == 1:
+            s += " REFRESH " + r.pick(["EVERY 1 HOUR", "AFTER 1 YEAR"]) + " APPEND TO " + r.pick(["dst", "db.dst"]) + r.pick(["", " (a UInt8)"]) + r.pick(["", " EMPTY"])
+        elif y < 5:
+            s += " TO " + r.pick(["dst", "db.dst", "`my dst`", "{db:Identifier}.dst"]) + r.pick(["", " (a UInt8, b String)", " (`k` String, v AggregateFunction(sum, UInt64))"])
+        elif y == 5:
             s += r.pick(["", " REFRESH EVERY 1 HOUR"]) + " (a UInt8, b String) " + engine_clause(r) + r.pick(["", " COMMENT 'c'"])
+        elif y == 6:
+            # column lists of materialized views may carry indexes, projections and a primary key
+            s += " (a UInt8, b String, " + r.pick([index_def(r), projection_def(r), "PRIMARY KEY a", index_def(r) + ", PRIMARY KEY (a)"]) + ") " \
+                + r.pick([engine_clause(r), engine_clause(r), "TO dst", "TO db.dst"])
         else:
-            s += " " + engine_clause(r) + r.pick(["", " POPULATE"])
-        return s + " AS " + select_core(r, 1, simple=not r.p(1, 3), force_from=True)
+            s += " " + engine_clause(r) + r.pick(["", " POPULATE", " populate"])
+        return s + " AS " + select_core(r, 1, simple=not r.p(1, 3), force_from=True) + (r.pick([" FORMAT Null", " FORMAT TSV"]) if r.p(1, 12) else "")
     if x < 24:
-        return "CREATE WINDOW VIEW " + ine + "wv" \
+        return "CREATE WINDOW VIEW " + ine + r.pick(["wv", "db.wv"]) \
                + r.pick([" TO dst", " TO dst", " INNER ENGINE Memory", " INNER ENGINE MergeTree ORDER BY a",
                          " INNER ENGINE MergeTree ORDER BY (a, b)", " INNER ENGINE MergeTree() ORDER BY toDate(ts)",
-                         " TO dst INNER ENGINE Memory", " ENGINE = Memory", " INNER ENGINE AggregatingMergeTree ORDER BY tuple()"]) \
+                         " TO dst INNER ENGINE Memory", " ENGINE = Memory", " INNER ENGINE AggregatingMergeTree ORDER BY tuple()",
+                         " INNER ENGINE = ReplacingMergeTree(v) ORDER BY k", " INNER ENGINE SummingMergeTree((a, b)) PARTITION BY p ORDER BY (k, w)",
+                         " TO db.dst (a UInt8)", " INNER ENGINE = Memory ENGINE = Memory", " INNER ENGINE Distributed(c, db, t, rand()) ENGINE = Null",
+                         " INNER ENGINE MergeTree PRIMARY KEY a ORDER BY (a, b) SETTINGS index_granularity = 1"]) \
                + " AS SELECT count() FROM t GROUP BY " \
-               + r.pick(["tumble", "hop"]) + "(ts, INTERVAL 1 MINUTE" + r.pick(["", ", INTERVAL 5 MINUTE"]) + ")"
+               + r.pick(["tumble", "hop"]) + "(ts, INTERVAL 1 MINUTE" + r.pick(["", ", INTERVAL 5 MINUTE", ", 'UTC'"]) + ")" + r.pick(["", "", "", " FORMAT Null"])
     if x < 27:
-        s = "CREATE DATABASE " + ine + r.pick(["db", "`my db`", "d2"])
-        y = r.below(5)
+        s = r.pick(["CREATE DATABASE ", "CREATE DATABASE ", "create database "]) + ine + r.pick(["db", "`my db`", "d2", "{db:Identifier}", "\"q\"", "`db-1`"])
+        y = r.below(8)
         if y == 0:
             s += oc
         elif y == 1:
             s += " ENGINE = " + r.pick(["Atomic", "Memory", "Lazy(10)", "Replicated('/p', 's', 'r')",
-                                         "MySQL('h:3306', 'd', 'u', 'p')", "Ordinary"])
+                                         "MySQL('h:3306', 'd', 'u', 'p')", "Ordinary", "PostgreSQL('h:5432', 'd', 'u', 'p', 's', 1)", "SQLite('f.db')",
+                                         "MaterializedPostgreSQL('h', 'd', 'u', 'p')", "Replicated('/clickhouse/{uuid}', '{shard}', '{replica}')",
+                                         "Filesystem('/path')", "S3('http://b', 'k', 's')", "Atomic()", "Backup('db', Disk('d', 'b.zip'))", "DataLakeCatalog('http://c')"])
         elif y == 2:
-            s += " ENGINE = Atomic"
+            s += oc + " ENGINE = Atomic"
+        elif y == 3:
+            s += " ENGINE = Replicated('/p', 's', 'r') SETTINGS max_broken_tables_ratio = 1, collection_name = 'x'"
+        elif y == 4:
+            s += " ENGINE = " + r.pick(["Atomic", "Memory"]) + " ORDER BY " + r.pick(["a", "tuple()", "(a, b)"]) + r.pick(["", " SETTINGS a = 1"])
+        elif y == 5:
+            s += r.pick([" SETTINGS distributed_ddl_task_timeout = 1", " ENGINE = MySQL('h', 'd', 'u', 'p') SETTINGS read_write_timeout = 10, connect_timeout = 1"])
+        elif y == 6:
+            s += r.pick([" FORMAT Null", " ENGINE = Atomic FORMAT Null", oc + " FORMAT JSON"])
         return s
     if x < 29:
-        return r.pick(["CREATE FUNCTION ", "CREATE OR REPLACE FUNCTION ", "CREATE FUNCTION IF NOT EXISTS "]) \
-            + r.pick(["f", "my_func"]) + oc + " AS " + r.pick(["x -> ", "(x, y) -> ", "() -> ", "(x) -> "]) + expr(r, 2, False)
+        return r.pick(["CREATE FUNCTION ", "CREATE OR REPLACE FUNCTION ", "CREATE FUNCTION IF NOT EXISTS ", "create function "]) \
+            + r.pick(["f", "my_func", "`my f`", "linear_equation"]) + oc + " AS " \
+            + r.pick(["x -> ", "(x, y) -> ", "() -> ", "(x) -> ", "(a, b, c) -> ", "x -> y -> ", "(x, y) -> z -> "]) + expr(r, 2, False)
     if x < 32:
-        s = "CREATE USER " + ine + r.pick(["u", "u1, u2", "'user@host'", "`my user`"]) + oc
-        s += r.pick(["", " NOT IDENTIFIED", " IDENTIFIED BY 'p'", " IDENTIFIED WITH sha256_password BY 'p'",
-                     " IDENTIFIED WITH plaintext_password BY 'p'", " IDENTIFIED WITH no_password",
-                     " IDENTIFIED WITH double_sha1_hash BY 'abcd'", " IDENTIFIED WITH ssh_key BY KEY 'k' TYPE 'ssh-rsa'",
-                     " IDENTIFIED WITH bcrypt_password BY 'p'", " IDENTIFIED WITH ldap SERVER 's'",
-                     " IDENTIFIED WITH kerberos REALM 'r'",
-                     " IDENTIFIED WITH ssh_key BY KEY 'k1' TYPE 'ssh-rsa', KEY 'k2' TYPE 'ssh-ed25519'",
-                     " IDENTIFIED WITH plaintext_password BY 'a', bcrypt_password BY 'b'"])
-        s += r.pick(["", " HOST LOCAL", " HOST IP '127.0.0.1'", " HOST ANY", " HOST NAME 'h'", " HOST LIKE '%.x'"])
-        s += r.pick(["", " VALID UNTIL '2030-01-01'"])
-        s += r.pick(["", " DEFAULT ROLE r", " DEFAULT ROLE ALL", " DEFAULT ROLE r1, r2"])
-        s += r.pick(["", " DEFAULT DATABASE db"])
-        s += r.pick(["", " GRANTEES ANY EXCEPT u2", " GRANTEES NONE"])
-        s += r.pick(["", " SETTINGS max_memory_usage = 1", " SETTINGS PROFILE 'p'"])
+        s = r.pick(["CREATE USER ", "CREATE USER ", "CREATE OR REPLACE USER ", "create user "]) + ine + r.pick(USERS) + oc
+        s += r.pick(AUTH)
+        s += r.pick(["", " HOST LOCAL", " HOST IP '127.0.0.1'", " HOST ANY", " HOST NAME 'h'", " HOST LIKE '%.x'", " HOST REGEXP '.*\\\\.x'",
+                     " HOST IP '10.0.0.0/8', '::1'", " HOST NONE", " HOST NAME 'a', LOCAL"])
+        s += r.pick(["", " VALID UNTIL '2030-01-01'", " VALID UNTIL 'infinity'"])
+        s += r.pick(["", " DEFAULT ROLE r", " DEFAULT ROLE ALL", " DEFAULT ROLE r1, r2", " DEFAULT ROLE ALL EXCEPT r", " DEFAULT ROLE NONE"])
+        s += r.pick(["", " DEFAULT DATABASE db", " DEFAULT DATABASE NONE"])
+        s += r.pick(["", " GRANTEES ANY EXCEPT u2", " GRANTEES NONE", " GRANTEES u1, r1 EXCEPT u2"])
+        s += r.pick(["", " SETTINGS max_memory_usage = 1", " SETTINGS PROFILE 'p'", " SETTINGS max_threads = 4 MIN 1 MAX 8 READONLY, PROFILE 'p'",
+                     " SETTINGS a = 1 CONST", " IN local_directory", " SETTINGS readonly = 1 CHANGEABLE_IN_READONLY"])
         return s
     if x < 34:
-        return "CREATE ROLE " + ine + r.pick(["r", "r1, r2"]) + oc + r.pick(["", " SETTINGS max_threads = 1"])
+        return r.pick(["CREATE ROLE ", "CREATE OR REPLACE ROLE ", "create role "]) + ine + r.pick(["r", "r1, r2", "`my role`", "'r'"]) + oc \
+            + r.pick(["", " SETTINGS max_threads = 1", " SETTINGS PROFILE 'p'", " IN memory", " SETTINGS a = 1 MIN 0 MAX 2 WRITABLE"])
     if x == 34:
-        return r.pick(["CREATE ROW POLICY ", "CREATE POLICY "]) + ine + "p ON " + r.pick(["t", "db.t", "db.*"]) \
-            + r.pick(["", " FOR SELECT"]) + r.pick(["", " AS RESTRICTIVE", " AS PERMISSIVE"]) \
-            + " USING " + expr(r, 3, False) + r.pick(["", " TO r", " TO ALL", " TO ALL EXCEPT u"])
+        return r.pick(["CREATE ROW POLICY ", "CREATE POLICY ", "CREATE OR REPLACE ROW POLICY ", "create row policy "]) + ine \
+            + r.pick(["p ON ", "p1, p2 ON ", "`my p` ON ", "p ON db.t1, p2 ON "]) + r.pick(["t", "db.t", "db.*", "`my table`", "*"]) \
+            + oc + r.pick(["", " FOR SELECT", " FOR ALL"]) + r.pick(["", " AS RESTRICTIVE", " AS PERMISSIVE", " AS restrictive"]) \
+            + " USING " + expr(r, 3, False) + r.pick(["", " TO r", " TO ALL", " TO ALL EXCEPT u", " TO u1, r1", " TO CURRENT_USER", " TO NONE"])
     if x == 35:
-        return "CREATE QUOTA " + ine + "q" + r.pick(["", " KEYED BY user_name", " KEYED BY ip_address"]) \
-            + " FOR " + r.pick(["", "RANDOMIZED "]) + "INTERVAL 1 " + r.pick(["HOUR", "DAY"]) + " MAX " \
-            + r.pick(["queries = 10", "errors = 1, result_rows = 2", "execution_time = 5"]) + r.pick(["", " TO r", " TO ALL"])
+        return r.pick(["CREATE QUOTA ", "CREATE OR REPLACE QUOTA ", "create quota "]) + ine + r.pick(["q", "`my q`", "q1, q2"]) + oc \
+            + r.pick(["", " KEYED BY user_name", " KEYED BY ip_address", " NOT KEYED", " KEYED BY client_key, user_name"]) \
+            + " FOR " + r.pick(["", "RANDOMIZED "]) + "INTERVAL " + r.pick(["1 HOUR", "1 DAY", "30 MINUTE", "1 MONTH"]) + r.pick([" MAX ", " MAX ", " NO LIMITS", " TRACKING ONLY"]).rstrip() \
+            + r.pick([" queries = 10", " errors = 1, result_rows = 2", " execution_time = 5", " query_selects = 1, query_inserts = 2, read_bytes = 3"]) \
+            + r.pick(["", " TO r", " TO ALL", ", FOR INTERVAL 1 DAY MAX queries = 100 TO ALL EXCEPT u"]) if r.p(9, 10) else \
+            "CREATE QUOTA " + ine + "q FOR INTERVAL 1 HOUR NO LIMITS"
     if x == 36:
-        return r.pick(["CREATE SETTINGS PROFILE ", "CREATE PROFILE "]) + ine + "p SETTINGS " \
+        return r.pick(["CREATE SETTINGS PROFILE ", "CREATE PROFILE ", "CREATE OR REPLACE SETTINGS PROFILE ", "create settings profile "]) + ine \
+            + r.pick(["p", "p1, p2", "p1, p2, p3", "`my p`", "'p'"]) + oc + " SETTINGS " \
             + r.pick(["max_threads = 1", "a = 1 MIN 0 MAX 2 READONLY", "INHERIT 'default'",
-                      "max_memory_usage = 100 WRITABLE, INHERIT 'default'"]) + r.pick(["", " TO r"])
-    if x == 37:
-        s = r.pick(["CREATE DICTIONARY ", "CREATE OR REPLACE DICTIONARY ", "CREATE DICTIONARY IF NOT EXISTS "]) \
-            + r.pick(["d", "db.d"]) + oc
-        attrs = ["id UInt64"] + [r.pick(["v String DEFAULT ''", "w UInt8 EXPRESSION toUInt8(1)", "p UInt64 HIERARCHICAL",
-                                         "q UInt8 DEFAULT 0 INJECTIVE", "n Nullable(String) DEFAULT NULL",
-                                         "o UInt8 IS_OBJECT_ID"]) for _ in range(r.below(4))]
-        s += " (" + ", ".join(attrs) + ") PRIMARY KEY " + r.pick(["id", "id, v", "(id)"])
-        s += " SOURCE(" + r.pick(["CLICKHOUSE(TABLE 't' DB 'db')", "HTTP(URL 'http://x' FORMAT 'TSV')", "NULL()",
-                                   "FILE(PATH '/f.tsv' FORMAT 'TabSeparated')", "MYSQL(PORT 3306 USER 'u' PASSWORD 'p' DB 'd' TABLE 't')",
-                                   "CLICKHOUSE(QUERY 'SELECT 1')", "EXECUTABLE(COMMAND 'cat' FORMAT 'TSV')"]) + ")"
-        s += " LAYOUT(" + r.pick(["FLAT()", "HASHED()", "COMPLEX_KEY_HASHED(SHARDS 4)", "RANGE_HASHED()",
-                                   "CACHE(SIZE_IN_CELLS 1000)", "DIRECT()", "IP_TRIE", "HASHED_ARRAY()",
-                                   "SPARSE_HASHED()", "FLAT(INITIAL_ARRAY_SIZE 10 MAX_ARRAY_SIZE 100)"]) + ")"
-        s += " LIFETIME(" + r.pick(["0", "300", "MIN 0 MAX 10"]) + ")"
-        if r.p(1, 5):
-            s += " RANGE(MIN a MAX b)"
-        if r.p(1, 6):
-            s += " SETTINGS(format_csv_allow_single_quotes = 0)"
-        if r.p(1, 6):
-            s += " COMMENT " + string_lit(r)
-        return s
+                      "max_memory_usage = 100 WRITABLE, INHERIT 'default'", "a = 1, b = 'x' CONST, PROFILE 'q'", "max_threads MIN 1 MAX 4",
+                      "INHERIT p1, INHERIT p2"]) + r.pick(["", " TO r", " TO ALL EXCEPT u", " TO u1, u2"])
+    if x == 37 or x == 40 or x == 41:
+        s = r.pick(["CREATE DICTIONARY ", "CREATE OR REPLACE DICTIONARY ", "CREATE DICTIONARY IF NOT EXISTS ", "REPLACE DICTIONARY ", "create dictionary ",
+                    "CREATE DICTIONARY "]) + r.pick(["d", "db.d", "`my dict`", "db.`d 1`", "{db:Identifier}.d"]) + (oc if r.p(1, 3) else "")
+        if r.p(1, 10):
+            s += " UUID '00000000-0000-0000-0000-00000000000d'"
+        return s + dict_def(r)
     if x == 38:
-        return r.pick(["CREATE INDEX ", "CREATE INDEX IF NOT EXISTS ", "CREATE UNIQUE INDEX "]) + "i ON " + r.pick(["t", "db.t"]) \
-            + " (" + r.pick(["a", "a + 1, b", "lower(name)"]) + ")" + r.pick(["", " TYPE minmax", " TYPE set(100)",
-                                                                                 " TYPE bloom_filter GRANULARITY 1"])
+        return r.pick(["CREATE INDEX ", "CREATE INDEX IF NOT EXISTS ", "CREATE UNIQUE INDEX ", "create index "]) + r.pick(["i", "`my idx`", "idx_1"]) + " ON " \
+            + r.pick(["t", "db.t", "`my table`"]) + r.pick([
+                lambda: " (" + r.pick(["a", "a + 1, b", "lower(name)", "a DESC", "a ASC, b DESC", "(a, b)", "a, b, c", "toDate(ts)", "`a b`"]) + ")",
+                lambda: " " + r.pick(["a", "date(ts)", "lower(name)", "a + 1", "cityHash64(a, b)", "(a)"])])() \
+            + r.pick(["", " TYPE minmax", " TYPE set", " TYPE bloom_filter GRANULARITY 1", " TYPE MinMax GRANULARITY 4", " GRANULARITY 2",
+                      " TYPE minmax GRANULARITY 0"])
+    if x == 42 or x == 43:
+        return gen_attach(r)
     return r.pick(["CREATE NAMED COLLECTION nc AS a = 1, b = 's' NOT OVERRIDABLE",
                    "CREATE NAMED COLLECTION IF NOT EXISTS nc ON CLUSTER c AS k = 'v' OVERRIDABLE",
                    "CREATE RESOURCE res (WRITE DISK d, READ DISK d)", "CREATE RESOURCE res (READ ANY DISK)",
                    "CREATE WORKLOAD w IN all SETTINGS weight = 3", "CREATE WORKLOAD all",
-                   "CREATE OR REPLACE WORKLOAD w IN all SETTINGS max_io_requests = 10 FOR res"])
+                   "CREATE OR REPLACE WORKLOAD w IN all SETTINGS max_io_requests = 10 FOR res",
+                   "CREATE WORKLOAD IF NOT EXISTS w IN all", "CREATE WORKLOAD IF NOT EXISTS all", "CREATE RESOURCE IF NOT EXISTS r (MASTER THREAD, WORKER THREAD)",
+                   "CREATE OR REPLACE RESOURCE r ON CLUSTER c (WRITE ANY DISK)", "CREATE NAMED COLLECTION `my nc` AS url = 'http://x', `key` = 1.5, x = NULL",
+                   "CREATE NAMED COLLECTION 'nc' AS a = -1", "CREATE WORKLOAD w ON CLUSTER c IN `parent w` SETTINGS priority = -1, max_cpus = 0.5",
+                   "CREATE NAMED COLLECTION key AS key = 'key'", "CREATE WORKLOAD production IN all SETTINGS weight = 9 FOR cpu, max_requests = 1 FOR io"])
+
+
+def gen_attach(r):
+    """ATTACH (the statement printer of its own): tables with definitions, views, dictionaries, databases"""
+    x = r.below(16)
+    ine = r.pick(["", "", "IF NOT EXISTS "])
+    if x < 5:
+        s = "ATTACH TABLE " + ine + r.pick(["t", "db.t", "`my table`", "t_new"])
+        if r.p(1, 4):
+            s += " UUID '00000000-0000-0000-0000-000000000001'"
+        if r.p(1, 4):
+            s += " FROM " + r.pick(["'/p'", "'/var/lib/clickhouse/store/it\\'s'", "'rel/path'"])
+        s += " " + columns_def(r, attach=True) + " " + r.pick(["ENGINE = ", "ENGINE "]) + r.pick(ENGINES)
+        opts = []
+        if r.p(1, 3):
+            opts.append("PARTITION BY " + r.pick(["toYYYYMM(ts)", "a", "(a, b)", "tuple()"]))
+        if r.p(1, 2):
+            opts.append("ORDER BY " + r.pick(["a", "(a, b)", "tuple()", "()", "(a)", "toDate(ts)", "(a, toDate(ts), b)", "a + 1"]))
+        if r.p(1, 4):
+            opts.append("PRIMARY KEY " + r.pick(["a", "(a)", "(a, b)", "()", "tuple()"]))
+        if r.p(1, 4):
+            opts.append("SETTINGS index_granularity = 8192" + r.pick(["", ", a = 'x'"]))
+        if r.p(1, 6) and opts:
+            k = r.below(len(opts))
+            opts = opts[k:] + opts[:k]
+        return s + (" " + " ".join(opts) if opts else "")
+    if x < 9:
+        # materialized views: engine with and without parameters, inner UUID, all table options, AS SELECT
+        s = "ATTACH MATERIALIZED VIEW " + ine + r.pick(["mv", "db.mv", "`my mv`"])
+        if r.p(1, 2):
+            s += " UUID '00000000-0000-0000-0000-00000000000a'"
+            if r.p(1, 2):
+                s += " TO INNER UUID '00000000-0000-0000-0000-00000000000b'"
+        if r.p(3, 4):
+            s += " " + columns_def(r, attach=True)
+        s += " " + r.pick(["ENGINE = ", "ENGINE "]) + r.pick(["SummingMergeTree(v)", "SummingMergeTree", "AggregatingMergeTree()", "MergeTree", "ReplacingMergeTree(ver, d)",
+                                                             "SummingMergeTree((a, b))", "ReplicatedSummingMergeTree('/p', 'r', (v, w))", "Memory", "CollapsingMergeTree(sign)",
+                                                             "VersionedCollapsingMergeTree(sign, ver)", "MergeTree()", "GraphiteMergeTree('x')"])
+        opts = []
+        if r.p(1, 2):
+            opts.append("PARTITION BY " + r.pick(["toYYYYMM(ts)", "p", "(a, b)"]))
+        if r.p(3, 4):
+            opts.append("ORDER BY " + r.pick(["k", "(k, w)", "tuple()", "()", "(k)", "toDate(ts)"]))
+        if r.p(1, 3):
+            opts.append("PRIMARY KEY " + r.pick(["k", "(k)", "(k, w)", "()"]))
+        if r.p(1, 3):
+            opts.append("SETTINGS index_granularity = 8192")
+        if r.p(1, 6) and opts:
+            k = r.below(len(opts))
+            opts = opts[k:] + opts[:k]
+        s += (" " + " ".join(opts) if opts else "")
+        return s + " AS " + select_core(r, 1, simple=not r.p(1, 3), force_from=True)
+    return r.pick(["ATTACH TABLE t", "ATTACH TABLE db.t", "ATTACH TABLE IF NOT EXISTS t",
+                   "ATTACH DATABASE db", "ATTACH DATABASE IF NOT EXISTS `my db`", "ATTACH DICTIONARY d", "ATTACH DICTIONARY db.d", "ATTACH DICTIONARY IF NOT EXISTS db.`my d`",
+                   "ATTACH t", "ATTACH db.t", "ATTACH TABLE t UUID '00000000-0000-0000-0000-000000000001'", "ATTACH TABLE t FROM '/p'",
+                   "ATTACH TABLE t (a UInt8) ENGINE = Memory", "ATTACH TABLE t (a UInt8, PRIMARY KEY a) ENGINE = MergeTree ORDER BY a",
+                   "ATTACH TABLE t (a UInt8, PRIMARY KEY ()) ENGINE = MergeTree ORDER BY ()", "ATTACH TABLE t (a UInt8, b String, PRIMARY KEY (a, b)) ENGINE = MergeTree ORDER BY (a, b)",
+                   "ATTACH MATERIALIZED VIEW mv", "ATTACH MATERIALIZED VIEW db.mv UUID '00000000-0000-0000-0000-00000000000a'",
+                   "ATTACH MATERIALIZED VIEW mv (k UInt8, v UInt64) ENGINE = SummingMergeTree(v) ORDER BY k AS SELECT k, sum(x) AS v FROM t GROUP BY k",
+                   "ATTACH MATERIALIZED VIEW mv ENGINE = SummingMergeTree(v, w) ORDER BY () AS SELECT 1",
+                   "ATTACH TABLE `my db`.`my table`", "ATTACH TABLE {db:Identifier}.t"])
 
 
 # ------------------------------------------------------------------------------------------
@@ -1031,21 +2249,25 @@ def gen_create(r):
 
 def partition_expr(r):
     return r.pick(["202001", "'2020-01-01'", "ID '202001'", "ID 123", "ID 'all'", "(1, 'a')", "tuple()", "ALL",
-                   "toYYYYMM(today())", "{p:String}", "1", "(2020, 1)", "tuple(1, 2)", "'a'", "ID '1-2'"])
+                   "toYYYYMM(today())", "{p:String}", "1", "(2020, 1)", "tuple(1, 2)", "'a'", "ID '1-2'",
+                   "all", "-1", "(-1, 'a')", "ID 'it\\'s'", "ID ''", "(toDate('2020-01-01'), 1)", "'tab\\t'", "1.5", "()", "NULL", "true",
+                   "[1, 2]", "(1, (2, 3))", "18446744073709551615", "ID '18446744073709551616'", "toDate('2020-01-01')", "(NULL, 1)", "ID 'tab\\tid'", "ID 'cr\\rid'", "'nl\\nvalue'"]
+                  + unless("partition-id-newline", "ID 'nl\\nid'", "ID 'a\\r\\nb'"))
 
 
 def alter_command(r):
-    c = lambda: r.pick(["c", "col", "`a b`", "`n.x`", "x1"])
+    c = lambda: r.pick(["c", "col", "`a b`", "`n.x`", "x1", "key", "value", "`ключ`", "\"q\""])
+    nc = lambda: r.pick(["n.x", "nested.a.b", "NestedColumn.A", "n.key", "c", "`a b`"])        # nested (dotted) column names
     ine = r.pick(["", "", "IF NOT EXISTS "])
     ie = r.pick(["", "", "IF EXISTS "])
-    inpart = r.pick(["", "", " IN PARTITION " + r.pick(["1", "202001", "'x'", "(1, 2)"])])
-    x = r.below(960)
+    inpart = r.pick(["", "", " IN PARTITION " + r.pick(["1", "202001", "'x'", "(1, 2)", "ALL", "tuple()", "all"])])
+    x = r.below(1 << 20)
     forms = [
         lambda: "ADD COLUMN " + ine + c() + " " + data_type(r, ddl=True)
                 + r.pick(["", " DEFAULT " + expr(r, 3, False), " MATERIALIZED " + atom(r), " ALIAS a + 1", " CODEC(ZSTD)",
                           " COMMENT 'x'"]) + r.pick(["", "", " AFTER a"]),
         lambda: "DROP COLUMN " + ie + c(),
-        lambda: "CLEAR COLUMN " + ie + c() + inpart,
+        lambda: "CLEAR COLUMN " + c() + inpart,
         lambda: "RENAME COLUMN " + ie + c() + " TO " + r.pick(["b2", "`new name`"]),
         lambda: "MODIFY COLUMN " + ie + c() + " " + data_type(r, ddl=True)
                 + r.pick(["", " DEFAULT " + atom(r), " CODEC(LZ4)", " COMMENT 'c'"]) + r.pick(["", "", " AFTER b"]),
@@ -1080,7 +2302,8 @@ def alter_command(r):
         lambda: "FREEZE",
         lambda: "FREEZE PARTITION " + partition_expr(r),
         lambda: "FETCH PARTITION " + r.pick(["1", "ID '1'", "'x'"]) + " FROM '/clickhouse/tables/t'",
-        lambda: "UPDATE " + ", ".join(r.pick(COLS) + " = " + expr(r, 3, False) for _ in range(1 + r.below(2)))
+        lambda: "UPDATE " + ", ".join(r.pick(COLS) + " = " + ("(" + expr(r, 3, False) + ")" if inpart else expr(r, 3, False))
+                                      for _ in range(1 + r.below(2)))
                 + inpart + " WHERE " + expr(r, 3, False),
         lambda: "DELETE WHERE " + expr(r, 2, True),
         lambda: "ADD INDEX " + r.pick(["i", "idx"]) + " " + r.pick(["a", "(a, b)", "lower(name)", "a + 1"])
@@ -1126,12 +2349,60 @@ def alter_command(r):
         lambda: "ADD INDEX " + r.pick(["i", "idx"]) + " " + r.pick(["a", "(a, b)", "lower(name)"]) + " TYPE "
                 + r.pick(["minmax", "set(10)", "bloom_filter"]) + r.pick(["", " GRANULARITY 1"]) + " AFTER " + r.pick(["j", "idx0"]),
         lambda: "MATERIALIZE INDEX i IN PARTITION ID " + r.pick(["'1'", "'202001'"]),
-        lambda: "UPDATE " + r.pick(COLS) + " = " + expr(r, 3, False) + " IN PARTITION ID " + r.pick(["'x'", "'1-2'"])
+        lambda: "UPDATE " + r.pick(COLS) + " = (" + expr(r, 3, False) + ") IN PARTITION ID " + r.pick(["'x'", "'1-2'"])
                 + " WHERE " + expr(r, 3, False),
         lambda: "APPLY PATCHES" + inpart,
         lambda: "ADD PROJECTION " + r.pick(["p", "proj"]) + " (" + r.pick(["", "WITH 1 AS w ", "WITH 1 AS w, 2 AS v "]) + "SELECT "
                 + r.pick(["a, b ORDER BY a, b", "a, b, c ORDER BY (a, b)", "a ORDER BY a", "a, count() GROUP BY a", "a, b GROUP BY a, b"]) + ")",
         lambda: "MODIFY ORDER BY " + r.pick(["a", "(a)", "(a, b)", "toDate(ts)"]),
+        # --- added from measured coverage ------------------------------------------------------------
+        lambda: "RESET SETTING " + r.pick(["a, b, a", "a, a", "max_threads, max_threads, max_block_size", "key, index", "a", "a, b, c, d, e"]),
+        lambda: "MODIFY SETTING " + r.pick(["a = 1, b = 'x', a = 2", "ttl_only_drop_parts = 1", "storage_policy = 'it\\'s'", "a = -1, b = 1.5, c = NULL",
+                                            "index_granularity = 8192, a = [1, 2]", "key = 'value'"]),
+        lambda: "DROP COLUMN " + ie + nc(),
+        lambda: "RENAME COLUMN " + ie + nc() + " TO " + nc(),
+        lambda: "ADD COLUMN " + ine + nc() + " " + data_type(r, ddl=True) + " AFTER " + r.pick(["n.x", "AddedNested1.B", "a", "`a b`"]),
+        lambda: "CLEAR COLUMN " + r.pick(["key", "c", "value"]) + " IN PARTITION " + r.pick(["ALL", "tuple()", "'2020-01-01'", "(1, 'a')"]),
+        lambda: "COMMENT COLUMN " + ie + r.pick(["key", "`a b`", "c"]) + " " + string_lit(r),
+        lambda: "MATERIALIZE COLUMN " + c() + " IN PARTITION ID " + r.pick(["'1'", "'202001'", "'it\\'s'"]),
+        lambda: "APPLY DELETED MASK IN PARTITION ID " + r.pick(["'1'", "'all'"]),
+        lambda: "MODIFY COLUMN " + ie + c() + r.pick([" String", " Nullable(UInt8)", " DateTime"]) + " TTL " + r.pick(["d + INTERVAL 1 DAY", "ts + toIntervalMonth(1)"]),
+        lambda: "MODIFY COLUMN " + ie + c() + r.pick([" REMOVE COMMENT", " REMOVE DEFAULT", " REMOVE TTL", " REMOVE CODEC", " REMOVE ALIAS"]),
+        lambda: "MODIFY QUERY " + r.pick([lambda: select_with_union(r, 2, simple=True), lambda: "WITH 1 AS w SELECT w, a FROM t",
+                                          lambda: "SELECT a, count() FROM t GROUP BY a", lambda: "SELECT 1 INTERSECT SELECT 1"])(),
+        lambda: "MOVE PARTITION " + r.pick(["tuple()", "ID '1'", "ALL", "(1, 'a')", "'2020-01-01'"]) + " TO "
+                + r.pick(["TABLE `my db`.`my t`", "TABLE t2", "DISK 'it\\'s'", "VOLUME 'cold'", "DISK ''", "TABLE {db:Identifier}.t2"]),
+        lambda: "FETCH PARTITION " + r.pick(["tuple()", "ID 'x'", "ALL", "(1, 2)", "202001"]) + " FROM " + r.pick(["'/clickhouse/tables/01-01/t'", "'it\\'s'", "'zk2:/p'"]),
+        lambda: "REPLACE PARTITION " + r.pick(["ID 'x'", "ALL", "(1, 2)", "202001", "tuple()"]) + " FROM " + r.pick(["t2", "src", "`my t`"]),
+        lambda: "ATTACH PARTITION " + r.pick(["ID 'x'", "ALL", "(1, 2)", "202001", "tuple()"]) + " FROM " + r.pick(["t2", "key", "`my t`", "table"]),
+        lambda: "FREEZE PARTITION " + r.pick(["ALL", "tuple()", "(1, 'a')", "ID 'x'"]),
+        lambda: "UPDATE " + r.pick(["key = 1, value = value + 1", "a = 1, b = 2, c = 3", "`a b` = 'x'", "arr = [1]", "a = (SELECT 1)", "a = a IN (1, 2)",
+                                     "key = key IN (SELECT 1)", "a = if(b, 1, 2)", "a = -a", "a = NULL", "m = map('k', 1)"]) + " WHERE " + expr(r, 3, True),
+        lambda: "DELETE WHERE " + r.pick(["1", "a IN (SELECT a FROM t2)", "key = 'x'", "NOT a", "a BETWEEN 1 AND 2", "_part = 'all_1_1_0'"]),
+        lambda: "ADD INDEX " + r.pick(["i", "`my idx`", "idx_2"]) + " " + r.pick(INDEX_EXPRS) + " TYPE " + r.pick(INDEX_TYPES)
+                + r.pick(["", " GRANULARITY 1", " GRANULARITY 100"]) + r.pick(["", "", " AFTER j", " AFTER key"]),
+        lambda: "ADD INDEX " + r.pick(["i", "idx"]) + " TYPE " + r.pick(["minmax", "set(2)"]),           # no expression
+        lambda: "ADD INDEX " + r.pick(["i", "idx"]) + " " + r.pick(INDEX_EXPRS),                           # no type
+        lambda: "DROP INDEX " + ie + r.pick(["`my idx`", "key", "i"]),
+        lambda: "MATERIALIZE INDEX " + r.pick(["i", "`my idx`"]) + r.pick(["", " IN PARTITION tuple()", " IN PARTITION ALL", " IN PARTITION ID 'x'"]),
+        lambda: "CLEAR INDEX " + r.pick(["i", "`my idx`"]) + r.pick(["", " IN PARTITION tuple()", " IN PARTITION ALL", " IN PARTITION (1, 2)"]),
+        lambda: "ADD PROJECTION " + r.pick(["values", "`my p`", "p1"]) + " (SELECT " + r.pick(PROJ_BODIES) + ")",
+        lambda: r.pick(["MATERIALIZE", "CLEAR", "DROP"]) + " PROJECTION " + r.pick(["p", "`my p`"]),
+        lambda: "MATERIALIZE PROJECTION p",
+        lambda: "ADD CONSTRAINT " + r.pick(["c1", "`my c`"]) + r.pick([" CHECK ", " ASSUME ", " check "]) + expr(r, 3, True),
+        lambda: "DROP CONSTRAINT " + r.pick(["c1", "`my c`"]),
+        lambda: "MODIFY ORDER BY " + r.pick(["(a, b + 1)", "tuple()", "()", "(a, b, toDate(ts))", "a + 1", "(a)", "(key, value)", "xxHash32(a)"]),
+        lambda: "MODIFY SAMPLE BY " + r.pick(["cityHash64(a)", "(a)", "a % 10"]),
+        lambda: "MODIFY TTL " + r.pick(["d + INTERVAL 1 DAY TO DISK 'cold', d + INTERVAL 1 YEAR DELETE WHERE a = 1", "d + INTERVAL 1 MONTH GROUP BY a SET b = max(b), c = sum(c)",
+                                        "ts + toIntervalDay(x)", "d + INTERVAL 1 DAY DELETE, d + INTERVAL 2 DAY TO VOLUME 'v', d + INTERVAL 3 DAY RECOMPRESS CODEC(ZSTD(9))",
+                                        "d + INTERVAL 1 WEEK WHERE b > 0", "d"]),
+        lambda: "DROP PART " + r.pick(["'all_1_1_0'", "'202001_1_1_0'", "'it\\'s'"]),
+        lambda: r.pick(["DETACH", "ATTACH"]) + " PART " + r.pick(["'all_2_2_0'", "'202001_2_2_1'"]),
+        lambda: "DROP DETACHED PARTITION " + partition_expr(r).replace("ID ", ""),
+        lambda: "ADD STATISTICS " + ine + r.pick(["key", "a, key", "`a b`"]) + " TYPE " + stat_kinds(r),
+        lambda: "MODIFY STATISTICS " + r.pick(["key", "a, b, c"]) + " TYPE " + stat_kinds(r),
+        lambda: "MODIFY COLUMN " + c() + " MODIFY SETTING " + r.pick(["a = 1", "a = 'x', b = -1", "max_compress_block_size = 1048576"]),
+        lambda: "MODIFY COLUMN " + c() + " RESET SETTING " + r.pick(["a", "a, b, a", "key, value"]),
     ]
     return forms[x % len(forms)]()
 
@@ -1139,34 +2410,46 @@ def alter_command(r):
 def gen_alter(r):
     x = r.below(24)
     if x == 0:
-        return "ALTER USER " + r.pick(["u", "IF EXISTS u", "u1, u2"]) + r.pick(
-            [" IDENTIFIED BY 'p'", " RENAME TO v", " DEFAULT ROLE r", " SETTINGS max_threads = 1", " HOST ANY",
-             " IDENTIFIED WITH sha256_password BY 'p'", " DEFAULT ROLE ALL EXCEPT r", " NOT IDENTIFIED"])
+        return r.pick(["ALTER USER ", "alter user "]) + r.pick(USERS + ["IF EXISTS u"]) + r.pick(
+            AUTH[1:] + [" RENAME TO v", " DEFAULT ROLE r", " SETTINGS max_threads = 1", " HOST ANY", " DEFAULT ROLE ALL EXCEPT r",
+                        " ADD IDENTIFIED WITH plaintext_password BY 'p'", " ADD IDENTIFIED BY 'a', BY 'b'", " RESET AUTHENTICATION METHODS TO NEW",
+                        " DROP ALL PROFILES", " DROP ALL SETTINGS", " ADD PROFILE 'p'", " MODIFY SETTING max_threads = 2 MAX 4", " DROP SETTINGS a, b",
+                        " VALID UNTIL '2031-01-01'", " GRANTEES u2", " DEFAULT DATABASE db", " ON CLUSTER c IDENTIFIED BY 'p' HOST LOCAL",
+                        " IDENTIFIED WITH ldap SERVER 's' HOST NAME 'h' DEFAULT ROLE r1, r2 SETTINGS PROFILE 'p'", " IDENTIFIED WITH kerberos REALM 'R' SETTINGS a = 1",
+                        " NOT IDENTIFIED HOST NONE GRANTEES NONE"])
     if x == 1:
         return r.pick(["ALTER ROLE r RENAME TO r2", "ALTER ROLE r SETTINGS max_threads = 1", "ALTER ROLE IF EXISTS r RENAME TO q",
                        "ALTER ROW POLICY p ON t USING 1", "ALTER POLICY p ON t RENAME TO q",
                        "ALTER POLICY p ON db.t FOR SELECT USING a = 1 TO r",
                        "ALTER SETTINGS PROFILE p SETTINGS max_threads = 1", "ALTER PROFILE p RENAME TO q",
                        "ALTER NAMED COLLECTION nc SET a = 1 DELETE b", "ALTER NAMED COLLECTION nc SET a = 1, b = 'x'",
-                       "ALTER NAMED COLLECTION nc DELETE a"])
-    s = r.pick(["ALTER TABLE ", "ALTER TABLE ", "ALTER TABLE ", "ALTER TEMPORARY TABLE "]) + r.pick(["t", "db.t", "`my table`"])
-    if s.startswith("ALTER TABLE") and r.p(1, 6):
-        s += " ON CLUSTER c"
+                       "ALTER NAMED COLLECTION nc DELETE a",
+                       "ALTER SETTINGS PROFILE IF EXISTS p1, p2 SETTINGS a = 1 MIN 0 MAX 2", "ALTER PROFILE IF EXISTS p ON CLUSTER c ADD SETTINGS b = 2",
+                       "ALTER SETTINGS PROFILE p1, p2, p3 TO ALL EXCEPT u", "ALTER PROFILE `my p` DROP ALL SETTINGS", "ALTER SETTINGS PROFILE 'p' RENAME TO 'q'",
+                       "ALTER ROLE r1, r2 ON CLUSTER c SETTINGS PROFILE 'p'", "ALTER ROLE `my role` DROP ALL PROFILES", "ALTER ROW POLICY IF EXISTS p ON db.* AS RESTRICTIVE USING a IN (1, 2) TO ALL",
+                       "ALTER ROW POLICY p1 ON t1, p2 ON t2 RENAME TO q", "ALTER POLICY `my p` ON `my t` FOR SELECT USING (SELECT 1) TO NONE",
+                       "ALTER NAMED COLLECTION IF EXISTS nc ON CLUSTER c SET a = 1 OVERRIDABLE, b = 'x' NOT OVERRIDABLE DELETE c, d",
+                       "ALTER NAMED COLLECTION `my nc` SET `key` = -1.5", "ALTER NAMED COLLECTION 'nc' DELETE a, b", "ALTER NAMED COLLECTION key SET key = NULL"])
+    s = r.pick(["ALTER TABLE ", "ALTER TABLE ", "ALTER TABLE ", "ALTER TEMPORARY TABLE ", "alter table "]) \
+        + r.pick(["t", "db.t", "`my table`", "{db:Identifier}.t", "`my db`.`my t`", "\"t\"", "key", "default.`таблица`"])
+    if s.upper().startswith("ALTER TABLE") and r.p(1, 6):
+        s += r.pick([" ON CLUSTER c", " ON CLUSTER '{cluster}'", " ON CLUSTER `my cluster`", " on cluster c"])
     n = r.pick([1, 1, 1, 2, 3])
     cmds = [alter_command(r) for _ in range(n)]
     # commands that end in a comma list (or a SELECT) swallow what follows: at most one, and last
     greedy = lambda c: c.startswith(("MODIFY QUERY", "UPDATE", "DELETE", "MODIFY SETTING", "RESET SETTING",
-                                     "MODIFY TTL", "MATERIALIZE TTL", "REMOVE")) or "STATISTICS" in c or "SETTING" in c
+                                     "MODIFY TTL", "MATERIALIZE TTL", "REMOVE", "ADD CONSTRAINT", "ADD INDEX")) \
+        or "STATISTICS" in c or "SETTING" in c or " REMOVE " in c or " TTL " in c
     g = [c for c in cmds if greedy(c)]
     cmds = [c for c in cmds if not greedy(c)] + g[:1]
-    if len(cmds) > 1 and r.p(1, 6):
+    if len(cmds) > 1 and r.p(1, 6) and not any(" REMOVE " in c for c in cmds):
         s += " " + ", ".join("(" + c + ")" for c in cmds)
     else:
         s += " " + ", ".join(cmds)
     if r.p(1, 16):
-        s += " FORMAT Null"
+        s += r.pick([" FORMAT Null", " FORMAT JSON", " format Null"])
     if r.p(1, 10):
-        s += " SETTINGS mutations_sync = 2"
+        s += r.pick([" SETTINGS mutations_sync = 2", " SETTINGS alter_sync = 0, replication_alter_partitions_sync = 2", " SETTINGS a = 'x'"])
     return s
 
 
@@ -1174,20 +2457,37 @@ def gen_alter(r):
 # utility statements
 
 def tbl(r):
-    return r.pick(["t", "db.t", "`my table`", "t2", "db.events"])
+    return r.pick(["t", "db.t", "`my table`", "t2", "db.events", "`my db`.`my t`", "system.parts", "key", "\"t\""])
 
 
-def explain_stmt(r):
-    kind = r.pick(["", "", "AST ", "AST ", "AST ", "SYNTAX ", "PLAN ", "PIPELINE ", "ESTIMATE ", "QUERY TREE "])
+def nested_utility(r):
+    """a utility statement as the target of EXPLAIN AST (SHOW statements: only those whose node kind the goldens establish —
+    checks/c04.py recognises the known SHOW ROLES / USERS / ... finding by the first word of the whole statement)"""
+    s = gen_utility(Rng(r.next()), nested=True)
+    if s[:4].upper() == "SHOW":
+        s = r.pick(["SHOW TABLES", "SHOW CREATE TABLE t", "SHOW DATABASES", "SHOW TABLES FROM db LIKE 'a%'", "SHOW CREATE DATABASE db", "SHOW COLUMNS FROM t",
+                    "SHOW DICTIONARIES", "SHOW CREATE VIEW v", "SHOW CREATE DICTIONARY d", "SHOW SETTINGS LIKE 'max%'", "SHOW FUNCTIONS", "SHOW GRANTS", "SHOW PRIVILEGES"])
+    return s
+
+
+def explain_stmt(r, inner=False):
+    """inner: for use as a FROM subquery — a SELECT without tail is explained (the statements whose parser
+    skips to the end of the input would swallow the closing parenthesis)"""
+    kind = r.pick(["", "", "AST ", "AST ", "AST ", "SYNTAX ", "PLAN ", "PIPELINE ", "ESTIMATE ", "QUERY TREE ", "ast ", "Syntax ", "query tree "])
     opts = ""
     if kind in ("", "PLAN ") and r.p(1, 3):
-        opts = r.pick(["header = 1 ", "header = 1, actions = 1 ", "json = 1 ", "indexes = 1 ", "description = 0 "])
+        opts = r.pick(["header = 1 ", "header = 1, actions = 1 ", "json = 1 ", "indexes = 1 ", "description = 0 ", "optimize = 0 ",
+                       "header = 1, indexes = 1, json = 1 ", "sorting = 1 ", "projections = 1 ", "keep_logical_steps = 1 ", "distributed = 1 "])
     elif kind == "PIPELINE " and r.p(1, 3):
-        opts = r.pick(["graph = 1 ", "header = 1 ", "compact = 0 "])
-    elif kind == "QUERY TREE " and r.p(1, 3):
-        opts = r.pick(["run_passes = 0 ", "dump_ast = 1 "])
+        opts = r.pick(["graph = 1 ", "header = 1 ", "compact = 0 ", "graph = 1, compact = 0 "])
+    elif kind.upper() == "QUERY TREE " and r.p(1, 3):
+        opts = r.pick(["run_passes = 0 ", "dump_ast = 1 ", "dump_passes = 1, passes = 2 ", "dump_tree = 0 "])
+    elif kind.upper() == "SYNTAX " and r.p(1, 3):
+        opts = r.pick(["oneline = 1 ", "run_query_tree_passes = 1 "])
+    elif kind.upper() == "AST " and r.p(1, 8):
+        opts = r.pick(["graph = 1 ", "optimize = 1 "])
     x = r.below(20)
-    if kind == "AST " and x < 10:
+    if kind.upper() == "AST " and x < 10 and not inner:
         inner = r.pick([
             lambda: "DESCRIBE TABLE " + r.pick(["numbers(1)", "t", "remote('h', db.t)", "file('a.csv', 'CSV', 'x UInt8')", "(SELECT 1)"]),
             lambda: "BACKUP TABLE " + tbl(r) + " TO " + r.pick(["Disk('backups', '1.zip')", "File('/p')", "S3('u', 'k', 's')"]),
@@ -1196,12 +2496,13 @@ def explain_stmt(r):
             lambda: gen_insert(Rng(r.next())),
             lambda: gen_create(Rng(r.next())),
             lambda: gen_alter(Rng(r.next())),
+            lambda: nested_utility(r),
             lambda: r.pick(["SHOW TABLES", "DROP TABLE t", "SYSTEM FLUSH LOGS", "OPTIMIZE TABLE t FINAL", "USE db",
                             "SET a = 1", "TRUNCATE TABLE t", "EXISTS TABLE t", "SHOW CREATE TABLE t",
                             "RENAME TABLE a TO b", "GRANT SELECT ON t TO u", "KILL QUERY WHERE 1",
                             "CHECK TABLE t", "DETACH TABLE t", "EXPLAIN SELECT 1", "EXPLAIN AST SELECT 1"]),
         ])()
-        return "EXPLAIN AST " + inner
+        return "EXPLAIN AST " + opts + inner
     if x < 14:
         body = select_core(r, 1, simple=not r.p(1, 3))
     elif x < 17:
@@ -1209,96 +2510,162 @@ def explain_stmt(r):
     elif x == 17:
         body = "(" + select_core(r, 1, True) + ")"
     else:
-        body = gen_setop(Rng(r.next()))
+        body = gen_setop(Rng(r.next())) if not inner else select_with_union(r, 1, simple=True)
         return "EXPLAIN " + kind + opts + body
-    t = select_tail(r, outfile=not STATE["bare"] and x < 14)
+    t = select_tail(r, outfile=not STATE["bare"] and x < 14) if not inner else ""
     return "EXPLAIN " + kind + opts + body + (" " + t if t else "")
 
 
-def gen_utility(r):
-    x = r.below(60)
-    like = lambda: r.pick(["", "", " LIKE '%x%'", " NOT LIKE 'a'", " ILIKE 'A%'"])
-    oc = r.pick(["", "", "", " ON CLUSTER c"])
+SYSTEM_CMDS = [
+    "FLUSH LOGS", "RELOAD DICTIONARIES", "RELOAD DICTIONARY db.d", "DROP DNS CACHE", "DROP MARK CACHE",
+    "DROP UNCOMPRESSED CACHE", "STOP MERGES", "STOP MERGES db.t", "START MERGES t", "STOP TTL MERGES",
+    "STOP FETCHES t", "STOP REPLICATED SENDS", "SYNC REPLICA db.t", "SYNC REPLICA t STRICT", "RESTART REPLICA t",
+    "RESTART REPLICAS", "FLUSH DISTRIBUTED db.t", "STOP DISTRIBUTED SENDS t", "RELOAD CONFIG", "SHUTDOWN", "KILL",
+    "FLUSH LOGS ON CLUSTER c", "WAIT LOADING PARTS t", "ENABLE FAILPOINT fp", "SYNC FILE CACHE", "RELOAD FUNCTIONS",
+    "DROP QUERY CACHE", "STOP MOVES", "START FETCHES", "START REPLICATION QUEUES t", "DROP COMPILED EXPRESSION CACHE",
+    # SYNC REPLICA modes, with and without database / cluster
+    "SYNC REPLICA t LIGHTWEIGHT", "SYNC REPLICA t PULL", "SYNC REPLICA db.t",
+    "SYNC REPLICA ON CLUSTER c t", "SYNC REPLICA t strict", "SYNC REPLICA `my table` PULL",
+    "SYNC REPLICA t",
+    "RELOAD DICTIONARY d", "RELOAD DICTIONARY ON CLUSTER c db.d", "RELOAD DICTIONARY `my d`",
+    "RELOAD MODEL m", "RELOAD MODELS", "RELOAD EMBEDDED DICTIONARIES", "RELOAD SYMBOLS", "RELOAD ASYNCHRONOUS METRICS",
+    "RELOAD USERS", "FLUSH ASYNC INSERT QUEUE", "FLUSH DISTRIBUTED t", "FLUSH DISTRIBUTED ON CLUSTER c db.t", "FLUSH DISTRIBUTED db.t SETTINGS flush_on_detach = 1",
+    "DROP FILESYSTEM CACHE", "DROP SCHEMA CACHE", "DROP SCHEMA CACHE FOR S3", "DROP SCHEMA CACHE FOR File", "DROP MMAP CACHE", "DROP S3 CLIENT CACHE",
+    "DROP INDEX MARK CACHE", "DROP INDEX UNCOMPRESSED CACHE", "DROP PRIMARY INDEX CACHE", "DROP FORMAT SCHEMA CACHE", "DROP FORMAT SCHEMA CACHE FOR Protobuf",
+    "DROP DISTRIBUTED CACHE", "DROP CONNECTIONS CACHE", "DROP PAGE CACHE", "DROP QUERY RESULT CACHE",
+    "STOP TTL MERGES t", "START TTL MERGES", "STOP MOVES db.t", "START MOVES t", "STOP FETCHES", "START FETCHES db.t", "STOP REPLICATED SENDS t",
+    "START REPLICATED SENDS", "STOP REPLICATION QUEUES", "START REPLICATION QUEUES db.t", "STOP DISTRIBUTED SENDS db.t", "START DISTRIBUTED SENDS t",
+    "STOP PULLING REPLICATION LOG t", "START PULLING REPLICATION LOG", "STOP CLEANUP t", "START CLEANUP", "STOP MERGES ON CLUSTER c db.t",
+    "STOP LISTEN TCP", "START LISTEN HTTP", "STOP LISTEN MYSQL", "ENABLE FAILPOINT replicated_merge_tree_commit_zk_fail",
+    "DISABLE FAILPOINT fp", "DISABLE FAILPOINT dummy_failpoint", "RESTORE REPLICA t", "RESTORE REPLICA db.t",
+    "RESTART REPLICA db.t", "LOAD PRIMARY KEY t", "LOAD PRIMARY KEY db.t", "UNLOAD PRIMARY KEY", "UNLOAD PRIMARY KEY t", "JEMALLOC PURGE", "JEMALLOC ENABLE PROFILE",
+    "FLUSH LOGS", "DROP DNS CACHE ON CLUSTER c", "SYNC FILESYSTEM CACHE", "STOP THREAD FUZZER",
+    "START THREAD FUZZER", "RELOAD CONFIG ON CLUSTER c", "STOP MERGES `my table`", "SUSPEND",
+    "FLUSH DISTRIBUTED `my db`.`my t`", "RELOAD DICTIONARY db.d SETTINGS a = 1", "STOP DISTRIBUTED SENDS db.t SETTINGS a = 1", "WAIT LOADING PARTS db.t",
+]
+
+
+def gen_utility(r, nested=False):
+    x = r.below(70)
+    like = lambda: r.pick(["", "", " LIKE '%x%'", " NOT LIKE 'a'", " ILIKE 'A%'", " NOT ILIKE '%'", " LIKE 'it\\'s'", " like 'a_b'"])
+    oc = r.pick(["", "", "", " ON CLUSTER c", " ON CLUSTER '{cluster}'"])
     ie = r.pick(["", "", "IF EXISTS "])
-    if x < 10:
+    fmt = lambda: r.pick(["", "", " FORMAT " + r.pick(FORMATS)])
+    if x < 8 and not nested:
         return explain_stmt(r)
-    if x < 12:
-        return "SELECT * FROM (" + explain_stmt(r).split(" FORMAT ")[0].split(" SETTINGS ")[0].split(" INTO OUTFILE")[0] + ")" \
-            + r.pick(["", " WHERE explain LIKE '%x%'", " LIMIT 5"])
+    if x < 10 and not nested:
+        return "SELECT * FROM (" + explain_stmt(r, inner=True) + ")" \
+            + r.pick(["", " WHERE explain LIKE '%x%'", " LIMIT 5", " AS e", " e ORDER BY 1"])
+    if x == 10:
+        # (EXPLAIN CURRENT TRANSACTION is valid ClickHouse, but the parser rejects it: TRANSACTION is a keyword token there)
+        return r.pick(["SELECT count() FROM (EXPLAIN PLAN header = 1 SELECT 1)", "SELECT explain FROM (EXPLAIN SYNTAX SELECT 1) AS e",
+                       "SELECT * FROM (EXPLAIN AST SELECT 1) WHERE explain != ''", "SELECT (EXPLAIN SELECT 1)", "SELECT ((EXPLAIN SYNTAX SELECT 1)) AS e",
+                       "SELECT * FROM (EXPLAIN PIPELINE graph = 1 SELECT sum(x) FROM t GROUP BY a) AS p", "SELECT * FROM (EXPLAIN header = 1, actions = 1 SELECT 1)",
+                       "SELECT * FROM (EXPLAIN QUERY TREE run_passes = 0 SELECT 1) e", "SELECT * FROM (EXPLAIN ESTIMATE SELECT * FROM t)", "EXPLAIN AST EXPLAIN SELECT 1",
+                       "EXPLAIN SYNTAX EXPLAIN AST SELECT 1", "SELECT * FROM (EXPLAIN json = 1, description = 0 SELECT 1) FORMAT TSVRaw"])
     if x < 18:
         return r.pick([
-            lambda: "SHOW TABLES" + r.pick(["", " FROM db"]) + like() + r.pick(["", " LIMIT 3"]),
-            lambda: "SHOW TEMPORARY TABLES",
-            lambda: "SHOW DATABASES" + like(),
-            lambda: "SHOW DICTIONARIES" + r.pick(["", " FROM db"]) + like(),
-            lambda: "SHOW CREATE " + r.pick(["TABLE ", "", "VIEW ", "DICTIONARY ", "TEMPORARY TABLE "]) + tbl(r),
-            lambda: "SHOW CREATE DATABASE db",
-            lambda: "SHOW CREATE " + r.pick(["USER u", "ROLE r", "QUOTA q", "ROW POLICY p ON t", "SETTINGS PROFILE p"]),
-            lambda: "SHOW " + r.pick(["", "FULL "]) + "COLUMNS FROM t" + r.pick(["", " FROM db"]) + like(),
-            lambda: "SHOW " + r.pick(["INDEX", "INDEXES", "KEYS"]) + " FROM " + tbl(r),
+            lambda: "SHOW TABLES" + r.pick(["", " FROM db", " FROM `my db`"]) + like() + r.pick(["", " LIMIT 3", " LIMIT 1 + 1"]) + fmt(),
+            lambda: "SHOW TEMPORARY TABLES" + like(),
+            lambda: "SHOW DATABASES" + like() + r.pick(["", " LIMIT 2"]) + fmt(),
+            lambda: "SHOW DICTIONARIES" + r.pick(["", " FROM db"]) + like() + fmt(),
+            lambda: "SHOW CREATE " + r.pick(["TABLE ", "", "VIEW ", "DICTIONARY ", "TEMPORARY TABLE ", "table "]) + tbl(r) + fmt(),
+            lambda: "SHOW CREATE DATABASE " + r.pick(["db", "`my db`"]) + fmt(),
+            lambda: "SHOW CREATE " + r.pick(["USER u", "ROLE r", "QUOTA q", "ROW POLICY p ON t", "SETTINGS PROFILE p", "USER u1, u2", "USER u@'%'",
+                                             "ROLE r1, r2", "ROLE r1, r2, r3", "QUOTA `my q`", "POLICY p ON db.t", "ROW POLICY p ON t, q ON t2", "PROFILE p",
+                                             "PROFILE p1, p2", "SETTINGS PROFILE p1, p2, p3", "USER CURRENT_USER", "ROLE 'r'", "ROLE r@h", "QUOTA CURRENT"]) + fmt(),
+            lambda: "SHOW " + r.pick(["", "FULL ", "FULL "]) + r.pick(["COLUMNS", "FIELDS", "columns"]) + " FROM t" \
+                    + r.pick(["", " FROM db"]) + like() + r.pick(["", " LIMIT 5"]) + fmt(),
+            lambda: "SHOW " + r.pick(["INDEX", "INDEXES", "KEYS", "INDICES", "EXTENDED INDEX", "INDEX"]) + " FROM " \
+                    + r.pick(["t", "db.t", "t FROM db", "`my t`"]) + r.pick(["", " WHERE key_name = 'x'"]) + fmt(),
             lambda: "SHOW " + r.pick(["PROCESSLIST", "GRANTS", "GRANTS FOR u", "USERS", "ROLES", "PROFILES", "POLICIES",
                                       "QUOTAS", "QUOTA", "ACCESS", "CLUSTERS", "ENGINES", "FUNCTIONS", "MERGES",
-                                      "PRIVILEGES", "FUNCTIONS LIKE 'a%'"]),
-            lambda: "SHOW " + r.pick(["", "CHANGED "]) + "SETTINGS " + r.pick(["LIKE 'max%'", "ILIKE '%x%'"]),
-            lambda: "SHOW TABLE " + tbl(r),
+                                      "FUNCTIONS LIKE 'a%'", "GRANTS FOR u1, u2", "GRANTS FOR CURRENT_USER", "GRANTS FOR ALL",
+                                      "CLUSTERS LIKE 'c%'", "ENGINES"]) + fmt(),
+            lambda: "SHOW " + r.pick(["", "CHANGED "]) + "SETTINGS " + r.pick(["LIKE 'max%'", "ILIKE '%x%'", "LIKE 'it\\'s'"]) + fmt(),
+            lambda: "SHOW TABLE " + tbl(r) + fmt(),
+            lambda: "SHOW DATABASE " + r.pick(["db", "`my db`"]) + fmt(),
             lambda: "SHOW TABLES FORMAT " + r.pick(FORMATS),
             lambda: "SHOW CREATE TABLE t FORMAT TSVRaw",
-            lambda: "SHOW TABLES WHERE name = 'a'",
+            lambda: "SHOW TABLES WHERE " + r.pick(["name = 'a'", "name LIKE 'x%' AND engine = 'Memory'", "1"]) + r.pick(["", " LIMIT 1"]),
+            lambda: "SHOW CREATE " + r.pick(["TABLE ", "VIEW ", "DICTIONARY ", "DATABASE ", ""]) + r.pick(["t", "db.t", "`my t`"]) + " FORMAT " + r.pick(FORMATS) + " SETTINGS a = 1",
+            lambda: "SHOW CREATE " + r.pick(["TABLE ", "VIEW ", "DICTIONARY "]) + r.pick(["t", "db.t"]) + " SETTINGS show_table_uuid_in_table_create_query_if_not_nil = 1",
+            lambda: "SHOW " + r.pick(["TABLES", "DATABASES", "DICTIONARIES"]) + " SETTINGS a = 1",
+            lambda: "show tables from db like 'a' limit 1",
         ])()
     if x < 22:
         what = r.pick(["t", "db.t", "TABLE t", "TABLE db.t", "(SELECT 1, 2)", "TABLE (SELECT a FROM t)", "numbers(10)",
                        "TABLE remote('h', db.t)", "TABLE file('a.csv', 'CSV', 'x UInt8')", "TABLE s3('u', 'CSV')",
-                       "url('http://h/x', CSV, 'a UInt8')", "TABLE numbers(1, 2)", "TABLE merge('db', '^t')"])
-        return r.pick(["DESCRIBE ", "DESC ", "DESCRIBE "]) + what + r.pick(
-            ["", "", " FORMAT JSON", " SETTINGS describe_compact_output = 1", " FORMAT Null"])
+                       "url('http://h/x', CSV, 'a UInt8')", "TABLE numbers(1, 2)", "TABLE merge('db', '^t')",
+                       "`my table`", "system.one", "TABLE `my db`.`my t`", "(SELECT 1 UNION ALL SELECT 2)", "(SELECT * FROM t)",
+                       "format(JSONEachRow, '{\"a\": 1}')", "TABLE view(SELECT 1)", "key", "(WITH 1 AS x SELECT x)", "mysql('h', 'd', 't', 'u', 'p', SETTINGS a = 1)",
+                       "kql('T | project a')", "TABLE db.key"])
+        return r.pick(["DESCRIBE ", "DESC ", "DESCRIBE ", "describe ", "DESC "]) + what + r.pick(
+            ["", "", " FORMAT JSON", " SETTINGS describe_compact_output = 1", " FORMAT Null", " FORMAT TSV SETTINGS describe_include_subcolumns = 1", ""])
     if x < 24:
         return r.pick(["USE db", "USE DATABASE db", "USE `my db`", "SET max_threads = 1", "SET a = 1, b = 'x'",
                        "SET param_p = 1", "SET DEFAULT ROLE r TO u", "SET DEFAULT ROLE ALL TO u1, u2",
                        "SET TRANSACTION SNAPSHOT 1", "SET allow_x = true", "SET a = [1, 2]", "SET a = (1, 2)",
-                       "SET a = -1", "SET a = 1.5", "SET a = DEFAULT", "SET a = NULL", "SET a = {'x': 1}",
-                       "BEGIN TRANSACTION", "COMMIT", "ROLLBACK"])
+                       "SET a = -1", "SET a = 1.5", "SET a = DEFAULT", "SET a = NULL", "SET a = 'x'",
+                       "BEGIN TRANSACTION", "COMMIT", "ROLLBACK", "BEGIN", "USE default", "USE database", "USE {db:Identifier}", "USE DATABASE `my db`",
+                       "SET param_s = 'it\\'s'", "SET a = 1 + 1", "SET a = -inf", "SET a = 18446744073709551615", "SET a = [[1, -2], [NULL]]", "SET a = ((1, 'x'), NULL)",
+                       "SET limit = 10, offset = 5", "SET a", "SET a, b = 1", "SET DEFAULT ROLE NONE TO u", "SET DEFAULT ROLE ALL EXCEPT r TO u",
+                       "SET TRANSACTION SNAPSHOT 18446744073709551615", "SET TRANSACTION SNAPSHOT 0", "set max_threads = 1", "begin transaction", "commit", "rollback",
+                       "SET a = 'tab\\t', b = 'nl\\n'", "SET a = toUInt8(1)", "SET profile = 'default'", "SET a = true, b = false, c = NULL"])
     if x < 28:
-        return "SYSTEM " + r.pick([
-            "FLUSH LOGS", "RELOAD DICTIONARIES", "RELOAD DICTIONARY db.d", "DROP DNS CACHE", "DROP MARK CACHE",
-            "DROP UNCOMPRESSED CACHE", "STOP MERGES", "STOP MERGES db.t", "START MERGES t", "STOP TTL MERGES",
-            "STOP FETCHES t", "STOP REPLICATED SENDS", "SYNC REPLICA db.t", "SYNC REPLICA t STRICT", "RESTART REPLICA t",
-            "RESTART REPLICAS", "FLUSH DISTRIBUTED db.t", "STOP DISTRIBUTED SENDS t", "RELOAD CONFIG", "SHUTDOWN", "KILL",
-            "FLUSH LOGS ON CLUSTER c", "WAIT LOADING PARTS t", "ENABLE FAILPOINT fp", "SYNC FILE CACHE", "RELOAD FUNCTIONS",
-            "DROP QUERY CACHE", "STOP MOVES", "START FETCHES", "START REPLICATION QUEUES t", "DROP COMPILED EXPRESSION CACHE"])
+        return r.pick(["SYSTEM ", "SYSTEM ", "system "]) + r.pick(SYSTEM_CMDS)
     if x < 31:
-        s = "OPTIMIZE TABLE " + tbl(r) + r.pick(["", "", " ON CLUSTER c"])
-        s += r.pick(["", "", " PARTITION 1", " PARTITION ID '1'", " PARTITION tuple()", " PARTITION '2020-01-01'"])
-        s += r.pick(["", " FINAL", " FINAL DEDUPLICATE", " DEDUPLICATE", " FINAL CLEANUP"])
-        return s + r.pick(["", "", " SETTINGS optimize_throw_if_noop = 1"])
+        s = r.pick(["OPTIMIZE TABLE ", "optimize table "]) + tbl(r) + r.pick(["", "", " ON CLUSTER c"])
+        s += r.pick(["", "", " PARTITION 1", " PARTITION ID '1'", " PARTITION tuple()", " PARTITION '2020-01-01'", " PARTITION ALL", " PARTITION (1, 'a')",
+                     " PARTITION ID 'it\\'s'", " PARTITION toYYYYMM(today())", " PARTITION -1", " PARTITION ID ''", " PARTITION {p:String}"])
+        s += r.pick(["", " FINAL", " FINAL DEDUPLICATE", " DEDUPLICATE", " FINAL CLEANUP", " FORCE", " FINAL CLEANUP DEDUPLICATE", " CLEANUP", " final"])
+        return s + r.pick(["", "", " SETTINGS optimize_throw_if_noop = 1", " SETTINGS a = 1, b = 'x'"])
     if x < 33:
         return r.pick(["TRUNCATE TABLE " + ie + tbl(r) + oc, "TRUNCATE " + tbl(r), "TRUNCATE TEMPORARY TABLE t",
-                       "TRUNCATE DATABASE db", "TRUNCATE TABLE t SETTINGS a = 1"])
+                       "TRUNCATE DATABASE db", "TRUNCATE TABLE t SETTINGS a = 1", "TRUNCATE DATABASE IF EXISTS `my db`" + oc, "TRUNCATE TABLE db.t" + oc + " SETTINGS a = 1, b = 2",
+                       "TRUNCATE DATABASE db SETTINGS a = 1", "truncate table t", "TRUNCATE " + ie + "db.t"])
     if x < 36:
         return r.pick(["RENAME TABLE a TO b", "RENAME TABLE a TO b, c TO d", "RENAME TABLE db.a TO db.b ON CLUSTER c",
                        "RENAME DATABASE a TO b", "RENAME DICTIONARY a TO b", "EXCHANGE TABLES a AND b",
                        "EXCHANGE TABLES db.a AND db.b ON CLUSTER c", "EXCHANGE DICTIONARIES a AND b",
-                       "RENAME TABLE `x y` TO `z w`"])
+                       "RENAME TABLE `x y` TO `z w`",
+                       "RENAME TABLE IF EXISTS a TO b", "RENAME TABLE a TO b SETTINGS a = 1", "RENAME DATABASE a TO b ON CLUSTER c", "RENAME DATABASE a TO b SETTINGS a = 1",
+                       "RENAME DICTIONARY db.a TO db.b, c TO d", "RENAME TABLE a TO b, db.c TO db2.d, `e f` TO g ON CLUSTER c SETTINGS a = 1", "RENAME DICTIONARY IF EXISTS a TO b",
+                       "EXCHANGE TABLES a AND db.b", "EXCHANGE TABLES `a b` AND `c d`", "EXCHANGE DICTIONARIES db.a AND db.b ON CLUSTER '{cluster}'", "exchange tables a and b",
+                       "RENAME TABLE {db:Identifier}.a TO {db:Identifier}.b", "RENAME TABLE key TO value", "EXCHANGE TABLES key AND table", "rename table a to b",
+                       "RENAME DATABASE `my db` TO `your db`", "RENAME DATABASE a TO b, c TO d"])
     if x < 40:
         priv = r.pick(["SELECT", "SELECT(a, b), INSERT", "ALL", "ALTER UPDATE, ALTER DELETE", "CREATE TEMPORARY TABLE",
-                       "SHOW TABLES, dictGet", "INSERT", "DROP TABLE", "CURRENT GRANTS"])
-        on = r.pick(["db.t", "db.*", "*.*", "t"])
-        y = r.below(8)
+                       "SHOW TABLES, dictGet", "INSERT", "DROP TABLE", "CURRENT GRANTS", "SELECT(`a b`, key)", "ALL PRIVILEGES", "USAGE",
+                       "ALTER TABLE, ALTER VIEW", "SYSTEM RELOAD DICTIONARY", "SOURCES", "CREATE USER, ALTER USER, DROP USER", "displaySecretsInShowAndSelect",
+                       "KILL QUERY", "INTROSPECTION", "CLUSTER", "OPTIMIZE"])
+        on = r.pick(["db.t", "db.*", "*.*", "t", "`my db`.`my t`", "*", "db.t*", "db.`t*`", "{db:Identifier}.*", "system.*"])
+        y = r.below(10)
         if y == 0:
-            return "GRANT " + r.pick(["r", "r1, r2"]) + " TO " + r.pick(["u", "u1, u2"]) + r.pick(["", " WITH ADMIN OPTION"])
+            return "GRANT " + r.pick(["r", "r1, r2", "`my role`"]) + " TO " + r.pick(["u", "u1, u2", "CURRENT_USER"]) + r.pick(["", " WITH ADMIN OPTION", " WITH REPLACE OPTION"])
         if y == 1:
             return "REVOKE " + r.pick(["r FROM u", "ADMIN OPTION FOR r FROM u", "GRANT OPTION FOR SELECT ON t FROM u",
-                                       "ON CLUSTER c SELECT ON t FROM ALL EXCEPT u"])
-        if y < 5:
-            return "GRANT " + r.pick(["", "", "ON CLUSTER c "]) + priv + " ON " + on + " TO " + r.pick(["u", "u, r", "r"]) \
-                + r.pick(["", "", " WITH GRANT OPTION", " WITH REPLACE OPTION"])
-        return "REVOKE " + priv.replace("CURRENT GRANTS", "ALL") + " ON " + on + " FROM " + r.pick(["u", "u1, u2", "ALL"])
+                                       "ON CLUSTER c SELECT ON t FROM ALL EXCEPT u", "r1, r2 FROM u1, u2", "ALL ON *.* FROM ALL", "ALL PRIVILEGES ON db.* FROM CURRENT_USER"])
+        if y < 6:
+            return r.pick(["GRANT ", "grant "]) + r.pick(["", "", "ON CLUSTER c "]) + priv + " ON " + on + " TO " + r.pick(["u", "u, r", "r", "u@'%'", "`my user`", "CURRENT_USER", "ALL EXCEPT u"]) \
+                + r.pick(["", "", " WITH GRANT OPTION", " WITH REPLACE OPTION", " WITH GRANT OPTION WITH REPLACE OPTION"])
+        if y == 6:
+            return "GRANT CURRENT GRANTS" + r.pick(["", "(SELECT ON db.*)", " (ALL ON *.*)"]) + " TO u"
+        return "REVOKE " + priv.replace("CURRENT GRANTS", "ALL") + " ON " + on + " FROM " + r.pick(["u", "u1, u2", "ALL", "ALL EXCEPT u"])
     if x < 42:
         return r.pick(["KILL QUERY WHERE query_id = 'x'", "KILL QUERY WHERE 1 ASYNC", "KILL QUERY WHERE 1 TEST",
                        "KILL QUERY WHERE user = 'u' SYNC", "KILL MUTATION WHERE database = 'db' AND table = 't'",
                        "KILL QUERY WHERE query_id IN ('a', 'b') FORMAT Null",
-                       "KILL QUERY WHERE " + expr(r, 3, False)])
+                       "KILL QUERY WHERE " + expr(r, 3, False),
+                       "KILL MUTATION WHERE mutation_id = 'm' SYNC", "KILL QUERY WHERE 1 SYNC FORMAT JSON", "KILL QUERY WHERE 1 FORMAT TSV SETTINGS a = 1",
+                       "KILL MUTATION WHERE 1 TEST FORMAT Null", "KILL QUERY WHERE 1 SETTINGS a = 1", "KILL QUERY WHERE elapsed > 10 ASYNC SETTINGS a = 1, b = 2", "kill query where 1",
+                       "KILL MUTATION WHERE (database, table) IN (('db', 't'))", "KILL QUERY WHERE query_id LIKE 'x%'", "KILL QUERY WHERE 1 SYNC TEST",
+                       "KILL QUERY WHERE NOT (user = 'u')", "KILL QUERY WHERE elapsed < 10", "KILL QUERY WHERE elapsed <= 10", "KILL QUERY WHERE elapsed >= 10", "KILL QUERY WHERE a <> b",
+                       "KILL QUERY WHERE a == b", "KILL QUERY WHERE user", "KILL QUERY WHERE a AND b OR c", "KILL QUERY WHERE a + 1", "KILL QUERY WHERE a <=> b", "KILL QUERY WHERE startsWith(query, 'x')",
+                       "KILL QUERY WHERE query_id NOT IN ('a')", "KILL QUERY WHERE a BETWEEN 1 AND 2", "KILL QUERY WHERE x IS NULL", "KILL QUERY WHERE a || b = 'c'", "KILL MUTATION WHERE a DIV 2", "KILL QUERY WHERE 0"])
     if x < 45:
-        dest = r.pick(["Disk('backups', '1.zip')", "File('/p')", "S3('u', 'k', 's')", "Disk('b', 'x')"])
+        dest = r.pick(["Disk('backups', '1.zip')", "File('/p')", "S3('u', 'k', 's')", "Disk('b', 'x')", "Null", "Disk('d', 'it\\'s.zip')",
+                       "AzureBlobStorage('c', 'cont', 'p')", "Disk('b', concat('x', '.zip'))", "S3(named_coll, 'f')", "File('f.tar.gz')"])
         return r.pick([
             lambda: "BACKUP TABLE " + tbl(r) + " TO " + dest,
             lambda: "BACKUP DATABASE db TO " + dest,
@@ -1308,43 +2675,86 @@ def gen_utility(r):
             lambda: "RESTORE TABLE " + tbl(r) + " FROM " + dest,
             lambda: "RESTORE ALL FROM " + dest + " SETTINGS allow_non_empty_tables = 1",
             lambda: "RESTORE DATABASE db FROM " + dest,
+            lambda: "RESTORE DICTIONARY d FROM " + dest,
+            lambda: "BACKUP TABLE " + tbl(r) + " TO " + dest + " FORMAT " + r.pick(["Null", "JSON"]),
+            lambda: "RESTORE TABLE " + tbl(r) + " FROM " + dest + " FORMAT " + r.pick(["Null", "TSV"]),
+            lambda: "BACKUP DATABASE `my db` TO " + dest + " SETTINGS compression_method = 'zstd', password = 'p' FORMAT Null",
+            lambda: "RESTORE ALL FROM " + dest + " SETTINGS structure_only = true FORMAT Null",
+            lambda: "BACKUP TABLE t",
+            lambda: "RESTORE DATABASE db",
+            lambda: "backup table t to " + dest,
         ])()
     if x < 47:
         return "CHECK TABLE " + tbl(r) + r.pick(["", " PARTITION 1", " PART 'x'", " FORMAT JSON",
-                                                 " SETTINGS check_query_single_value_result = 0"])
+                                                 " SETTINGS check_query_single_value_result = 0", " PARTITION tuple()", " PARTITION '2020-01-01' FORMAT Null",
+                                                 " PART 'all_1_1_0' SETTINGS a = 1", " FORMAT TSV SETTINGS a = 1", " PARTITION (1, 'a')", " PARTITION ALL"]) \
+            if r.p(9, 10) else r.pick(["CHECK t", "check table t", "CHECK db.t PARTITION 1"])
     if x < 50:
-        return r.pick(["ATTACH TABLE t", "ATTACH TABLE t FROM '/p' (a UInt8) ENGINE = Memory",
-                       "ATTACH TABLE t UUID '00000000-0000-0000-0000-000000000001' (a UInt8) ENGINE = Memory",
-                       "ATTACH DATABASE db", "ATTACH DICTIONARY d", "DETACH TABLE " + tbl(r), "DETACH DICTIONARY d",
-                       "DETACH DATABASE db", "DETACH TABLE IF EXISTS t"])
+        return r.pick(["DETACH TABLE " + tbl(r), "DETACH DICTIONARY d", "DETACH DICTIONARY db.d", "DETACH DATABASE db", "DETACH TABLE t",
+                       "DETACH t", "DETACH db.t", "DETACH DATABASE `my db`", "DETACH DICTIONARY `my d`", "detach table t", "DETACH TABLE key"]) \
+            if r.p(1, 2) else gen_attach(r)
     if x < 55:
         return r.pick([
-            lambda: "DROP TABLE " + ie + tbl(r) + oc + r.pick(["", " SYNC", " NO DELAY"]),
+            lambda: "DROP TABLE " + ie + tbl(r) + oc + r.pick(["", " SYNC", " NO DELAY", " sync"]),
             lambda: "DROP TABLE t1, t2",
             lambda: "DROP TEMPORARY TABLE t",
             lambda: "DROP TABLE IF EMPTY t",
             lambda: "DROP VIEW " + ie + r.pick(["v", "db.v"]),
-            lambda: "DROP DICTIONARY " + ie + "d",
-            lambda: "DROP DATABASE " + ie + "db" + oc + r.pick(["", " SYNC"]),
-            lambda: "DROP FUNCTION " + ie + "f" + oc,
-            lambda: "DROP USER " + ie + r.pick(["u", "u1, u2"]),
+            lambda: "DROP DICTIONARY " + ie + r.pick(["d", "db.d", "`my d`"]) + r.pick(["", " SYNC"]),
+            lambda: "DROP DATABASE " + ie + r.pick(["db", "`my db`", "{db:Identifier}"]) + oc + r.pick(["", " SYNC"]),
+            lambda: "DROP FUNCTION " + ie + r.pick(["f", "`my f`"]) + oc,
+            lambda: "DROP USER " + ie + r.pick(["u", "u1, u2", "u@h", "u@'%'", "u1@h1, u2@'h2'", "`my user`", "u @ localhost"]),
             lambda: "DROP ROLE " + ie + r.pick(["r", "r1, r2"]) + oc,
-            lambda: "DROP " + r.pick(["ROW POLICY", "POLICY"]) + " " + ie + "p ON " + r.pick(["t", "db.t"]),
-            lambda: "DROP QUOTA q",
-            lambda: "DROP " + r.pick(["SETTINGS PROFILE", "PROFILE"]) + " " + ie + "p",
-            lambda: "DROP INDEX " + ie + "i ON " + r.pick(["t", "db.t"]),
-            lambda: r.pick(["DROP NAMED COLLECTION nc", "DROP RESOURCE res", "DROP WORKLOAD w", "DROP TABLE t SETTINGS a = 1"]),
+            lambda: "DROP " + r.pick(["ROW POLICY", "POLICY"]) + " " + ie + r.pick(["p ON ", "p1, p2 ON "]) + r.pick(["t", "db.t", "db.*"]) + oc,
+            lambda: "DROP QUOTA " + ie + r.pick(["q", "q1, q2", "`my q`"]) + oc,
+            lambda: "DROP " + r.pick(["SETTINGS PROFILE", "PROFILE"]) + " " + ie + r.pick(["p", "p1, p2", "p1, p2, p3"]) + oc,
+            lambda: "DROP INDEX " + ie + r.pick(["i", "`my idx`"]) + " ON " + r.pick(["t", "db.t"]),
+            lambda: r.pick(["DROP NAMED COLLECTION nc", "DROP RESOURCE res", "DROP WORKLOAD w", "DROP TABLE t SETTINGS a = 1",
+                            "DROP NAMED COLLECTION IF EXISTS nc", "DROP NAMED COLLECTION IF EXISTS `my nc` ON CLUSTER c", "DROP RESOURCE IF EXISTS r", "DROP WORKLOAD IF EXISTS `w`",
+                            "DROP NAMED COLLECTION 'nc'"]),
+            lambda: "DROP TABLE " + ie + r.pick(["t1, db.t2", "t1, t2, t3", "db.t1, db.t2"]) + r.pick(["", " SYNC", oc]),
+            lambda: "DROP TABLE " + ie + tbl(r) + r.pick([" FORMAT Null", " SYNC FORMAT Null", " FORMAT Null SYNC", " FORMAT JSON", " NO DELAY SETTINGS a = 1", " SYNC SETTINGS a = 1, b = 2"]),
+            lambda: "DROP DATABASE " + ie + "db FORMAT Null",
+            lambda: "DROP VIEW " + ie + "db.v" + oc + " SYNC",
+            lambda: "DROP TEMPORARY TABLE IF EXISTS t SYNC",
+            lambda: "drop table if exists t",
         ])()
     if x < 57:
         return r.pick(["EXISTS t", "EXISTS TABLE db.t", "EXISTS TEMPORARY TABLE t", "EXISTS VIEW v", "EXISTS DICTIONARY d",
-                       "EXISTS DATABASE db", "UNDROP TABLE t", "UNDROP TABLE db.t"])
+                       "EXISTS DATABASE db", "UNDROP TABLE t", "UNDROP TABLE db.t",
+                       "EXISTS `my t`", "EXISTS db.t", "EXISTS VIEW db.v", "EXISTS DICTIONARY db.d", "EXISTS DATABASE `my db`", "EXISTS TABLE t SETTINGS a = 1",
+                       "EXISTS DATABASE db SETTINGS a = 1", "exists table t", "EXISTS TABLE key",
+                       "UNDROP TABLE t ON CLUSTER c", "UNDROP TABLE db.t UUID '00000000-0000-0000-0000-000000000001'", "UNDROP TABLE t FORMAT Null",
+                       "UNDROP TABLE db.t ON CLUSTER c UUID '00000000-0000-0000-0000-000000000001' FORMAT JSON", "UNDROP t", "undrop table t"])
     if x < 59:
         return r.pick([
             lambda: "UPDATE " + tbl(r) + " SET " + r.pick(COLS) + " = " + expr(r, 3, False) + " WHERE " + expr(r, 3, False),
             lambda: "DELETE FROM " + tbl(r) + r.pick(["", " ON CLUSTER c"]) + " WHERE " + expr(r, 3, True),
             lambda: "DELETE FROM t IN PARTITION 1 WHERE a",
+            lambda: "UPDATE " + tbl(r) + " SET a = 1, b = b + 1, key = 'x' WHERE " + expr(r, 3, True),
+            lambda: "DELETE FROM " + tbl(r) + " WHERE " + expr(r, 3, False) + " SETTINGS " + r.pick(["a = 1", "lightweight_deletes_sync = 2, b = 'x'"]),
+            lambda: "DELETE FROM db.t ON CLUSTER c IN PARTITION " + r.pick(["tuple()", "'2020-01-01'", "(1, 'a')", "202001"]) + " WHERE a IN (SELECT 1)",
+            lambda: "delete from t where 1",
         ])()
-    return "FROM " + tbl(r) + " SELECT " + col(r) + r.pick(["", " WHERE a > 1", " LIMIT 1"])
+    if x < 62:
+        # PARALLEL WITH chains
+        a = lambda: r.pick(["DROP TABLE IF EXISTS t1", "DROP TABLE t2 SYNC", "CREATE TABLE t3 (a UInt8) ENGINE = Memory", "INSERT INTO t VALUES (1)",
+                            "TRUNCATE TABLE t", "DROP DATABASE db", "DROP TABLE db.t", "SELECT 1", "INSERT INTO t SELECT 1", "DROP TEMPORARY TABLE tt",
+                            "CREATE TABLE t4 AS t", "ALTER TABLE t DROP COLUMN c", "OPTIMIZE TABLE t FINAL", "RENAME TABLE a TO b", "DROP VIEW v", "SET a = 1"])
+        return " PARALLEL WITH ".join(a() for _ in range(2 + r.below(3)))
+    if x < 64:
+        return "FROM " + tbl(r) + " SELECT " + col(r) + r.pick(["", " WHERE a > 1", " LIMIT 1", " GROUP BY a HAVING count() > 1 ORDER BY a LIMIT 2 SETTINGS max_threads = 1"])
+    if x < 66:
+        return r.pick(["SHOW PRIVILEGES", "SHOW GRANTS FOR u FORMAT TSV", "SHOW GRANTS FORMAT JSON", "SHOW CREATE QUOTA q FORMAT JSON",
+                       "SHOW CREATE ROLE r1, r2 FORMAT TSV", "SHOW CREATE SETTINGS PROFILE p1, p2 FORMAT TSV", "SHOW CREATE PROFILE p FORMAT Null",
+                       "SHOW CREATE ROW POLICY p ON t FORMAT JSON", "SHOW CREATE POLICY p ON db.t FORMAT TSV", "SHOW CREATE USER u1, u2 FORMAT JSON", "SHOW CREATE USER u FORMAT Null",
+                       "SHOW CREATE QUOTA `my q`", "SHOW GRANTS FOR u1, u2 WITH IMPLICIT FINAL FORMAT TSV", "SHOW CREATE ROLE r@h, r2 FORMAT JSON"])
+    return r.pick(["(SELECT 1)", "((SELECT 1))", "(SELECT 1) UNION ALL (SELECT 2)", "(SELECT 1) UNION (SELECT 2) UNION DISTINCT SELECT 3",
+                   "(SELECT 1) INTERSECT (SELECT 2)", "(SELECT 1) EXCEPT ALL SELECT 2", "(SELECT 1 UNION ALL SELECT 2) INTERSECT DISTINCT (SELECT 2)",
+                   "(SELECT 1) UNION ALL (SELECT 2) FORMAT TSV", "(SELECT 1) UNION ALL (SELECT 2) SETTINGS max_threads = 1 FORMAT TSV",
+                   "(SELECT 1) UNION ALL (SELECT 2) FORMAT TSV SETTINGS max_threads = 1", "(SELECT 1) SETTINGS a = 1", "(SELECT 1) FORMAT Null",
+                   "(WITH 1 AS x SELECT x)", "(SELECT 1 AS a) UNION ALL SELECT 2 ORDER BY a", "((SELECT 1) UNION ALL (SELECT 2))",
+                   "(SELECT 1) INTERSECT SELECT 1 EXCEPT SELECT 2", "(SELECT a FROM t) EXCEPT DISTINCT (SELECT a FROM t2) INTERSECT ALL (SELECT 1)"])
 
 
 # ------------------------------------------------------------------------------------------
@@ -1388,6 +2798,10 @@ def main():
         r = Rng(seed, idx)
         s = GENERATORS[k](r)
         s = " ".join(s.split())
+        if r.p(1, 25):
+            s = decorate(r, s)
+        if RAW_TAB in s or RAW_CR in s:
+            s = s.replace(RAW_TAB, "\t").replace(RAW_CR, "\r")
         out.write((s.encode("utf-8").hex() if as_hex else s) + "\n")
 
 
